@@ -44,6 +44,12 @@ let compOpp = function
 | Lt -> Gt
 | Gt -> Lt
 
+(** val pred : nat -> nat **)
+
+let pred n0 = match n0 with
+| O -> n0
+| S u -> u
+
 module Coq__1 = struct
  (** val add : nat -> nat -> nat **)
  let rec add n0 m =
@@ -184,6 +190,15 @@ let rec nth_error l = function
            | [] -> None
            | _ :: l0 -> nth_error l0 n1)
 
+(** val last : 'a1 list -> 'a1 -> 'a1 **)
+
+let rec last l d =
+  match l with
+  | [] -> d
+  | a :: l0 -> (match l0 with
+                | [] -> a
+                | _ :: _ -> last l0 d)
+
 (** val rev : 'a1 list -> 'a1 list **)
 
 let rec rev = function
@@ -215,6 +230,12 @@ let rec fold_left f l a0 =
   | [] -> a0
   | b :: t -> fold_left f t (f a0 b)
 
+(** val fold_right : ('a2 -> 'a1 -> 'a1) -> 'a1 -> 'a2 list -> 'a1 **)
+
+let rec fold_right f a0 = function
+| [] -> a0
+| b :: t -> f b (fold_right f a0 t)
+
 (** val existsb : ('a1 -> bool) -> 'a1 list -> bool **)
 
 let rec existsb f = function
@@ -226,6 +247,12 @@ let rec existsb f = function
 let rec forallb f = function
 | [] -> true
 | a :: l0 -> (&&) (f a) (forallb f l0)
+
+(** val filter : ('a1 -> bool) -> 'a1 list -> 'a1 list **)
+
+let rec filter f = function
+| [] -> []
+| x :: l0 -> if f x then x :: (filter f l0) else filter f l0
 
 (** val combine : 'a1 list -> 'a2 list -> ('a1 * 'a2) list **)
 
@@ -669,6 +696,13 @@ module N =
     | Lt -> true
     | _ -> false
 
+  (** val min : n -> n -> n **)
+
+  let min n0 n' =
+    match compare n0 n' with
+    | Gt -> n'
+    | _ -> n0
+
   (** val max : n -> n -> n **)
 
   let max n0 n' =
@@ -838,6 +872,20 @@ let eqb0 a b =
   then eqb a7 b7
   else false
 
+(** val n_of_digits : bool list -> n **)
+
+let rec n_of_digits = function
+| [] -> N0
+| b :: l' ->
+  N.add (if b then Npos XH else N0) (N.mul (Npos (XO XH)) (n_of_digits l'))
+
+(** val n_of_ascii : ascii -> n **)
+
+let n_of_ascii = function
+| Ascii (a0, a1, a2, a3, a4, a5, a6, a7) ->
+  n_of_digits
+    (a0 :: (a1 :: (a2 :: (a3 :: (a4 :: (a5 :: (a6 :: (a7 :: []))))))))
+
 module Z =
  struct
   (** val double : z -> z **)
@@ -967,6 +1015,13 @@ module Z =
     | Lt -> true
     | _ -> false
 
+  (** val gtb : z -> z -> bool **)
+
+  let gtb x y =
+    match compare x y with
+    | Gt -> true
+    | _ -> false
+
   (** val eqb : z -> z -> bool **)
 
   let eqb x y =
@@ -981,11 +1036,32 @@ module Z =
                  | Zneg q -> Coq_Pos.eqb p q
                  | _ -> false)
 
+  (** val max : z -> z -> z **)
+
+  let max n0 m =
+    match compare n0 m with
+    | Lt -> m
+    | _ -> n0
+
+  (** val min : z -> z -> z **)
+
+  let min n0 m =
+    match compare n0 m with
+    | Gt -> m
+    | _ -> n0
+
   (** val abs : z -> z **)
 
   let abs = function
   | Zneg p -> Zpos p
   | x -> x
+
+  (** val abs_N : z -> n **)
+
+  let abs_N = function
+  | Z0 -> N0
+  | Zpos p -> Npos p
+  | Zneg p -> Npos p
 
   (** val to_nat : z -> nat **)
 
@@ -1052,6 +1128,11 @@ module Z =
           | Z0 -> ((opp q), Z0)
           | _ -> ((opp (add q (Zpos XH))), (sub b r)))
        | Zneg b' -> let (q, r) = pos_div_eucl a' (Zpos b') in (q, (opp r)))
+
+  (** val div : z -> z -> z **)
+
+  let div a b =
+    let (q, _) = div_eucl a b in q
 
   (** val modulo : z -> z -> z **)
 
@@ -1145,7 +1226,7 @@ type sx =
 
 (** val sx_err : string -> sx **)
 
-let sx_err msg =
+let sx_err msg0 =
   SL ((SA (String ((Ascii (true, false, true, true, false, true, true,
     false)), (String ((Ascii (true, true, true, true, false, true, true,
     false)), (String ((Ascii (false, false, true, false, false, true, true,
@@ -1164,7 +1245,7 @@ let sx_err msg =
     false)), (String ((Ascii (true, true, true, true, false, true, true,
     false)), (String ((Ascii (false, true, false, false, true, true, true,
     false)), EmptyString))))))))))))))))))))))))))))))))))) :: ((SA
-    msg) :: []))
+    msg0) :: []))
 
 (** val sx_nat : nat -> sx **)
 
@@ -1183,6 +1264,13 @@ let bind r f =
   | Ok a -> f a
   | Err e -> Err e
   | Panic p -> Panic p
+
+(** val res_map : ('a1 -> 'a2) -> 'a1 res -> 'a2 res **)
+
+let res_map f = function
+| Ok a -> Ok (f a)
+| Err e -> Err e
+| Panic p -> Panic p
 
 (** val eNotEnoughBits : n **)
 
@@ -1208,6 +1296,26 @@ let eZeroSize =
 
 let eTooSmall =
   Npos (XI (XO XH))
+
+(** val eInvalidHex : n **)
+
+let eInvalidHex =
+  Npos (XO (XI XH))
+
+(** val eNotEnoughRefs : n **)
+
+let eNotEnoughRefs =
+  Npos (XO (XO (XO XH)))
+
+(** val eRefsOverflow : n **)
+
+let eRefsOverflow =
+  Npos (XI (XO (XO XH)))
+
+(** val eOther : n **)
+
+let eOther =
+  Npos (XO (XI (XO XH)))
 
 (** val eFuel : n **)
 
@@ -1673,7 +1781,7 @@ let read_big_uint w s =
                  read_bytes (Nat.div w (S (S (S (S (S (S (S (S O))))))))) s1
                in
                (match r0 with
-                | Ok bytes0 ->
+                | Ok bytes1 ->
                   (s2, (Ok
                     (N.add
                       (N.mul hi
@@ -1681,7 +1789,7 @@ let read_big_uint w s =
                           (N.of_nat
                             (mul (S (S (S (S (S (S (S (S O))))))))
                               (Nat.div w (S (S (S (S (S (S (S (S O)))))))))))))
-                      (n_of_bits (bytes_bits bytes0)))))
+                      (n_of_bits (bytes_bits bytes1)))))
                 | Err e -> (s2, (Err e))
                 | Panic p -> (s2, (Panic p)))
              | x -> (s1, x))
@@ -3349,9 +3457,9 @@ let pad len0 =
 
 (** val sha256 : n list -> n list **)
 
-let sha256 msg =
-  let len0 = length msg in
-  let ws = words_of_bytes (app msg (pad len0)) in
+let sha256 msg0 =
+  let len0 = length msg0 in
+  let ws = words_of_bytes (app msg0 (pad len0)) in
   let h =
     blocks (S
       (add
@@ -4012,7 +4120,7 @@ let rec build_loop h special ty mask0 l refs levels seen hashes depths =
                          Ok
                            ((d1_byte (length refs) special
                               (mask_apply mask0 i)) :: ((d2_byte (length l)) :: h1))
-                       | None -> Panic pIndex)) (fun head ->
+                       | None -> Panic pIndex)) (fun head0 ->
                 let child = if is_merkle special ty then S i else i in
                 bind (mapM (fun r -> imm_depth r child) refs) (fun cdepths ->
                   let maxd = fold_left N.max cdepths N0 in
@@ -4029,7 +4137,7 @@ let rec build_loop h special ty mask0 l refs levels seen hashes depths =
                          (fun chashes ->
                          let h1 =
                            h
-                             (app head
+                             (app head0
                                (app (flat_map be16 cdepths) (concat chashes)))
                          in
                          build_loop h special ty mask0 l refs rest (S seen)
@@ -4401,7 +4509,7 @@ let rec find_hash h = function
     node list -> bytes res list -> nat -> cinfo list -> (bytes * nat) list ->
     nat -> nat -> ((cinfo list * (bytes * nat) list) * nat) res **)
 
-let rec import_cell dag hashes fuel st m cell0 depth =
+let rec import_cell dag hashes fuel st m cell2 depth =
   match fuel with
   | O -> Err eFuel
   | S f ->
@@ -4453,9 +4561,9 @@ let rec import_cell dag hashes fuel st m cell0 depth =
          O))))))))))))))))))))))))))))))))))))))))))))))))))))))))))))))))))))))))))))))))))))))))))))))))))))))))))))))))))))))))))))))))))))))))))))))))))))))))))))))))))))))))))))))))))))))))))))))))))))))))))))))))))))))))))))))))))))))))))))))))))))))))))))))))))))))))))))))))))))))))))))))))))))))))))))))))))))))))))))))))))))))))))))))))))))))))))))))))))))))))))))))))))))))))))))))))))))))))))))))))))))))))))))))))))))))))))))))))))))))))))))))))))))))))))))))))))))))))))))))))))))))))))))))))))))))))))))))))))))))))))))))))))))))))))))))))))))))))))))))))))))))))))))))))))))))))))))))))))))))))))))))))))))))))))))))))))))))))))))))))))))))))))))))))))))))))))))))))))))))))))))))))))))))))))))))))))))))))))))))))))))))))))))))))))))))))))))))))))))))))))))))))))))))))))))))))))))))))))))))))))))))))))))))))))))))))))))))))))))))))))))))))))))))))))))))))))))))))))))))))))))))))))))))))))))))))))))))))))))))))))))))))))))))))))))))))))))))))))))))))))))))))))))))))))))))))))))))))))))))))))))))))))))))))))))))))
          depth
     then Err eDepth
-    else (match nth_error hashes cell0 with
+    else (match nth_error hashes cell2 with
           | Some rh ->
-            (match nth_error dag cell0 with
+            (match nth_error dag cell2 with
              | Some nd ->
                bind rh (fun h ->
                  match find_hash h m with
@@ -4520,7 +4628,7 @@ let rec import_cell dag hashes fuel st m cell0 depth =
                      in
                      let pos = length st' in
                      Ok
-                     (((app st' ({ ci_node = cell0; ci_cache = false; ci_wt =
+                     (((app st' ({ ci_node = cell2; ci_cache = false; ci_wt =
                          wt; ci_refs = refs; ci_hashcount = (S
                          (mask_popcount nd.n_mask)); ci_new = (Zneg XH);
                          ci_root = false } :: [])), ((h, pos) :: m')), pos)))
@@ -4757,7 +4865,7 @@ let serialize dag hashes roots idx hasCrc cacheBits =
       | None -> []
     in
     let reps = map repr_of infos in
-    let step0 = fun acc p0 ->
+    let step1 = fun acc p0 ->
       let (off, offs) = acc in
       let (ci, rep) = p0 in
       let off' = N.add off (N.of_nat (length rep)) in
@@ -4769,7 +4877,7 @@ let serialize dag hashes roots idx hasCrc cacheBits =
       in
       (off', (fixed :: offs))
     in
-    let (total, offsets) = fold_left step0 (rev (combine infos reps)) (N0, [])
+    let (total, offsets) = fold_left step1 (rev (combine infos reps)) (N0, [])
     in
     let offSize = byte_len total in
     let flags =
@@ -5153,7 +5261,7 @@ let stored_depth m data k0 =
 
 let level_repr h special m data nrefs j prev kids =
   let d1 = d1_byte nrefs special (mask_apply m j) in
-  let head =
+  let head0 =
     match prev with
     | Some h1 -> d1 :: ((d2_byte (length data)) :: h1)
     | None -> d1 :: ((d2_byte (length data)) :: (data_with_tag data))
@@ -5166,7 +5274,7 @@ let level_repr h special m data nrefs j prev kids =
   else let depth = if Nat.eqb nrefs O then N0 else N.add maxd (Npos XH) in
        Ok
        ((h
-          (app head
+          (app head0
             (app (flat_map be16 (map snd kids)) (concat (map fst kids))))),
        depth)
 
@@ -5753,6 +5861,7023 @@ let run_key = function
     false)), (String ((Ascii (true, false, false, true, true, true, true,
     false)), EmptyString))))))
 
+(** val bits_cmp : bits -> bits -> comparison **)
+
+let rec bits_cmp a b =
+  match a with
+  | [] -> (match b with
+           | [] -> Eq
+           | _ :: _ -> Lt)
+  | x :: a' ->
+    (match b with
+     | [] -> Gt
+     | y :: b' ->
+       if x
+       then if y then bits_cmp a' b' else Gt
+       else if y then Lt else bits_cmp a' b')
+
+(** val bits_ltb : bits -> bits -> bool **)
+
+let bits_ltb a b =
+  match bits_cmp a b with
+  | Lt -> true
+  | _ -> false
+
+(** val bits_eqb0 : bits -> bits -> bool **)
+
+let bits_eqb0 a b =
+  match bits_cmp a b with
+  | Eq -> true
+  | _ -> false
+
+type cell0 =
+| Cell0 of bits * cell0 list
+
+(** val mk_cell : bits -> cell0 list -> cell0 res **)
+
+let mk_cell b rs =
+  if Nat.ltb (S (S (S (S (S (S (S (S (S (S (S (S (S (S (S (S (S (S (S (S (S
+       (S (S (S (S (S (S (S (S (S (S (S (S (S (S (S (S (S (S (S (S (S (S (S
+       (S (S (S (S (S (S (S (S (S (S (S (S (S (S (S (S (S (S (S (S (S (S (S
+       (S (S (S (S (S (S (S (S (S (S (S (S (S (S (S (S (S (S (S (S (S (S (S
+       (S (S (S (S (S (S (S (S (S (S (S (S (S (S (S (S (S (S (S (S (S (S (S
+       (S (S (S (S (S (S (S (S (S (S (S (S (S (S (S (S (S (S (S (S (S (S (S
+       (S (S (S (S (S (S (S (S (S (S (S (S (S (S (S (S (S (S (S (S (S (S (S
+       (S (S (S (S (S (S (S (S (S (S (S (S (S (S (S (S (S (S (S (S (S (S (S
+       (S (S (S (S (S (S (S (S (S (S (S (S (S (S (S (S (S (S (S (S (S (S (S
+       (S (S (S (S (S (S (S (S (S (S (S (S (S (S (S (S (S (S (S (S (S (S (S
+       (S (S (S (S (S (S (S (S (S (S (S (S (S (S (S (S (S (S (S (S (S (S (S
+       (S (S (S (S (S (S (S (S (S (S (S (S (S (S (S (S (S (S (S (S (S (S (S
+       (S (S (S (S (S (S (S (S (S (S (S (S (S (S (S (S (S (S (S (S (S (S (S
+       (S (S (S (S (S (S (S (S (S (S (S (S (S (S (S (S (S (S (S (S (S (S (S
+       (S (S (S (S (S (S (S (S (S (S (S (S (S (S (S (S (S (S (S (S (S (S (S
+       (S (S (S (S (S (S (S (S (S (S (S (S (S (S (S (S (S (S (S (S (S (S (S
+       (S (S (S (S (S (S (S (S (S (S (S (S (S (S (S (S (S (S (S (S (S (S (S
+       (S (S (S (S (S (S (S (S (S (S (S (S (S (S (S (S (S (S (S (S (S (S (S
+       (S (S (S (S (S (S (S (S (S (S (S (S (S (S (S (S (S (S (S (S (S (S (S
+       (S (S (S (S (S (S (S (S (S (S (S (S (S (S (S (S (S (S (S (S (S (S (S
+       (S (S (S (S (S (S (S (S (S (S (S (S (S (S (S (S (S (S (S (S (S (S (S
+       (S (S (S (S (S (S (S (S (S (S (S (S (S (S (S (S (S (S (S (S (S (S (S
+       (S (S (S (S (S (S (S (S (S (S (S (S (S (S (S (S (S (S (S (S (S (S (S
+       (S (S (S (S (S (S (S (S (S (S (S (S (S (S (S (S (S (S (S (S (S (S (S
+       (S (S (S (S (S (S (S (S (S (S (S (S (S (S (S (S (S (S (S (S (S (S (S
+       (S (S (S (S (S (S (S (S (S (S (S (S (S (S (S (S (S (S (S (S (S (S (S
+       (S (S (S (S (S (S (S (S (S (S (S (S (S (S (S (S (S (S (S (S (S (S (S
+       (S (S (S (S (S (S (S (S (S (S (S (S (S (S (S (S (S (S (S (S (S (S (S
+       (S (S (S (S (S (S (S (S (S (S (S (S (S (S (S (S (S (S (S (S (S (S (S
+       (S (S (S (S (S (S (S (S (S (S (S (S (S (S (S (S (S (S (S (S (S (S (S
+       (S (S (S (S (S (S (S (S (S (S (S (S (S (S (S (S (S (S (S (S (S (S (S
+       (S (S (S (S (S (S (S (S (S (S (S (S (S (S (S (S (S (S (S (S (S (S (S
+       (S (S (S (S (S (S (S (S (S (S (S (S (S (S (S (S (S (S (S (S (S (S (S
+       (S (S (S (S (S (S (S (S (S (S (S (S (S (S (S (S (S (S (S (S (S (S (S
+       (S (S (S (S (S (S (S (S (S (S (S (S (S (S (S (S (S (S (S (S (S (S (S
+       (S (S (S (S (S (S (S (S (S (S (S (S (S (S (S (S (S (S (S (S (S (S (S
+       (S (S (S (S (S (S (S (S (S (S (S (S (S (S (S (S (S (S (S (S (S (S (S
+       (S (S (S (S (S (S (S (S (S (S (S (S (S (S (S (S (S (S (S (S (S (S (S
+       (S (S (S (S (S (S (S (S (S (S (S (S (S (S (S (S (S (S (S (S (S (S (S
+       (S (S (S (S (S (S (S (S (S (S (S (S (S (S (S (S (S (S (S (S (S (S (S
+       (S (S (S (S (S (S (S (S (S (S (S (S (S (S (S (S (S (S (S (S (S (S (S
+       (S (S (S (S (S (S (S (S (S (S (S (S (S (S (S (S (S (S (S (S (S (S (S
+       (S (S (S (S (S (S (S (S (S (S (S (S (S (S (S (S (S (S (S (S (S (S (S
+       (S (S (S (S (S (S (S (S (S (S (S (S (S (S (S (S (S (S (S (S (S (S (S
+       (S (S (S (S (S (S (S (S (S (S (S (S (S
+       O)))))))))))))))))))))))))))))))))))))))))))))))))))))))))))))))))))))))))))))))))))))))))))))))))))))))))))))))))))))))))))))))))))))))))))))))))))))))))))))))))))))))))))))))))))))))))))))))))))))))))))))))))))))))))))))))))))))))))))))))))))))))))))))))))))))))))))))))))))))))))))))))))))))))))))))))))))))))))))))))))))))))))))))))))))))))))))))))))))))))))))))))))))))))))))))))))))))))))))))))))))))))))))))))))))))))))))))))))))))))))))))))))))))))))))))))))))))))))))))))))))))))))))))))))))))))))))))))))))))))))))))))))))))))))))))))))))))))))))))))))))))))))))))))))))))))))))))))))))))))))))))))))))))))))))))))))))))))))))))))))))))))))))))))))))))))))))))))))))))))))))))))))))))))))))))))))))))))))))))))))))))))))))))))))))))))))))))))))))))))))))))))))))))))))))))))))))))))))))))))))))))))))))))))))))))))))))))))))))))))))))))))))))))))))))))))))))))))))))))))))))))))))))))))))))))))))))))))))))))))))))))))))))))))))))))))))))))))))))))))))))))))))))))))))))))))))))))))))))))))))))))))))))))))))))))))
+       (length b)
+  then Err eOverflow
+  else if Nat.ltb (S (S (S (S O)))) (length rs)
+       then Err eRefsOverflow
+       else Ok (Cell0 (b, rs))
+
+type form =
+| FShort
+| FLong
+| FSame of bool
+
+(** val lim_width : nat -> nat **)
+
+let lim_width m =
+  N.to_nat (N.size (N.of_nat m))
+
+(** val hml_short : bits -> bits **)
+
+let hml_short lbl =
+  false :: (app (ones (length lbl)) (false :: lbl))
+
+(** val hml_long : nat -> bits -> bits **)
+
+let hml_long m lbl =
+  true :: (false :: (app (bits_of (lim_width m) (N.of_nat (length lbl))) lbl))
+
+(** val hml_same : nat -> bool -> nat -> bits **)
+
+let hml_same m b len0 =
+  true :: (true :: (b :: (bits_of (lim_width m) (N.of_nat len0))))
+
+(** val enc_label : form -> nat -> bits -> bits **)
+
+let enc_label f m lbl =
+  match f with
+  | FShort -> hml_short lbl
+  | FLong -> hml_long m lbl
+  | FSame b -> hml_same m b (length lbl)
+
+type 'v apt =
+| ALeaf of form * bits * 'v
+| AFork of form * bits * 'v apt * 'v apt
+
+(** val cells_of :
+    ('a1 -> bits * cell0 list) -> nat -> 'a1 apt -> cell0 res **)
+
+let rec cells_of venc m = function
+| ALeaf (f, lbl, v) ->
+  mk_cell (app (enc_label f m lbl) (fst (venc v))) (snd (venc v))
+| AFork (f, lbl, l, r) ->
+  bind (cells_of venc (sub (sub m (length lbl)) (S O)) l) (fun lc ->
+    bind (cells_of venc (sub (sub m (length lbl)) (S O)) r) (fun rc ->
+      mk_cell (enc_label f m lbl) (lc :: (rc :: []))))
+
+(** val lcp_go : bits -> bits -> bits res **)
+
+let rec lcp_go a b =
+  match a with
+  | [] -> Err eNotEnoughBits
+  | x :: a' ->
+    (match a' with
+     | [] -> Ok []
+     | _ :: _ ->
+       (match b with
+        | [] -> Err eNotEnoughBits
+        | y :: b' ->
+          if eqb x y
+          then bind (lcp_go a' b') (fun r -> Ok (x :: r))
+          else Ok []))
+
+(** val enc_label_go : nat -> bits -> bits **)
+
+let enc_label_go m lbl =
+  if Nat.ltb (length lbl) (S (S (S (S (S (S (S (S O))))))))
+  then false :: (app (app (ones (length lbl)) (false :: [])) lbl)
+  else true :: (false :: (app (bits_of (lim_width m) (N.of_nat (length lbl)))
+                           lbl))
+
+(** val binsert : (bits * 'a1) -> (bits * 'a1) list -> (bits * 'a1) list **)
+
+let rec binsert x l = match l with
+| [] -> x :: []
+| y :: t -> if bits_ltb (fst y) (fst x) then y :: (binsert x t) else x :: l
+
+(** val bsort : (bits * 'a1) list -> (bits * 'a1) list **)
+
+let rec bsort = function
+| [] -> []
+| x :: t -> binsert x (bsort t)
+
+(** val split_keys :
+    nat -> (bits * 'a1) list -> ((bits * 'a1) list * (bits * 'a1) list) res **)
+
+let rec split_keys sk = function
+| [] -> Ok ([], [])
+| p :: t ->
+  let (k0, v) = p in
+  if short sk k0
+  then Err eNotEnoughBits
+  else (match skipn sk k0 with
+        | [] -> Err eNotEnoughBits
+        | b :: k' ->
+          bind (split_keys sk t) (fun lr -> Ok
+            (if b
+             then ((fst lr), ((k', v) :: (snd lr)))
+             else (((k', v) :: (fst lr)), (snd lr)))))
+
+(** val encode_map :
+    ('a1 -> bits * cell0 list) -> nat -> nat -> (bits * 'a1) list -> cell0 res **)
+
+let rec encode_map venc fuel n0 kvs =
+  match fuel with
+  | O -> Err eFuel
+  | S fuel' ->
+    (match kvs with
+     | [] -> Err eOther
+     | p :: l ->
+       let (k0, v0) = p in
+       (match l with
+        | [] ->
+          mk_cell (app (enc_label_go n0 k0) (fst (venc v0))) (snd (venc v0))
+        | _ :: _ ->
+          bind (lcp_go k0 (fst (last kvs (k0, v0)))) (fun lbl ->
+            let n' = sub (sub n0 (length lbl)) (S O) in
+            bind (split_keys (length lbl) kvs) (fun lr ->
+              bind (encode_map venc fuel' n' (fst lr)) (fun lc ->
+                bind (encode_map venc fuel' n' (snd lr)) (fun rc ->
+                  mk_cell (enc_label_go n0 lbl) (lc :: (rc :: []))))))))
+
+(** val encode :
+    ('a1 -> bits * cell0 list) -> nat -> (bits * 'a1) list -> cell0 res **)
+
+let encode venc n0 kvs = match kvs with
+| [] -> Ok (Cell0 ([], []))
+| _ :: _ -> encode_map venc (S (length kvs)) n0 (bsort kvs)
+
+(** val encode_e :
+    ('a1 -> bits * cell0 list) -> nat -> (bits * 'a1) list -> cell0 res **)
+
+let encode_e venc n0 kvs = match kvs with
+| [] -> mk_cell (false :: []) []
+| _ :: _ ->
+  bind (encode venc n0 kvs) (fun c -> mk_cell (true :: []) (c :: []))
+
+(** val read_unary1 : bits -> (nat * bits) res **)
+
+let rec read_unary1 = function
+| [] -> Err eNotEnoughBits
+| b :: t ->
+  if b
+  then bind (read_unary1 t) (fun r -> Ok ((S (fst r)), (snd r)))
+  else Ok (O, t)
+
+(** val read_lim : nat -> bits -> (n * bits) res **)
+
+let read_lim m l =
+  let w = lim_width m in
+  if short w l
+  then Err eNotEnoughBits
+  else Ok ((n_of_bits (firstn w l)), (skipn w l))
+
+(** val load_label0 : nat -> nat -> bits -> (bits * bits) res **)
+
+let load_label0 m room = function
+| [] -> Err eNotEnoughBits
+| b0 :: c1 ->
+  if b0
+  then (match c1 with
+        | [] -> Err eNotEnoughBits
+        | b1 :: c2 ->
+          if b1
+          then (match c2 with
+                | [] -> Err eNotEnoughBits
+                | b :: c3 ->
+                  bind (read_lim m c3) (fun r ->
+                    let (lnN, c4) = r in
+                    if N.ltb (N.of_nat room) lnN
+                    then Err eOverflow
+                    else Ok ((repeat b (N.to_nat lnN)), c4)))
+          else bind (read_lim m c2) (fun r ->
+                 let (lnN, c3) = r in
+                 if N.ltb (N.of_nat room) lnN
+                 then Err eOverflow
+                 else let ln = N.to_nat lnN in
+                      if short ln c3
+                      then Err eNotEnoughBits
+                      else Ok ((firstn ln c3), (skipn ln c3))))
+  else bind (read_unary1 c1) (fun r ->
+         let (ln, c2) = r in
+         if short ln c2
+         then Err eNotEnoughBits
+         else if Nat.ltb room ln
+              then Err eOverflow
+              else Ok ((firstn ln c2), (skipn ln c2)))
+
+(** val vdec_res :
+    (bits -> cell0 list -> 'a1 option) -> bits -> cell0 list -> 'a1 res **)
+
+let vdec_res vdec l rs =
+  match vdec l rs with
+  | Some v -> Ok v
+  | None -> Err eOther
+
+(** val map_inner :
+    (bits -> cell0 list -> 'a1 option) -> nat -> nat -> cell0 -> bits ->
+    (bits * 'a1) list res **)
+
+let rec map_inner vdec n0 left c prefix =
+  let Cell0 (cb, refs) = c in
+  bind (load_label0 left (sub n0 (length prefix)) cb) (fun lr ->
+    let (lbl, rest) = lr in
+    let prefix' = app prefix lbl in
+    let left' = sub left (add (S O) (length lbl)) in
+    if Nat.ltb (length prefix') n0
+    then (match refs with
+          | [] -> Err eNotEnoughRefs
+          | l :: refs' ->
+            bind (map_inner vdec n0 left' l (app prefix' (false :: [])))
+              (fun la ->
+              match refs' with
+              | [] -> Err eNotEnoughRefs
+              | r :: _ ->
+                bind (map_inner vdec n0 left' r (app prefix' (true :: [])))
+                  (fun ra -> Ok (app la ra))))
+    else bind (vdec_res vdec rest refs) (fun v -> Ok (((firstn n0 prefix'),
+           v) :: [])))
+
+(** val decode :
+    (bits -> cell0 list -> 'a1 option) -> nat -> cell0 -> (bits * 'a1) list
+    res **)
+
+let decode vdec n0 c =
+  map_inner vdec n0 n0 c []
+
+(** val decode_e :
+    (bits -> cell0 list -> 'a1 option) -> nat -> cell0 -> (bits * 'a1) list
+    res **)
+
+let decode_e vdec n0 = function
+| Cell0 (cbits, crefs) ->
+  (match cbits with
+   | [] -> Err eNotEnoughBits
+   | b :: _ ->
+     if b
+     then (match crefs with
+           | [] -> Err eNotEnoughRefs
+           | r :: _ -> decode vdec n0 r)
+     else Ok [])
+
+(** val replace_val :
+    ('a1 -> 'a1 -> bool) -> 'a1 -> 'a2 -> ('a1 * 'a2) list -> ('a1 * 'a2)
+    list option **)
+
+let rec replace_val keq k0 v = function
+| [] -> None
+| p :: t ->
+  let (k', v') = p in
+  if keq k' k0
+  then Some ((k', v) :: t)
+  else (match replace_val keq k0 v t with
+        | Some t' -> Some ((k', v') :: t')
+        | None -> None)
+
+(** val insert_at :
+    ('a1 -> 'a1 -> bool) -> 'a1 -> 'a2 -> ('a1 * 'a2) list -> ('a1 * 'a2) list **)
+
+let rec insert_at klt k0 v m = match m with
+| [] -> (k0, v) :: []
+| p :: t ->
+  let (k', v') = p in
+  if klt k0 k' then (k0, v) :: m else (k', v') :: (insert_at klt k0 v t)
+
+(** val put :
+    ('a1 -> 'a1 -> bool) -> ('a1 -> 'a1 -> bool) -> 'a1 -> 'a2 -> ('a1 * 'a2)
+    list -> ('a1 * 'a2) list **)
+
+let put keq klt k0 v m =
+  match replace_val keq k0 v m with
+  | Some m' -> m'
+  | None -> insert_at klt k0 v m
+
+(** val get :
+    ('a1 -> 'a1 -> bool) -> 'a1 -> ('a1 * 'a2) list -> 'a2 option **)
+
+let rec get keq k0 = function
+| [] -> None
+| p :: t -> let (k', v') = p in if keq k' k0 then Some v' else get keq k0 t
+
+(** val puts :
+    ('a1 -> 'a1 -> bool) -> ('a1 -> 'a1 -> bool) -> ('a1 * 'a2) list ->
+    ('a1 * 'a2) list -> ('a1 * 'a2) list **)
+
+let puts keq klt l m =
+  fold_left (fun m0 kv -> put keq klt (fst kv) (snd kv) m0) l m
+
+(** val flip_first : bits -> bits **)
+
+let flip_first = function
+| [] -> []
+| x :: t -> (negb x) :: t
+
+(** val signed_ltb : bits -> bits -> bool **)
+
+let signed_ltb a b =
+  bits_ltb (flip_first a) (flip_first b)
+
+(** val int_key : nat -> z -> bits **)
+
+let int_key w x =
+  bits_of w (Z.to_N (Z.modulo x (Z.pow (Zpos (XO XH)) (Z.of_nat w))))
+
+(** val bytes_key : n list -> bits **)
+
+let bytes_key a =
+  flat_map (bits_of (S (S (S (S (S (S (S (S O))))))))) a
+
+(** val addr_key : (z * n list) -> bits **)
+
+let addr_key k0 =
+  app
+    (int_key (S (S (S (S (S (S (S (S (S (S (S (S (S (S (S (S (S (S (S (S (S
+      (S (S (S (S (S (S (S (S (S (S (S O))))))))))))))))))))))))))))))))
+      (fst k0)) (bytes_key (snd k0))
+
+(** val bytes_of_bits0 : nat -> bits -> n list **)
+
+let rec bytes_of_bits0 fuel l =
+  match fuel with
+  | O -> []
+  | S f ->
+    (match l with
+     | [] -> []
+     | _ :: _ ->
+       (n_of_bits (firstn (S (S (S (S (S (S (S (S O)))))))) l)) :: (bytes_of_bits0
+                                                                    f
+                                                                    (skipn (S
+                                                                    (S (S (S
+                                                                    (S (S (S
+                                                                    (S
+                                                                    O))))))))
+                                                                    l)))
+
+(** val addr_unkey : bits -> z * n list **)
+
+let addr_unkey k0 =
+  let u =
+    N.modulo
+      (n_of_bits
+        (firstn (S (S (S (S (S (S (S (S (S (S (S (S (S (S (S (S (S (S (S (S
+          (S (S (S (S (S (S (S (S (S (S (S (S
+          O)))))))))))))))))))))))))))))))) k0)) (Npos (XO (XO (XO (XO (XO
+      (XO (XO (XO XH)))))))))
+  in
+  ((if N.leb (Npos (XO (XO (XO (XO (XO (XO (XO XH)))))))) u
+    then Z.sub (Z.of_N u) (Zpos (XO (XO (XO (XO (XO (XO (XO (XO XH)))))))))
+    else Z.of_N u),
+  (bytes_of_bits0 (S (S (S (S (S (S (S (S (S (S (S (S (S (S (S (S (S (S (S (S
+    (S (S (S (S (S (S (S (S (S (S (S (S O))))))))))))))))))))))))))))))))
+    (skipn (S (S (S (S (S (S (S (S (S (S (S (S (S (S (S (S (S (S (S (S (S (S
+      (S (S (S (S (S (S (S (S (S (S O)))))))))))))))))))))))))))))))) k0)))
+
+(** val venc_val : n -> bits * cell0 list **)
+
+let venc_val v =
+  ((bits_of (S (S (S (S (S (S (S (S (S (S (S (S (S (S (S (S (S (S (S (S (S (S
+     (S (S (S (S (S (S (S (S (S (S O)))))))))))))))))))))))))))))))) v), [])
+
+(** val vdec_val : bits -> cell0 list -> n option **)
+
+let vdec_val l _ =
+  if short (S (S (S (S (S (S (S (S (S (S (S (S (S (S (S (S (S (S (S (S (S (S
+       (S (S (S (S (S (S (S (S (S (S O)))))))))))))))))))))))))))))))) l
+  then None
+  else Some
+         (n_of_bits
+           (firstn (S (S (S (S (S (S (S (S (S (S (S (S (S (S (S (S (S (S (S
+             (S (S (S (S (S (S (S (S (S (S (S (S (S
+             O)))))))))))))))))))))))))))))))) l))
+
+(** val sx_cell : cell0 -> sx **)
+
+let rec sx_cell = function
+| Cell0 (b, rs) -> SL ((SBits b) :: ((SL (map sx_cell rs)) :: []))
+
+(** val cell_sx : sx -> cell0 option **)
+
+let rec cell_sx = function
+| SL l ->
+  (match l with
+   | [] -> None
+   | s :: l0 ->
+     (match s with
+      | SBits b ->
+        (match l0 with
+         | [] -> None
+         | s0 :: l1 ->
+           (match s0 with
+            | SL rs ->
+              (match l1 with
+               | [] ->
+                 let go =
+                   let rec go = function
+                   | [] -> Some []
+                   | x :: t ->
+                     (match cell_sx x with
+                      | Some c ->
+                        (match go t with
+                         | Some cs -> Some (c :: cs)
+                         | None -> None)
+                      | None -> None)
+                   in go
+                 in
+                 (match go rs with
+                  | Some cs -> Some (Cell0 (b, cs))
+                  | None -> None)
+               | _ :: _ -> None)
+            | _ -> None))
+      | _ -> None))
+| _ -> None
+
+(** val sx_res0 : ('a1 -> sx) -> 'a1 res -> sx **)
+
+let sx_res0 f = function
+| Ok a -> f a
+| Err _ ->
+  SA (String ((Ascii (true, false, true, false, false, true, true, false)),
+    (String ((Ascii (false, true, false, false, true, true, true, false)),
+    (String ((Ascii (false, true, false, false, true, true, true, false)),
+    EmptyString))))))
+| Panic _ ->
+  SA (String ((Ascii (false, false, false, false, true, true, true, false)),
+    (String ((Ascii (true, false, false, false, false, true, true, false)),
+    (String ((Ascii (false, true, true, true, false, true, true, false)),
+    (String ((Ascii (true, false, false, true, false, true, true, false)),
+    (String ((Ascii (true, true, false, false, false, true, true, false)),
+    EmptyString))))))))))
+
+(** val sx_items : (bits * n) list -> sx **)
+
+let sx_items m =
+  SL (map (fun kv -> SL ((SBits (fst kv)) :: ((SN (snd kv)) :: []))) m)
+
+(** val items_sx : sx list -> (bits * n) list option **)
+
+let rec items_sx = function
+| [] -> Some []
+| s :: t ->
+  (match s with
+   | SL l0 ->
+     (match l0 with
+      | [] -> None
+      | s0 :: l1 ->
+        (match s0 with
+         | SBits k0 ->
+           (match l1 with
+            | [] -> None
+            | s1 :: l2 ->
+              (match s1 with
+               | SN v ->
+                 (match l2 with
+                  | [] ->
+                    (match items_sx t with
+                     | Some m -> Some ((k0, v) :: m)
+                     | None -> None)
+                  | _ :: _ -> None)
+               | _ -> None))
+         | _ -> None))
+   | _ -> None)
+
+(** val klt_of : bool -> bits -> bits -> bool **)
+
+let klt_of = function
+| true -> signed_ltb
+| false -> bits_ltb
+
+(** val enc_mode : bool -> nat -> (bits * n) list -> cell0 res **)
+
+let enc_mode e n0 m =
+  if e then encode_e venc_val n0 m else encode venc_val n0 m
+
+(** val dec_mode : bool -> nat -> cell0 -> (bits * n) list res **)
+
+let dec_mode e n0 c =
+  if e then decode_e vdec_val n0 c else decode vdec_val n0 c
+
+(** val run_encode : sx -> sx **)
+
+let run_encode = function
+| SL l ->
+  (match l with
+   | [] ->
+     sx_err (String ((Ascii (true, false, true, false, false, true, true,
+       false)), (String ((Ascii (false, true, true, true, false, true, true,
+       false)), (String ((Ascii (true, true, false, false, false, true, true,
+       false)), (String ((Ascii (true, true, true, true, false, true, true,
+       false)), (String ((Ascii (false, false, true, false, false, true,
+       true, false)), (String ((Ascii (true, false, true, false, false, true,
+       true, false)), EmptyString))))))))))))
+   | s :: l0 ->
+     (match s with
+      | SN n0 ->
+        (match l0 with
+         | [] ->
+           sx_err (String ((Ascii (true, false, true, false, false, true,
+             true, false)), (String ((Ascii (false, true, true, true, false,
+             true, true, false)), (String ((Ascii (true, true, false, false,
+             false, true, true, false)), (String ((Ascii (true, true, true,
+             true, false, true, true, false)), (String ((Ascii (false, false,
+             true, false, false, true, true, false)), (String ((Ascii (true,
+             false, true, false, false, true, true, false)),
+             EmptyString))))))))))))
+         | s0 :: l1 ->
+           (match s0 with
+            | SB sgn ->
+              (match l1 with
+               | [] ->
+                 sx_err (String ((Ascii (true, false, true, false, false,
+                   true, true, false)), (String ((Ascii (false, true, true,
+                   true, false, true, true, false)), (String ((Ascii (true,
+                   true, false, false, false, true, true, false)), (String
+                   ((Ascii (true, true, true, true, false, true, true,
+                   false)), (String ((Ascii (false, false, true, false,
+                   false, true, true, false)), (String ((Ascii (true, false,
+                   true, false, false, true, true, false)),
+                   EmptyString))))))))))))
+               | s1 :: l2 ->
+                 (match s1 with
+                  | SB e ->
+                    (match l2 with
+                     | [] ->
+                       sx_err (String ((Ascii (true, false, true, false,
+                         false, true, true, false)), (String ((Ascii (false,
+                         true, true, true, false, true, true, false)),
+                         (String ((Ascii (true, true, false, false, false,
+                         true, true, false)), (String ((Ascii (true, true,
+                         true, true, false, true, true, false)), (String
+                         ((Ascii (false, false, true, false, false, true,
+                         true, false)), (String ((Ascii (true, false, true,
+                         false, false, true, true, false)),
+                         EmptyString))))))))))))
+                     | s2 :: l3 ->
+                       (match s2 with
+                        | SL kvs ->
+                          (match l3 with
+                           | [] ->
+                             (match items_sx kvs with
+                              | Some l4 ->
+                                sx_res0 sx_cell
+                                  (enc_mode e (N.to_nat n0)
+                                    (puts bits_eqb0 (klt_of sgn) l4 []))
+                              | None ->
+                                sx_err (String ((Ascii (true, false, true,
+                                  false, false, true, true, false)), (String
+                                  ((Ascii (false, true, true, true, false,
+                                  true, true, false)), (String ((Ascii (true,
+                                  true, false, false, false, true, true,
+                                  false)), (String ((Ascii (true, true, true,
+                                  true, false, true, true, false)), (String
+                                  ((Ascii (false, false, true, false, false,
+                                  true, true, false)), (String ((Ascii (true,
+                                  false, true, false, false, true, true,
+                                  false)), (String ((Ascii (false, false,
+                                  false, false, false, true, false, false)),
+                                  (String ((Ascii (true, false, false, true,
+                                  false, true, true, false)), (String ((Ascii
+                                  (false, false, true, false, true, true,
+                                  true, false)), (String ((Ascii (true,
+                                  false, true, false, false, true, true,
+                                  false)), (String ((Ascii (true, false,
+                                  true, true, false, true, true, false)),
+                                  (String ((Ascii (true, true, false, false,
+                                  true, true, true, false)),
+                                  EmptyString)))))))))))))))))))))))))
+                           | _ :: _ ->
+                             sx_err (String ((Ascii (true, false, true,
+                               false, false, true, true, false)), (String
+                               ((Ascii (false, true, true, true, false, true,
+                               true, false)), (String ((Ascii (true, true,
+                               false, false, false, true, true, false)),
+                               (String ((Ascii (true, true, true, true,
+                               false, true, true, false)), (String ((Ascii
+                               (false, false, true, false, false, true, true,
+                               false)), (String ((Ascii (true, false, true,
+                               false, false, true, true, false)),
+                               EmptyString)))))))))))))
+                        | _ ->
+                          sx_err (String ((Ascii (true, false, true, false,
+                            false, true, true, false)), (String ((Ascii
+                            (false, true, true, true, false, true, true,
+                            false)), (String ((Ascii (true, true, false,
+                            false, false, true, true, false)), (String
+                            ((Ascii (true, true, true, true, false, true,
+                            true, false)), (String ((Ascii (false, false,
+                            true, false, false, true, true, false)), (String
+                            ((Ascii (true, false, true, false, false, true,
+                            true, false)), EmptyString))))))))))))))
+                  | _ ->
+                    sx_err (String ((Ascii (true, false, true, false, false,
+                      true, true, false)), (String ((Ascii (false, true,
+                      true, true, false, true, true, false)), (String ((Ascii
+                      (true, true, false, false, false, true, true, false)),
+                      (String ((Ascii (true, true, true, true, false, true,
+                      true, false)), (String ((Ascii (false, false, true,
+                      false, false, true, true, false)), (String ((Ascii
+                      (true, false, true, false, false, true, true, false)),
+                      EmptyString))))))))))))))
+            | _ ->
+              sx_err (String ((Ascii (true, false, true, false, false, true,
+                true, false)), (String ((Ascii (false, true, true, true,
+                false, true, true, false)), (String ((Ascii (true, true,
+                false, false, false, true, true, false)), (String ((Ascii
+                (true, true, true, true, false, true, true, false)), (String
+                ((Ascii (false, false, true, false, false, true, true,
+                false)), (String ((Ascii (true, false, true, false, false,
+                true, true, false)), EmptyString))))))))))))))
+      | _ ->
+        sx_err (String ((Ascii (true, false, true, false, false, true, true,
+          false)), (String ((Ascii (false, true, true, true, false, true,
+          true, false)), (String ((Ascii (true, true, false, false, false,
+          true, true, false)), (String ((Ascii (true, true, true, true,
+          false, true, true, false)), (String ((Ascii (false, false, true,
+          false, false, true, true, false)), (String ((Ascii (true, false,
+          true, false, false, true, true, false)), EmptyString))))))))))))))
+| _ ->
+  sx_err (String ((Ascii (true, false, true, false, false, true, true,
+    false)), (String ((Ascii (false, true, true, true, false, true, true,
+    false)), (String ((Ascii (true, true, false, false, false, true, true,
+    false)), (String ((Ascii (true, true, true, true, false, true, true,
+    false)), (String ((Ascii (false, false, true, false, false, true, true,
+    false)), (String ((Ascii (true, false, true, false, false, true, true,
+    false)), EmptyString))))))))))))
+
+(** val run_raw : sx -> sx **)
+
+let run_raw = function
+| SL l ->
+  (match l with
+   | [] ->
+     sx_err (String ((Ascii (false, true, false, false, true, true, true,
+       false)), (String ((Ascii (true, false, false, false, false, true,
+       true, false)), (String ((Ascii (true, true, true, false, true, true,
+       true, false)), EmptyString))))))
+   | s :: l0 ->
+     (match s with
+      | SN n0 ->
+        (match l0 with
+         | [] ->
+           sx_err (String ((Ascii (false, true, false, false, true, true,
+             true, false)), (String ((Ascii (true, false, false, false,
+             false, true, true, false)), (String ((Ascii (true, true, true,
+             false, true, true, true, false)), EmptyString))))))
+         | s0 :: l1 ->
+           (match s0 with
+            | SB _ ->
+              (match l1 with
+               | [] ->
+                 sx_err (String ((Ascii (false, true, false, false, true,
+                   true, true, false)), (String ((Ascii (true, false, false,
+                   false, false, true, true, false)), (String ((Ascii (true,
+                   true, true, false, true, true, true, false)),
+                   EmptyString))))))
+               | s1 :: l2 ->
+                 (match s1 with
+                  | SB e ->
+                    (match l2 with
+                     | [] ->
+                       sx_err (String ((Ascii (false, true, false, false,
+                         true, true, true, false)), (String ((Ascii (true,
+                         false, false, false, false, true, true, false)),
+                         (String ((Ascii (true, true, true, false, true,
+                         true, true, false)), EmptyString))))))
+                     | s2 :: l3 ->
+                       (match s2 with
+                        | SL kvs ->
+                          (match l3 with
+                           | [] ->
+                             (match items_sx kvs with
+                              | Some l4 ->
+                                sx_res0 sx_cell (enc_mode e (N.to_nat n0) l4)
+                              | None ->
+                                sx_err (String ((Ascii (false, true, false,
+                                  false, true, true, true, false)), (String
+                                  ((Ascii (true, false, false, false, false,
+                                  true, true, false)), (String ((Ascii (true,
+                                  true, true, false, true, true, true,
+                                  false)), (String ((Ascii (false, false,
+                                  false, false, false, true, false, false)),
+                                  (String ((Ascii (true, false, false, true,
+                                  false, true, true, false)), (String ((Ascii
+                                  (false, false, true, false, true, true,
+                                  true, false)), (String ((Ascii (true,
+                                  false, true, false, false, true, true,
+                                  false)), (String ((Ascii (true, false,
+                                  true, true, false, true, true, false)),
+                                  (String ((Ascii (true, true, false, false,
+                                  true, true, true, false)),
+                                  EmptyString)))))))))))))))))))
+                           | _ :: _ ->
+                             sx_err (String ((Ascii (false, true, false,
+                               false, true, true, true, false)), (String
+                               ((Ascii (true, false, false, false, false,
+                               true, true, false)), (String ((Ascii (true,
+                               true, true, false, true, true, true, false)),
+                               EmptyString)))))))
+                        | _ ->
+                          sx_err (String ((Ascii (false, true, false, false,
+                            true, true, true, false)), (String ((Ascii (true,
+                            false, false, false, false, true, true, false)),
+                            (String ((Ascii (true, true, true, false, true,
+                            true, true, false)), EmptyString))))))))
+                  | _ ->
+                    sx_err (String ((Ascii (false, true, false, false, true,
+                      true, true, false)), (String ((Ascii (true, false,
+                      false, false, false, true, true, false)), (String
+                      ((Ascii (true, true, true, false, true, true, true,
+                      false)), EmptyString))))))))
+            | _ ->
+              sx_err (String ((Ascii (false, true, false, false, true, true,
+                true, false)), (String ((Ascii (true, false, false, false,
+                false, true, true, false)), (String ((Ascii (true, true,
+                true, false, true, true, true, false)), EmptyString))))))))
+      | _ ->
+        sx_err (String ((Ascii (false, true, false, false, true, true, true,
+          false)), (String ((Ascii (true, false, false, false, false, true,
+          true, false)), (String ((Ascii (true, true, true, false, true,
+          true, true, false)), EmptyString))))))))
+| _ ->
+  sx_err (String ((Ascii (false, true, false, false, true, true, true,
+    false)), (String ((Ascii (true, false, false, false, false, true, true,
+    false)), (String ((Ascii (true, true, true, false, true, true, true,
+    false)), EmptyString))))))
+
+(** val run_decode : sx -> sx **)
+
+let run_decode = function
+| SL l ->
+  (match l with
+   | [] ->
+     sx_err (String ((Ascii (false, false, true, false, false, true, true,
+       false)), (String ((Ascii (true, false, true, false, false, true, true,
+       false)), (String ((Ascii (true, true, false, false, false, true, true,
+       false)), (String ((Ascii (true, true, true, true, false, true, true,
+       false)), (String ((Ascii (false, false, true, false, false, true,
+       true, false)), (String ((Ascii (true, false, true, false, false, true,
+       true, false)), EmptyString))))))))))))
+   | s :: l0 ->
+     (match s with
+      | SN n0 ->
+        (match l0 with
+         | [] ->
+           sx_err (String ((Ascii (false, false, true, false, false, true,
+             true, false)), (String ((Ascii (true, false, true, false, false,
+             true, true, false)), (String ((Ascii (true, true, false, false,
+             false, true, true, false)), (String ((Ascii (true, true, true,
+             true, false, true, true, false)), (String ((Ascii (false, false,
+             true, false, false, true, true, false)), (String ((Ascii (true,
+             false, true, false, false, true, true, false)),
+             EmptyString))))))))))))
+         | s0 :: l1 ->
+           (match s0 with
+            | SB e ->
+              (match l1 with
+               | [] ->
+                 sx_err (String ((Ascii (false, false, true, false, false,
+                   true, true, false)), (String ((Ascii (true, false, true,
+                   false, false, true, true, false)), (String ((Ascii (true,
+                   true, false, false, false, true, true, false)), (String
+                   ((Ascii (true, true, true, true, false, true, true,
+                   false)), (String ((Ascii (false, false, true, false,
+                   false, true, true, false)), (String ((Ascii (true, false,
+                   true, false, false, true, true, false)),
+                   EmptyString))))))))))))
+               | c :: l2 ->
+                 (match l2 with
+                  | [] ->
+                    (match cell_sx c with
+                     | Some c0 ->
+                       sx_res0 sx_items (dec_mode e (N.to_nat n0) c0)
+                     | None ->
+                       sx_err (String ((Ascii (false, false, true, false,
+                         false, true, true, false)), (String ((Ascii (true,
+                         false, true, false, false, true, true, false)),
+                         (String ((Ascii (true, true, false, false, false,
+                         true, true, false)), (String ((Ascii (true, true,
+                         true, true, false, true, true, false)), (String
+                         ((Ascii (false, false, true, false, false, true,
+                         true, false)), (String ((Ascii (true, false, true,
+                         false, false, true, true, false)), (String ((Ascii
+                         (false, false, false, false, false, true, false,
+                         false)), (String ((Ascii (true, true, false, false,
+                         false, true, true, false)), (String ((Ascii (true,
+                         false, true, false, false, true, true, false)),
+                         (String ((Ascii (false, false, true, true, false,
+                         true, true, false)), (String ((Ascii (false, false,
+                         true, true, false, true, true, false)),
+                         EmptyString)))))))))))))))))))))))
+                  | _ :: _ ->
+                    sx_err (String ((Ascii (false, false, true, false, false,
+                      true, true, false)), (String ((Ascii (true, false,
+                      true, false, false, true, true, false)), (String
+                      ((Ascii (true, true, false, false, false, true, true,
+                      false)), (String ((Ascii (true, true, true, true,
+                      false, true, true, false)), (String ((Ascii (false,
+                      false, true, false, false, true, true, false)), (String
+                      ((Ascii (true, false, true, false, false, true, true,
+                      false)), EmptyString))))))))))))))
+            | _ ->
+              sx_err (String ((Ascii (false, false, true, false, false, true,
+                true, false)), (String ((Ascii (true, false, true, false,
+                false, true, true, false)), (String ((Ascii (true, true,
+                false, false, false, true, true, false)), (String ((Ascii
+                (true, true, true, true, false, true, true, false)), (String
+                ((Ascii (false, false, true, false, false, true, true,
+                false)), (String ((Ascii (true, false, true, false, false,
+                true, true, false)), EmptyString))))))))))))))
+      | _ ->
+        sx_err (String ((Ascii (false, false, true, false, false, true, true,
+          false)), (String ((Ascii (true, false, true, false, false, true,
+          true, false)), (String ((Ascii (true, true, false, false, false,
+          true, true, false)), (String ((Ascii (true, true, true, true,
+          false, true, true, false)), (String ((Ascii (false, false, true,
+          false, false, true, true, false)), (String ((Ascii (true, false,
+          true, false, false, true, true, false)), EmptyString))))))))))))))
+| _ ->
+  sx_err (String ((Ascii (false, false, true, false, false, true, true,
+    false)), (String ((Ascii (true, false, true, false, false, true, true,
+    false)), (String ((Ascii (true, true, false, false, false, true, true,
+    false)), (String ((Ascii (true, true, true, true, false, true, true,
+    false)), (String ((Ascii (false, false, true, false, false, true, true,
+    false)), (String ((Ascii (true, false, true, false, false, true, true,
+    false)), EmptyString))))))))))))
+
+(** val form_sx : sx -> form option **)
+
+let form_sx = function
+| SA s ->
+  if eqb1 s (String ((Ascii (true, true, false, false, true, true, true,
+       false)), EmptyString))
+  then Some FShort
+  else if eqb1 s (String ((Ascii (false, false, true, true, false, true,
+            true, false)), EmptyString))
+       then Some FLong
+       else if eqb1 s (String ((Ascii (true, false, false, false, false,
+                 true, true, false)), (String ((Ascii (false, false, false,
+                 false, true, true, false, false)), EmptyString))))
+            then Some (FSame false)
+            else if eqb1 s (String ((Ascii (true, false, false, false, false,
+                      true, true, false)), (String ((Ascii (true, false,
+                      false, false, true, true, false, false)),
+                      EmptyString))))
+                 then Some (FSame true)
+                 else None
+| _ -> None
+
+(** val apt_sx : sx -> n apt option **)
+
+let rec apt_sx = function
+| SL l0 ->
+  (match l0 with
+   | [] -> None
+   | s :: l1 ->
+     (match s with
+      | SA tag ->
+        (match l1 with
+         | [] -> None
+         | f :: l2 ->
+           (match l2 with
+            | [] -> None
+            | s0 :: l3 ->
+              (match s0 with
+               | SBits lbl ->
+                 (match l3 with
+                  | [] -> None
+                  | l :: l4 ->
+                    (match l with
+                     | SN v ->
+                       (match l4 with
+                        | [] ->
+                          if eqb1 tag (String ((Ascii (false, false, true,
+                               true, false, true, true, false)), EmptyString))
+                          then (match form_sx f with
+                                | Some f0 -> Some (ALeaf (f0, lbl, v))
+                                | None -> None)
+                          else None
+                        | r :: l5 ->
+                          (match l5 with
+                           | [] ->
+                             if eqb1 tag (String ((Ascii (false, true, true,
+                                  false, false, true, true, false)),
+                                  EmptyString))
+                             then (match form_sx f with
+                                   | Some f0 ->
+                                     (match apt_sx l with
+                                      | Some l6 ->
+                                        (match apt_sx r with
+                                         | Some r0 ->
+                                           Some (AFork (f0, lbl, l6, r0))
+                                         | None -> None)
+                                      | None -> None)
+                                   | None -> None)
+                             else None
+                           | _ :: _ -> None))
+                     | SZ _ ->
+                       (match l4 with
+                        | [] -> None
+                        | r :: l5 ->
+                          (match l5 with
+                           | [] ->
+                             if eqb1 tag (String ((Ascii (false, true, true,
+                                  false, false, true, true, false)),
+                                  EmptyString))
+                             then (match form_sx f with
+                                   | Some f0 ->
+                                     (match apt_sx l with
+                                      | Some l6 ->
+                                        (match apt_sx r with
+                                         | Some r0 ->
+                                           Some (AFork (f0, lbl, l6, r0))
+                                         | None -> None)
+                                      | None -> None)
+                                   | None -> None)
+                             else None
+                           | _ :: _ -> None))
+                     | SB _ ->
+                       (match l4 with
+                        | [] -> None
+                        | r :: l5 ->
+                          (match l5 with
+                           | [] ->
+                             if eqb1 tag (String ((Ascii (false, true, true,
+                                  false, false, true, true, false)),
+                                  EmptyString))
+                             then (match form_sx f with
+                                   | Some f0 ->
+                                     (match apt_sx l with
+                                      | Some l6 ->
+                                        (match apt_sx r with
+                                         | Some r0 ->
+                                           Some (AFork (f0, lbl, l6, r0))
+                                         | None -> None)
+                                      | None -> None)
+                                   | None -> None)
+                             else None
+                           | _ :: _ -> None))
+                     | SA _ ->
+                       (match l4 with
+                        | [] -> None
+                        | r :: l5 ->
+                          (match l5 with
+                           | [] ->
+                             if eqb1 tag (String ((Ascii (false, true, true,
+                                  false, false, true, true, false)),
+                                  EmptyString))
+                             then (match form_sx f with
+                                   | Some f0 ->
+                                     (match apt_sx l with
+                                      | Some l6 ->
+                                        (match apt_sx r with
+                                         | Some r0 ->
+                                           Some (AFork (f0, lbl, l6, r0))
+                                         | None -> None)
+                                      | None -> None)
+                                   | None -> None)
+                             else None
+                           | _ :: _ -> None))
+                     | _ ->
+                       (match l4 with
+                        | [] -> None
+                        | r :: l6 ->
+                          (match l6 with
+                           | [] ->
+                             if eqb1 tag (String ((Ascii (false, true, true,
+                                  false, false, true, true, false)),
+                                  EmptyString))
+                             then (match form_sx f with
+                                   | Some f0 ->
+                                     (match apt_sx l with
+                                      | Some l5 ->
+                                        (match apt_sx r with
+                                         | Some r0 ->
+                                           Some (AFork (f0, lbl, l5, r0))
+                                         | None -> None)
+                                      | None -> None)
+                                   | None -> None)
+                             else None
+                           | _ :: _ -> None))))
+               | _ -> None)))
+      | _ -> None))
+| _ -> None
+
+(** val run_cells : sx -> sx **)
+
+let run_cells = function
+| SL l ->
+  (match l with
+   | [] ->
+     sx_err (String ((Ascii (true, true, false, false, false, true, true,
+       false)), (String ((Ascii (true, false, true, false, false, true, true,
+       false)), (String ((Ascii (false, false, true, true, false, true, true,
+       false)), (String ((Ascii (false, false, true, true, false, true, true,
+       false)), (String ((Ascii (true, true, false, false, true, true, true,
+       false)), EmptyString))))))))))
+   | s :: l0 ->
+     (match s with
+      | SN n0 ->
+        (match l0 with
+         | [] ->
+           sx_err (String ((Ascii (true, true, false, false, false, true,
+             true, false)), (String ((Ascii (true, false, true, false, false,
+             true, true, false)), (String ((Ascii (false, false, true, true,
+             false, true, true, false)), (String ((Ascii (false, false, true,
+             true, false, true, true, false)), (String ((Ascii (true, true,
+             false, false, true, true, true, false)), EmptyString))))))))))
+         | t :: l1 ->
+           (match l1 with
+            | [] ->
+              (match apt_sx t with
+               | Some t0 ->
+                 sx_res0 sx_cell (cells_of venc_val (N.to_nat n0) t0)
+               | None ->
+                 sx_err (String ((Ascii (true, true, false, false, false,
+                   true, true, false)), (String ((Ascii (true, false, true,
+                   false, false, true, true, false)), (String ((Ascii (false,
+                   false, true, true, false, true, true, false)), (String
+                   ((Ascii (false, false, true, true, false, true, true,
+                   false)), (String ((Ascii (true, true, false, false, true,
+                   true, true, false)), (String ((Ascii (false, false, false,
+                   false, false, true, false, false)), (String ((Ascii
+                   (false, false, true, false, true, true, true, false)),
+                   (String ((Ascii (false, true, false, false, true, true,
+                   true, false)), (String ((Ascii (true, false, true, false,
+                   false, true, true, false)), (String ((Ascii (true, false,
+                   true, false, false, true, true, false)),
+                   EmptyString)))))))))))))))))))))
+            | _ :: _ ->
+              sx_err (String ((Ascii (true, true, false, false, false, true,
+                true, false)), (String ((Ascii (true, false, true, false,
+                false, true, true, false)), (String ((Ascii (false, false,
+                true, true, false, true, true, false)), (String ((Ascii
+                (false, false, true, true, false, true, true, false)),
+                (String ((Ascii (true, true, false, false, true, true, true,
+                false)), EmptyString))))))))))))
+      | _ ->
+        sx_err (String ((Ascii (true, true, false, false, false, true, true,
+          false)), (String ((Ascii (true, false, true, false, false, true,
+          true, false)), (String ((Ascii (false, false, true, true, false,
+          true, true, false)), (String ((Ascii (false, false, true, true,
+          false, true, true, false)), (String ((Ascii (true, true, false,
+          false, true, true, true, false)), EmptyString))))))))))))
+| _ ->
+  sx_err (String ((Ascii (true, true, false, false, false, true, true,
+    false)), (String ((Ascii (true, false, true, false, false, true, true,
+    false)), (String ((Ascii (false, false, true, true, false, true, true,
+    false)), (String ((Ascii (false, false, true, true, false, true, true,
+    false)), (String ((Ascii (true, true, false, false, true, true, true,
+    false)), EmptyString))))))))))
+
+(** val run_oplist :
+    bool -> (bits * n) list -> sx list -> sx list * (bits * n) list **)
+
+let rec run_oplist sgn m = function
+| [] -> ([], m)
+| o :: t ->
+  (match o with
+   | SL l ->
+     (match l with
+      | [] ->
+        let r =
+          sx_err (String ((Ascii (true, true, true, true, false, true, true,
+            false)), (String ((Ascii (false, false, false, false, true, true,
+            true, false)), EmptyString))))
+        in
+        let (rs, mf) = run_oplist sgn m t in ((r :: rs), mf)
+      | s :: l0 ->
+        (match s with
+         | SA nm ->
+           (match l0 with
+            | [] ->
+              let r =
+                sx_err (String ((Ascii (true, true, true, true, false, true,
+                  true, false)), (String ((Ascii (false, false, false, false,
+                  true, true, true, false)), EmptyString))))
+              in
+              let (rs, mf) = run_oplist sgn m t in ((r :: rs), mf)
+            | s0 :: l1 ->
+              (match s0 with
+               | SBits k0 ->
+                 (match l1 with
+                  | [] ->
+                    if eqb1 nm (String ((Ascii (true, true, true, false,
+                         false, true, true, false)), (String ((Ascii (true,
+                         false, true, false, false, true, true, false)),
+                         (String ((Ascii (false, false, true, false, true,
+                         true, true, false)), EmptyString))))))
+                    then let r =
+                           match get bits_eqb0 k0 m with
+                           | Some v -> SL ((SN v) :: [])
+                           | None ->
+                             SA (String ((Ascii (false, true, true, true,
+                               false, true, true, false)), (String ((Ascii
+                               (true, true, true, true, false, true, true,
+                               false)), (String ((Ascii (false, true, true,
+                               true, false, true, true, false)), (String
+                               ((Ascii (true, false, true, false, false,
+                               true, true, false)), EmptyString))))))))
+                         in
+                         let (rs, mf) = run_oplist sgn m t in ((r :: rs), mf)
+                    else let r =
+                           sx_err (String ((Ascii (true, true, true, true,
+                             false, true, true, false)), (String ((Ascii
+                             (false, false, false, false, true, true, true,
+                             false)), EmptyString))))
+                         in
+                         let (rs, mf) = run_oplist sgn m t in ((r :: rs), mf)
+                  | s1 :: l2 ->
+                    (match s1 with
+                     | SN v ->
+                       (match l2 with
+                        | [] ->
+                          if eqb1 nm (String ((Ascii (false, false, false,
+                               false, true, true, true, false)), (String
+                               ((Ascii (true, false, true, false, true, true,
+                               true, false)), (String ((Ascii (false, false,
+                               true, false, true, true, true, false)),
+                               EmptyString))))))
+                          then let r = SA (String ((Ascii (true, true, true,
+                                 true, false, true, true, false)), (String
+                                 ((Ascii (true, true, false, true, false,
+                                 true, true, false)), EmptyString))))
+                               in
+                               let m' = put bits_eqb0 (klt_of sgn) k0 v m in
+                               let (rs, mf) = run_oplist sgn m' t in
+                               ((r :: rs), mf)
+                          else let r =
+                                 sx_err (String ((Ascii (true, true, true,
+                                   true, false, true, true, false)), (String
+                                   ((Ascii (false, false, false, false, true,
+                                   true, true, false)), EmptyString))))
+                               in
+                               let (rs, mf) = run_oplist sgn m t in
+                               ((r :: rs), mf)
+                        | _ :: _ ->
+                          let r =
+                            sx_err (String ((Ascii (true, true, true, true,
+                              false, true, true, false)), (String ((Ascii
+                              (false, false, false, false, true, true, true,
+                              false)), EmptyString))))
+                          in
+                          let (rs, mf) = run_oplist sgn m t in ((r :: rs), mf))
+                     | _ ->
+                       let r =
+                         sx_err (String ((Ascii (true, true, true, true,
+                           false, true, true, false)), (String ((Ascii
+                           (false, false, false, false, true, true, true,
+                           false)), EmptyString))))
+                       in
+                       let (rs, mf) = run_oplist sgn m t in ((r :: rs), mf)))
+               | _ ->
+                 let r =
+                   sx_err (String ((Ascii (true, true, true, true, false,
+                     true, true, false)), (String ((Ascii (false, false,
+                     false, false, true, true, true, false)), EmptyString))))
+                 in
+                 let (rs, mf) = run_oplist sgn m t in ((r :: rs), mf)))
+         | _ ->
+           let r =
+             sx_err (String ((Ascii (true, true, true, true, false, true,
+               true, false)), (String ((Ascii (false, false, false, false,
+               true, true, true, false)), EmptyString))))
+           in
+           let (rs, mf) = run_oplist sgn m t in ((r :: rs), mf)))
+   | _ ->
+     let r =
+       sx_err (String ((Ascii (true, true, true, true, false, true, true,
+         false)), (String ((Ascii (false, false, false, false, true, true,
+         true, false)), EmptyString))))
+     in
+     let (rs, mf) = run_oplist sgn m t in ((r :: rs), mf))
+
+(** val run_ops0 : sx -> sx **)
+
+let run_ops0 = function
+| SL l ->
+  (match l with
+   | [] ->
+     sx_err (String ((Ascii (true, true, true, true, false, true, true,
+       false)), (String ((Ascii (false, false, false, false, true, true,
+       true, false)), (String ((Ascii (true, true, false, false, true, true,
+       true, false)), EmptyString))))))
+   | s :: l0 ->
+     (match s with
+      | SN n0 ->
+        (match l0 with
+         | [] ->
+           sx_err (String ((Ascii (true, true, true, true, false, true, true,
+             false)), (String ((Ascii (false, false, false, false, true,
+             true, true, false)), (String ((Ascii (true, true, false, false,
+             true, true, true, false)), EmptyString))))))
+         | s0 :: l1 ->
+           (match s0 with
+            | SB sgn ->
+              (match l1 with
+               | [] ->
+                 sx_err (String ((Ascii (true, true, true, true, false, true,
+                   true, false)), (String ((Ascii (false, false, false,
+                   false, true, true, true, false)), (String ((Ascii (true,
+                   true, false, false, true, true, true, false)),
+                   EmptyString))))))
+               | c :: l2 ->
+                 (match l2 with
+                  | [] ->
+                    sx_err (String ((Ascii (true, true, true, true, false,
+                      true, true, false)), (String ((Ascii (false, false,
+                      false, false, true, true, true, false)), (String
+                      ((Ascii (true, true, false, false, true, true, true,
+                      false)), EmptyString))))))
+                  | s1 :: l3 ->
+                    (match s1 with
+                     | SL ops ->
+                       (match l3 with
+                        | [] ->
+                          (match cell_sx c with
+                           | Some c0 ->
+                             (match decode_e vdec_val (N.to_nat n0) c0 with
+                              | Ok m ->
+                                let (rs, mf) = run_oplist sgn m ops in
+                                SL
+                                (app rs
+                                  ((sx_items mf) :: ((sx_res0 sx_cell
+                                                       (encode_e venc_val
+                                                         (N.to_nat n0) mf)) :: [])))
+                              | _ ->
+                                SA (String ((Ascii (true, false, true, false,
+                                  false, true, true, false)), (String ((Ascii
+                                  (false, true, false, false, true, true,
+                                  true, false)), (String ((Ascii (false,
+                                  true, false, false, true, true, true,
+                                  false)), EmptyString)))))))
+                           | None ->
+                             sx_err (String ((Ascii (true, true, true, true,
+                               false, true, true, false)), (String ((Ascii
+                               (false, false, false, false, true, true, true,
+                               false)), (String ((Ascii (true, true, false,
+                               false, true, true, true, false)), (String
+                               ((Ascii (false, false, false, false, false,
+                               true, false, false)), (String ((Ascii (true,
+                               true, false, false, false, true, true,
+                               false)), (String ((Ascii (true, false, true,
+                               false, false, true, true, false)), (String
+                               ((Ascii (false, false, true, true, false,
+                               true, true, false)), (String ((Ascii (false,
+                               false, true, true, false, true, true, false)),
+                               EmptyString)))))))))))))))))
+                        | _ :: _ ->
+                          sx_err (String ((Ascii (true, true, true, true,
+                            false, true, true, false)), (String ((Ascii
+                            (false, false, false, false, true, true, true,
+                            false)), (String ((Ascii (true, true, false,
+                            false, true, true, true, false)),
+                            EmptyString)))))))
+                     | _ ->
+                       sx_err (String ((Ascii (true, true, true, true, false,
+                         true, true, false)), (String ((Ascii (false, false,
+                         false, false, true, true, true, false)), (String
+                         ((Ascii (true, true, false, false, true, true, true,
+                         false)), EmptyString)))))))))
+            | _ ->
+              sx_err (String ((Ascii (true, true, true, true, false, true,
+                true, false)), (String ((Ascii (false, false, false, false,
+                true, true, true, false)), (String ((Ascii (true, true,
+                false, false, true, true, true, false)), EmptyString))))))))
+      | _ ->
+        sx_err (String ((Ascii (true, true, true, true, false, true, true,
+          false)), (String ((Ascii (false, false, false, false, true, true,
+          true, false)), (String ((Ascii (true, true, false, false, true,
+          true, true, false)), EmptyString))))))))
+| _ ->
+  sx_err (String ((Ascii (true, true, true, true, false, true, true, false)),
+    (String ((Ascii (false, false, false, false, true, true, true, false)),
+    (String ((Ascii (true, true, false, false, true, true, true, false)),
+    EmptyString))))))
+
+(** val addr_items : sx list -> (bits * n) list option **)
+
+let rec addr_items = function
+| [] -> Some []
+| s :: t ->
+  (match s with
+   | SL l0 ->
+     (match l0 with
+      | [] -> None
+      | s0 :: l1 ->
+        (match s0 with
+         | SZ wc ->
+           (match l1 with
+            | [] -> None
+            | s1 :: l2 ->
+              (match s1 with
+               | SBytes a ->
+                 (match l2 with
+                  | [] -> None
+                  | s2 :: l3 ->
+                    (match s2 with
+                     | SN v ->
+                       (match l3 with
+                        | [] ->
+                          (match addr_items t with
+                           | Some m -> Some (((addr_key (wc, a)), v) :: m)
+                           | None -> None)
+                        | _ :: _ -> None)
+                     | _ -> None))
+               | _ -> None))
+         | _ -> None))
+   | _ -> None)
+
+(** val sx_addr_item : (bits * n) -> sx **)
+
+let sx_addr_item kv =
+  let k0 = addr_unkey (fst kv) in
+  SL ((SZ (fst k0)) :: ((SBytes (snd k0)) :: ((SN (snd kv)) :: [])))
+
+(** val run_addr : sx -> sx **)
+
+let run_addr = function
+| SL l0 ->
+  (match l0 with
+   | [] ->
+     sx_err (String ((Ascii (true, false, false, false, false, true, true,
+       false)), (String ((Ascii (false, false, true, false, false, true,
+       true, false)), (String ((Ascii (false, false, true, false, false,
+       true, true, false)), (String ((Ascii (false, true, false, false, true,
+       true, true, false)), EmptyString))))))))
+   | s :: l1 ->
+     (match s with
+      | SL l ->
+        (match l1 with
+         | [] ->
+           (match addr_items l with
+            | Some l2 ->
+              (match encode_e venc_val (S (S (S (S (S (S (S (S (S (S (S (S (S
+                       (S (S (S (S (S (S (S (S (S (S (S (S (S (S (S (S (S (S
+                       (S (S (S (S (S (S (S (S (S (S (S (S (S (S (S (S (S (S
+                       (S (S (S (S (S (S (S (S (S (S (S (S (S (S (S (S (S (S
+                       (S (S (S (S (S (S (S (S (S (S (S (S (S (S (S (S (S (S
+                       (S (S (S (S (S (S (S (S (S (S (S (S (S (S (S (S (S (S
+                       (S (S (S (S (S (S (S (S (S (S (S (S (S (S (S (S (S (S
+                       (S (S (S (S (S (S (S (S (S (S (S (S (S (S (S (S (S (S
+                       (S (S (S (S (S (S (S (S (S (S (S (S (S (S (S (S (S (S
+                       (S (S (S (S (S (S (S (S (S (S (S (S (S (S (S (S (S (S
+                       (S (S (S (S (S (S (S (S (S (S (S (S (S (S (S (S (S (S
+                       (S (S (S (S (S (S (S (S (S (S (S (S (S (S (S (S (S (S
+                       (S (S (S (S (S (S (S (S (S (S (S (S (S (S (S (S (S (S
+                       (S (S (S (S (S (S (S (S (S (S (S (S (S (S (S (S (S (S
+                       (S (S (S (S (S (S (S (S (S (S (S (S (S (S (S (S (S (S
+                       (S (S (S (S (S (S (S (S (S (S (S (S (S (S (S (S (S (S
+                       (S (S (S (S (S
+                       O))))))))))))))))))))))))))))))))))))))))))))))))))))))))))))))))))))))))))))))))))))))))))))))))))))))))))))))))))))))))))))))))))))))))))))))))))))))))))))))))))))))))))))))))))))))))))))))))))))))))))))))))))))))))))))))))))))))))))))))))))))))))))))))))))))))))))))))))))))))))))))))))
+                       (puts bits_eqb0 bits_ltb l2 []) with
+               | Ok c ->
+                 SL
+                   ((sx_cell c) :: ((sx_res0 (fun m -> SL
+                                      (map sx_addr_item m))
+                                      (decode_e vdec_val (S (S (S (S (S (S (S
+                                        (S (S (S (S (S (S (S (S (S (S (S (S
+                                        (S (S (S (S (S (S (S (S (S (S (S (S
+                                        (S (S (S (S (S (S (S (S (S (S (S (S
+                                        (S (S (S (S (S (S (S (S (S (S (S (S
+                                        (S (S (S (S (S (S (S (S (S (S (S (S
+                                        (S (S (S (S (S (S (S (S (S (S (S (S
+                                        (S (S (S (S (S (S (S (S (S (S (S (S
+                                        (S (S (S (S (S (S (S (S (S (S (S (S
+                                        (S (S (S (S (S (S (S (S (S (S (S (S
+                                        (S (S (S (S (S (S (S (S (S (S (S (S
+                                        (S (S (S (S (S (S (S (S (S (S (S (S
+                                        (S (S (S (S (S (S (S (S (S (S (S (S
+                                        (S (S (S (S (S (S (S (S (S (S (S (S
+                                        (S (S (S (S (S (S (S (S (S (S (S (S
+                                        (S (S (S (S (S (S (S (S (S (S (S (S
+                                        (S (S (S (S (S (S (S (S (S (S (S (S
+                                        (S (S (S (S (S (S (S (S (S (S (S (S
+                                        (S (S (S (S (S (S (S (S (S (S (S (S
+                                        (S (S (S (S (S (S (S (S (S (S (S (S
+                                        (S (S (S (S (S (S (S (S (S (S (S (S
+                                        (S (S (S (S (S (S (S (S (S (S (S (S
+                                        (S (S (S (S (S (S (S (S (S (S (S (S
+                                        (S (S (S (S (S (S (S (S (S (S (S (S
+                                        (S (S (S (S (S
+                                        O))))))))))))))))))))))))))))))))))))))))))))))))))))))))))))))))))))))))))))))))))))))))))))))))))))))))))))))))))))))))))))))))))))))))))))))))))))))))))))))))))))))))))))))))))))))))))))))))))))))))))))))))))))))))))))))))))))))))))))))))))))))))))))))))))))))))))))))))))))))))))))))))
+                                        c)) :: []))
+               | _ ->
+                 SA (String ((Ascii (true, false, true, false, false, true,
+                   true, false)), (String ((Ascii (false, true, false, false,
+                   true, true, true, false)), (String ((Ascii (false, true,
+                   false, false, true, true, true, false)), EmptyString)))))))
+            | None ->
+              sx_err (String ((Ascii (true, false, false, false, false, true,
+                true, false)), (String ((Ascii (false, false, true, false,
+                false, true, true, false)), (String ((Ascii (false, false,
+                true, false, false, true, true, false)), (String ((Ascii
+                (false, true, false, false, true, true, true, false)),
+                (String ((Ascii (false, false, false, false, false, true,
+                false, false)), (String ((Ascii (true, false, false, true,
+                false, true, true, false)), (String ((Ascii (false, false,
+                true, false, true, true, true, false)), (String ((Ascii
+                (true, false, true, false, false, true, true, false)),
+                (String ((Ascii (true, false, true, true, false, true, true,
+                false)), (String ((Ascii (true, true, false, false, true,
+                true, true, false)), EmptyString)))))))))))))))))))))
+         | _ :: _ ->
+           sx_err (String ((Ascii (true, false, false, false, false, true,
+             true, false)), (String ((Ascii (false, false, true, false,
+             false, true, true, false)), (String ((Ascii (false, false, true,
+             false, false, true, true, false)), (String ((Ascii (false, true,
+             false, false, true, true, true, false)), EmptyString)))))))))
+      | _ ->
+        sx_err (String ((Ascii (true, false, false, false, false, true, true,
+          false)), (String ((Ascii (false, false, true, false, false, true,
+          true, false)), (String ((Ascii (false, false, true, false, false,
+          true, true, false)), (String ((Ascii (false, true, false, false,
+          true, true, true, false)), EmptyString))))))))))
+| _ ->
+  sx_err (String ((Ascii (true, false, false, false, false, true, true,
+    false)), (String ((Ascii (false, false, true, false, false, true, true,
+    false)), (String ((Ascii (false, false, true, false, false, true, true,
+    false)), (String ((Ascii (false, true, false, false, true, true, true,
+    false)), EmptyString))))))))
+
+type strategy =
+| BestPing
+| FirstWorking
+| OtherStrategy
+
+type conn = { c_alive : bool; c_seqno : n; c_rtt : z }
+
+(** val two32 : n **)
+
+let two32 =
+  Npos (XO (XO (XO (XO (XO (XO (XO (XO (XO (XO (XO (XO (XO (XO (XO (XO (XO
+    (XO (XO (XO (XO (XO (XO (XO (XO (XO (XO (XO (XO (XO (XO (XO
+    XH))))))))))))))))))))))))))))))))
+
+(** val u32 : n -> n **)
+
+let u32 n0 =
+  N.modulo n0 two32
+
+(** val seq32 : conn -> n **)
+
+let seq32 c =
+  u32 c.c_seqno
+
+(** val max_step : n -> conn -> n **)
+
+let max_step m c =
+  if N.ltb m (seq32 c) then seq32 c else m
+
+(** val max_seqno : conn list -> n **)
+
+let max_seqno cs =
+  fold_left max_step cs N0
+
+(** val current_go : n -> conn -> bool **)
+
+let current_go maxs c =
+  N.leb maxs (N.add (seq32 c) (Npos XH))
+
+(** val usable_go : n -> conn -> bool **)
+
+let usable_go maxs c =
+  (&&) c.c_alive (current_go maxs c)
+
+(** val find_first_working : n -> conn list -> nat -> nat option **)
+
+let rec find_first_working maxs cs i =
+  match cs with
+  | [] -> None
+  | c :: t ->
+    if usable_go maxs c then Some i else find_first_working maxs t (S i)
+
+(** val better : nat -> conn -> (nat * z) option -> (nat * z) option **)
+
+let better i c best0 = match best0 with
+| Some p ->
+  let (_, r) = p in if Z.ltb c.c_rtt r then Some (i, c.c_rtt) else best0
+| None -> Some (i, c.c_rtt)
+
+(** val find_best_ping :
+    n -> conn list -> nat -> (nat * z) option -> (nat * z) option **)
+
+let rec find_best_ping maxs cs i best0 =
+  match cs with
+  | [] -> best0
+  | c :: t ->
+    find_best_ping maxs t (S i)
+      (if usable_go maxs c then better i c best0 else best0)
+
+(** val update_best : strategy -> conn list -> nat option -> nat option **)
+
+let update_best st cs prev =
+  match cs with
+  | [] -> prev
+  | _ :: _ ->
+    let m = max_seqno cs in
+    (match st with
+     | BestPing ->
+       (match find_best_ping m cs O None with
+        | Some p -> let (i, _) = p in Some i
+        | None -> prev)
+     | FirstWorking ->
+       (match find_first_working m cs O with
+        | Some i -> Some i
+        | None -> prev)
+     | OtherStrategy -> prev)
+
+type msg = nat * n
+
+type agent =
+| ARun
+| AW of nat
+
+type wres =
+| ROk
+| RTimeout
+| RCancel
+
+type wait_pc =
+| WNew
+| WSubL
+| WWait
+| WUnsub of wres
+| WDone of wres
+| WPanicked
+
+type run_pc =
+| RIdle
+| RWantR of msg
+| RNotify of msg * bool * nat list
+| RUpd
+
+(** val upd_cap : nat **)
+
+let upd_cap =
+  S (S (S (S (S (S (S (S (S (S O)))))))))
+
+type state = { head : (nat -> n); pend : msg list; updq : msg list;
+               best : nat option; readers : nat; writer : agent option;
+               wl : (n * nat) list; next_id : n; rpc : run_pc;
+               wpc : (nat -> wait_pc); wid : (nat -> n);
+               wch : (nat -> msg option); wgot : (nat -> msg option);
+               woff : (nat -> msg list); log : msg list }
+
+(** val set_head : state -> (nat -> n) -> state **)
+
+let set_head s v =
+  { head = v; pend = s.pend; updq = s.updq; best = s.best; readers =
+    s.readers; writer = s.writer; wl = s.wl; next_id = s.next_id; rpc =
+    s.rpc; wpc = s.wpc; wid = s.wid; wch = s.wch; wgot = s.wgot; woff =
+    s.woff; log = s.log }
+
+(** val set_pend : state -> msg list -> state **)
+
+let set_pend s v =
+  { head = s.head; pend = v; updq = s.updq; best = s.best; readers =
+    s.readers; writer = s.writer; wl = s.wl; next_id = s.next_id; rpc =
+    s.rpc; wpc = s.wpc; wid = s.wid; wch = s.wch; wgot = s.wgot; woff =
+    s.woff; log = s.log }
+
+(** val set_updq : state -> msg list -> state **)
+
+let set_updq s v =
+  { head = s.head; pend = s.pend; updq = v; best = s.best; readers =
+    s.readers; writer = s.writer; wl = s.wl; next_id = s.next_id; rpc =
+    s.rpc; wpc = s.wpc; wid = s.wid; wch = s.wch; wgot = s.wgot; woff =
+    s.woff; log = s.log }
+
+(** val set_best : state -> nat option -> state **)
+
+let set_best s v =
+  { head = s.head; pend = s.pend; updq = s.updq; best = v; readers =
+    s.readers; writer = s.writer; wl = s.wl; next_id = s.next_id; rpc =
+    s.rpc; wpc = s.wpc; wid = s.wid; wch = s.wch; wgot = s.wgot; woff =
+    s.woff; log = s.log }
+
+(** val set_readers : state -> nat -> state **)
+
+let set_readers s v =
+  { head = s.head; pend = s.pend; updq = s.updq; best = s.best; readers = v;
+    writer = s.writer; wl = s.wl; next_id = s.next_id; rpc = s.rpc; wpc =
+    s.wpc; wid = s.wid; wch = s.wch; wgot = s.wgot; woff = s.woff; log =
+    s.log }
+
+(** val set_writer : state -> agent option -> state **)
+
+let set_writer s v =
+  { head = s.head; pend = s.pend; updq = s.updq; best = s.best; readers =
+    s.readers; writer = v; wl = s.wl; next_id = s.next_id; rpc = s.rpc; wpc =
+    s.wpc; wid = s.wid; wch = s.wch; wgot = s.wgot; woff = s.woff; log =
+    s.log }
+
+(** val set_wl : state -> (n * nat) list -> state **)
+
+let set_wl s v =
+  { head = s.head; pend = s.pend; updq = s.updq; best = s.best; readers =
+    s.readers; writer = s.writer; wl = v; next_id = s.next_id; rpc = s.rpc;
+    wpc = s.wpc; wid = s.wid; wch = s.wch; wgot = s.wgot; woff = s.woff;
+    log = s.log }
+
+(** val set_next_id : state -> n -> state **)
+
+let set_next_id s v =
+  { head = s.head; pend = s.pend; updq = s.updq; best = s.best; readers =
+    s.readers; writer = s.writer; wl = s.wl; next_id = v; rpc = s.rpc; wpc =
+    s.wpc; wid = s.wid; wch = s.wch; wgot = s.wgot; woff = s.woff; log =
+    s.log }
+
+(** val set_rpc : state -> run_pc -> state **)
+
+let set_rpc s v =
+  { head = s.head; pend = s.pend; updq = s.updq; best = s.best; readers =
+    s.readers; writer = s.writer; wl = s.wl; next_id = s.next_id; rpc = v;
+    wpc = s.wpc; wid = s.wid; wch = s.wch; wgot = s.wgot; woff = s.woff;
+    log = s.log }
+
+(** val set_wpc : state -> (nat -> wait_pc) -> state **)
+
+let set_wpc s v =
+  { head = s.head; pend = s.pend; updq = s.updq; best = s.best; readers =
+    s.readers; writer = s.writer; wl = s.wl; next_id = s.next_id; rpc =
+    s.rpc; wpc = v; wid = s.wid; wch = s.wch; wgot = s.wgot; woff = s.woff;
+    log = s.log }
+
+(** val set_wid : state -> (nat -> n) -> state **)
+
+let set_wid s v =
+  { head = s.head; pend = s.pend; updq = s.updq; best = s.best; readers =
+    s.readers; writer = s.writer; wl = s.wl; next_id = s.next_id; rpc =
+    s.rpc; wpc = s.wpc; wid = v; wch = s.wch; wgot = s.wgot; woff = s.woff;
+    log = s.log }
+
+(** val set_wch : state -> (nat -> msg option) -> state **)
+
+let set_wch s v =
+  { head = s.head; pend = s.pend; updq = s.updq; best = s.best; readers =
+    s.readers; writer = s.writer; wl = s.wl; next_id = s.next_id; rpc =
+    s.rpc; wpc = s.wpc; wid = s.wid; wch = v; wgot = s.wgot; woff = s.woff;
+    log = s.log }
+
+(** val set_wgot : state -> (nat -> msg option) -> state **)
+
+let set_wgot s v =
+  { head = s.head; pend = s.pend; updq = s.updq; best = s.best; readers =
+    s.readers; writer = s.writer; wl = s.wl; next_id = s.next_id; rpc =
+    s.rpc; wpc = s.wpc; wid = s.wid; wch = s.wch; wgot = v; woff = s.woff;
+    log = s.log }
+
+(** val set_woff : state -> (nat -> msg list) -> state **)
+
+let set_woff s v =
+  { head = s.head; pend = s.pend; updq = s.updq; best = s.best; readers =
+    s.readers; writer = s.writer; wl = s.wl; next_id = s.next_id; rpc =
+    s.rpc; wpc = s.wpc; wid = s.wid; wch = s.wch; wgot = s.wgot; woff = v;
+    log = s.log }
+
+(** val set_log : state -> msg list -> state **)
+
+let set_log s v =
+  { head = s.head; pend = s.pend; updq = s.updq; best = s.best; readers =
+    s.readers; writer = s.writer; wl = s.wl; next_id = s.next_id; rpc =
+    s.rpc; wpc = s.wpc; wid = s.wid; wch = s.wch; wgot = s.wgot; woff =
+    s.woff; log = v }
+
+(** val fupd : (nat -> 'a1) -> nat -> 'a1 -> nat -> 'a1 **)
+
+let fupd f i v j =
+  if Nat.eqb j i then v else f j
+
+(** val remove_nth : nat -> 'a1 list -> 'a1 list **)
+
+let rec remove_nth k0 = function
+| [] -> []
+| x :: t -> (match k0 with
+             | O -> t
+             | S k' -> x :: (remove_nth k' t))
+
+type label =
+| LSetHead of nat * n
+| LPublish of nat
+| LTake
+| LRLock of nat list
+| LSend
+| LRUnlock
+| LTick
+| LUpdDone of (bool * z) list
+| LSubLock of nat
+| LSubBody of nat
+| LRecv of nat
+| LLeave of nat * wres
+| LUnsub of nat
+
+(** val lock_free : state -> bool **)
+
+let lock_free s =
+  (&&) (Nat.eqb s.readers O)
+    (match s.writer with
+     | Some _ -> false
+     | None -> true)
+
+(** val is_writer : state -> agent -> bool **)
+
+let is_writer s a =
+  match s.writer with
+  | Some a0 ->
+    (match a0 with
+     | ARun -> (match a with
+                | ARun -> true
+                | AW _ -> false)
+     | AW w -> (match a with
+                | ARun -> false
+                | AW w' -> Nat.eqb w w'))
+  | None -> false
+
+(** val mem : nat -> nat list -> bool **)
+
+let mem x l =
+  existsb (Nat.eqb x) l
+
+(** val is_order : nat list -> state -> bool **)
+
+let is_order order s =
+  let chans = map snd s.wl in
+  (&&)
+    ((&&) (Nat.eqb (length order) (length chans))
+      (forallb (fun w -> mem w chans) order))
+    (forallb (fun w -> mem w order) chans)
+
+(** val same_best : state -> nat -> bool **)
+
+let same_best s c =
+  match s.best with
+  | Some b -> Nat.eqb b c
+  | None -> false
+
+(** val newer : msg option -> msg -> msg **)
+
+let newer old u =
+  match old with
+  | Some m -> if N.ltb (snd u) (snd m) then m else u
+  | None -> u
+
+(** val mk_conns : nat -> (nat -> n) -> (bool * z) list -> conn list **)
+
+let mk_conns nconns heads obs =
+  map (fun i ->
+    let o = nth i obs (false, Z0) in
+    { c_alive = (fst o); c_seqno = (heads i); c_rtt = (snd o) })
+    (seq O nconns)
+
+(** val step0 :
+    strategy -> nat -> (nat -> n) -> state -> label -> state option **)
+
+let step0 strat nconns tgt s = function
+| LSetHead (c, h) ->
+  if N.ltb (s.head c) h
+  then Some
+         (set_pend (set_head s (fupd s.head c h)) (app s.pend ((c, h) :: [])))
+  else Some s
+| LPublish k0 ->
+  (match nth_error s.pend k0 with
+   | Some m ->
+     if Nat.ltb (length s.updq) upd_cap
+     then Some
+            (set_pend (set_updq s (app s.updq (m :: [])))
+              (remove_nth k0 s.pend))
+     else None
+   | None -> None)
+| LTake ->
+  (match s.rpc with
+   | RIdle ->
+     (match s.updq with
+      | [] -> None
+      | u :: rest -> Some (set_rpc (set_updq s rest) (RWantR u)))
+   | _ -> None)
+| LRLock order ->
+  (match s.rpc with
+   | RWantR u ->
+     (match s.writer with
+      | Some _ -> None
+      | None ->
+        let s1 = set_readers s (S s.readers) in
+        if same_best s (fst u)
+        then if is_order order s
+             then Some
+                    (set_log (set_rpc s1 (RNotify (u, true, order)))
+                      (app s.log (u :: [])))
+             else None
+        else Some (set_rpc s1 (RNotify (u, false, []))))
+   | _ -> None)
+| LSend ->
+  (match s.rpc with
+   | RNotify (u, mt, rem0) ->
+     (match rem0 with
+      | [] -> None
+      | w :: rem ->
+        let m = newer (s.wch w) u in
+        Some
+        (set_rpc
+          (set_woff (set_wch s (fupd s.wch w (Some m)))
+            (fupd s.woff w (app (s.woff w) (u :: [])))) (RNotify (u, mt,
+          rem))))
+   | _ -> None)
+| LRUnlock ->
+  (match s.rpc with
+   | RNotify (_, _, rem) ->
+     (match rem with
+      | [] -> Some (set_rpc (set_readers s (pred s.readers)) RIdle)
+      | _ :: _ -> None)
+   | _ -> None)
+| LTick ->
+  (match s.rpc with
+   | RIdle ->
+     if lock_free s
+     then Some (set_rpc (set_writer s (Some ARun)) RUpd)
+     else None
+   | _ -> None)
+| LUpdDone obs ->
+  (match s.rpc with
+   | RUpd ->
+     if is_writer s ARun
+     then Some
+            (set_rpc
+              (set_writer
+                (set_best s
+                  (update_best strat (mk_conns nconns s.head obs) s.best))
+                None) RIdle)
+     else None
+   | _ -> None)
+| LSubLock w ->
+  (match s.wpc w with
+   | WNew ->
+     if lock_free s
+     then Some (set_wpc (set_writer s (Some (AW w))) (fupd s.wpc w WSubL))
+     else None
+   | _ -> None)
+| LSubBody w ->
+  (match s.wpc w with
+   | WSubL ->
+     if is_writer s (AW w)
+     then (match s.best with
+           | Some b ->
+             let s1 = set_wpc (set_writer s None) (fupd s.wpc w WWait) in
+             if N.leb (tgt w) (s.head b)
+             then Some
+                    (set_log
+                      (set_woff
+                        (set_wid
+                          (set_wch s1 (fupd s.wch w (Some (b, (s.head b)))))
+                          (fupd s.wid w N0))
+                        (fupd s.woff w
+                          (app (s.woff w) ((b, (s.head b)) :: []))))
+                      (app s.log ((b, (s.head b)) :: [])))
+             else let id = N.add s.next_id (Npos XH) in
+                  Some
+                  (set_wid
+                    (set_wl (set_next_id s1 id) (app s.wl ((id, w) :: [])))
+                    (fupd s.wid w id))
+           | None ->
+             Some (set_wpc (set_writer s None) (fupd s.wpc w WPanicked)))
+     else None
+   | _ -> None)
+| LRecv w ->
+  (match s.wpc w with
+   | WWait ->
+     (match s.wch w with
+      | Some m ->
+        Some
+          (set_wpc
+            (set_wgot (set_wch s (fupd s.wch w None))
+              (fupd s.wgot w (Some m)))
+            (fupd s.wpc w
+              (if N.leb (tgt w) (snd m) then WUnsub ROk else WWait)))
+      | None -> None)
+   | _ -> None)
+| LLeave (w, r) ->
+  (match s.wpc w with
+   | WWait ->
+     (match r with
+      | ROk -> None
+      | _ -> Some (set_wpc s (fupd s.wpc w (WUnsub r))))
+   | _ -> None)
+| LUnsub w ->
+  (match s.wpc w with
+   | WUnsub r ->
+     if lock_free s
+     then Some
+            (set_wpc
+              (set_wl s
+                (filter (fun e -> negb (N.eqb (fst e) (s.wid w))) s.wl))
+              (fupd s.wpc w (WDone r)))
+     else None
+   | _ -> None)
+
+(** val init_state : (nat -> n) -> nat option -> state **)
+
+let init_state heads b =
+  { head = heads; pend = []; updq = []; best = b; readers = O; writer = None;
+    wl = []; next_id = N0; rpc = RIdle; wpc = (fun _ -> WNew); wid =
+    (fun _ -> N0); wch = (fun _ -> None); wgot = (fun _ -> None); woff =
+    (fun _ -> []); log = [] }
+
+(** val strat_of : n -> strategy **)
+
+let strat_of n0 =
+  if N.eqb n0 N0
+  then BestPing
+  else if N.eqb n0 (Npos XH) then FirstWorking else OtherStrategy
+
+(** val conn_of : sx -> conn option **)
+
+let conn_of = function
+| SL l ->
+  (match l with
+   | [] -> None
+   | s :: l0 ->
+     (match s with
+      | SB al ->
+        (match l0 with
+         | [] -> None
+         | s0 :: l1 ->
+           (match s0 with
+            | SN sq ->
+              (match l1 with
+               | [] -> None
+               | s1 :: l2 ->
+                 (match s1 with
+                  | SZ r ->
+                    (match l2 with
+                     | [] -> Some { c_alive = al; c_seqno = sq; c_rtt = r }
+                     | _ :: _ -> None)
+                  | _ -> None))
+            | _ -> None))
+      | _ -> None))
+| _ -> None
+
+(** val conns_of : sx list -> conn list option **)
+
+let rec conns_of = function
+| [] -> Some []
+| a :: t ->
+  (match conn_of a with
+   | Some c ->
+     (match conns_of t with
+      | Some cs -> Some (c :: cs)
+      | None -> None)
+   | None -> None)
+
+(** val prev_of : sx -> nat option option **)
+
+let prev_of = function
+| SN i ->
+  Some (Some
+    (N.to_nat
+      (N.min i (Npos (XO (XO (XO (XI (XO (XI (XI (XI (XI XH)))))))))))))
+| SA _ -> Some None
+| _ -> None
+
+(** val out_choice : nat option -> sx **)
+
+let out_choice = function
+| Some i -> sx_nat i
+| None ->
+  SA (String ((Ascii (false, true, true, true, false, true, true, false)),
+    (String ((Ascii (true, true, true, true, false, true, true, false)),
+    (String ((Ascii (false, true, true, true, false, true, true, false)),
+    (String ((Ascii (true, false, true, false, false, true, true, false)),
+    EmptyString))))))))
+
+(** val run_ub : sx -> sx **)
+
+let run_ub = function
+| SL l ->
+  (match l with
+   | [] ->
+     sx_err (String ((Ascii (true, false, true, false, true, true, true,
+       false)), (String ((Ascii (false, true, false, false, false, true,
+       true, false)), EmptyString))))
+   | s :: l0 ->
+     (match s with
+      | SN st ->
+        (match l0 with
+         | [] ->
+           sx_err (String ((Ascii (true, false, true, false, true, true,
+             true, false)), (String ((Ascii (false, true, false, false,
+             false, true, true, false)), EmptyString))))
+         | pv :: l1 ->
+           (match l1 with
+            | [] ->
+              sx_err (String ((Ascii (true, false, true, false, true, true,
+                true, false)), (String ((Ascii (false, true, false, false,
+                false, true, true, false)), EmptyString))))
+            | s0 :: l2 ->
+              (match s0 with
+               | SL cl ->
+                 (match l2 with
+                  | [] ->
+                    (match prev_of pv with
+                     | Some prev ->
+                       (match conns_of cl with
+                        | Some cs ->
+                          out_choice (update_best (strat_of st) cs prev)
+                        | None ->
+                          sx_err (String ((Ascii (true, false, true, false,
+                            true, true, true, false)), (String ((Ascii
+                            (false, true, false, false, false, true, true,
+                            false)), (String ((Ascii (false, false, false,
+                            false, false, true, false, false)), (String
+                            ((Ascii (true, false, false, false, false, true,
+                            true, false)), (String ((Ascii (false, true,
+                            false, false, true, true, true, false)), (String
+                            ((Ascii (true, true, true, false, false, true,
+                            true, false)), (String ((Ascii (true, true,
+                            false, false, true, true, true, false)),
+                            EmptyString)))))))))))))))
+                     | None ->
+                       sx_err (String ((Ascii (true, false, true, false,
+                         true, true, true, false)), (String ((Ascii (false,
+                         true, false, false, false, true, true, false)),
+                         (String ((Ascii (false, false, false, false, false,
+                         true, false, false)), (String ((Ascii (true, false,
+                         false, false, false, true, true, false)), (String
+                         ((Ascii (false, true, false, false, true, true,
+                         true, false)), (String ((Ascii (true, true, true,
+                         false, false, true, true, false)), (String ((Ascii
+                         (true, true, false, false, true, true, true,
+                         false)), EmptyString)))))))))))))))
+                  | _ :: _ ->
+                    sx_err (String ((Ascii (true, false, true, false, true,
+                      true, true, false)), (String ((Ascii (false, true,
+                      false, false, false, true, true, false)),
+                      EmptyString)))))
+               | _ ->
+                 sx_err (String ((Ascii (true, false, true, false, true,
+                   true, true, false)), (String ((Ascii (false, true, false,
+                   false, false, true, true, false)), EmptyString)))))))
+      | _ ->
+        sx_err (String ((Ascii (true, false, true, false, true, true, true,
+          false)), (String ((Ascii (false, true, false, false, false, true,
+          true, false)), EmptyString))))))
+| _ ->
+  sx_err (String ((Ascii (true, false, true, false, true, true, true,
+    false)), (String ((Ascii (false, true, false, false, false, true, true,
+    false)), EmptyString))))
+
+(** val grid_seqnos : n list **)
+
+let grid_seqnos =
+  N0 :: ((Npos XH) :: ((Npos (XO XH)) :: ((Npos (XI XH)) :: ((Npos (XO (XI
+    (XI (XI (XI (XI (XI (XI (XI (XI (XI (XI (XI (XI (XI (XI (XI (XI (XI (XI
+    (XI (XI (XI (XI (XI (XI (XI (XI (XI (XI (XI
+    XH)))))))))))))))))))))))))))))))) :: ((Npos (XI (XI (XI (XI (XI (XI (XI
+    (XI (XI (XI (XI (XI (XI (XI (XI (XI (XI (XI (XI (XI (XI (XI (XI (XI (XI
+    (XI (XI (XI (XI (XI (XI XH)))))))))))))))))))))))))))))))) :: [])))))
+
+(** val grid_rtts : z list **)
+
+let grid_rtts =
+  (Zpos XH) :: ((Zpos (XO XH)) :: ((Zpos (XI XH)) :: []))
+
+(** val grid_conns : conn list **)
+
+let grid_conns =
+  flat_map (fun al ->
+    flat_map (fun sq ->
+      map (fun r -> { c_alive = al; c_seqno = sq; c_rtt = r }) grid_rtts)
+      grid_seqnos) (true :: (false :: []))
+
+(** val prevs : nat -> nat option list **)
+
+let rec prevs = function
+| O -> None :: []
+| S k0 -> app (prevs k0) ((Some k0) :: [])
+
+(** val run_ubx : sx -> sx **)
+
+let run_ubx = function
+| SL l ->
+  (match l with
+   | [] ->
+     sx_err (String ((Ascii (true, false, true, false, true, true, true,
+       false)), (String ((Ascii (false, true, false, false, false, true,
+       true, false)), (String ((Ascii (false, false, false, true, true, true,
+       true, false)), EmptyString))))))
+   | s :: l0 ->
+     (match s with
+      | SN st ->
+        (match l0 with
+         | [] ->
+           sx_err (String ((Ascii (true, false, true, false, true, true,
+             true, false)), (String ((Ascii (false, true, false, false,
+             false, true, true, false)), (String ((Ascii (false, false,
+             false, true, true, true, true, false)), EmptyString))))))
+         | s0 :: l1 ->
+           (match s0 with
+            | SL cl ->
+              (match l1 with
+               | [] ->
+                 (match conns_of cl with
+                  | Some pre ->
+                    SL
+                      (flat_map (fun last0 ->
+                        let cs = app pre (last0 :: []) in
+                        map (fun pv ->
+                          out_choice (update_best (strat_of st) cs pv))
+                          (prevs (length cs))) grid_conns)
+                  | None ->
+                    sx_err (String ((Ascii (true, false, true, false, true,
+                      true, true, false)), (String ((Ascii (false, true,
+                      false, false, false, true, true, false)), (String
+                      ((Ascii (false, false, false, true, true, true, true,
+                      false)), (String ((Ascii (false, false, false, false,
+                      false, true, false, false)), (String ((Ascii (true,
+                      false, false, false, false, true, true, false)),
+                      (String ((Ascii (false, true, false, false, true, true,
+                      true, false)), (String ((Ascii (true, true, true,
+                      false, false, true, true, false)), (String ((Ascii
+                      (true, true, false, false, true, true, true, false)),
+                      EmptyString)))))))))))))))))
+               | _ :: _ ->
+                 sx_err (String ((Ascii (true, false, true, false, true,
+                   true, true, false)), (String ((Ascii (false, true, false,
+                   false, false, true, true, false)), (String ((Ascii (false,
+                   false, false, true, true, true, true, false)),
+                   EmptyString)))))))
+            | _ ->
+              sx_err (String ((Ascii (true, false, true, false, true, true,
+                true, false)), (String ((Ascii (false, true, false, false,
+                false, true, true, false)), (String ((Ascii (false, false,
+                false, true, true, true, true, false)), EmptyString))))))))
+      | _ ->
+        sx_err (String ((Ascii (true, false, true, false, true, true, true,
+          false)), (String ((Ascii (false, true, false, false, false, true,
+          true, false)), (String ((Ascii (false, false, false, true, true,
+          true, true, false)), EmptyString))))))))
+| _ ->
+  sx_err (String ((Ascii (true, false, true, false, true, true, true,
+    false)), (String ((Ascii (false, true, false, false, false, true, true,
+    false)), (String ((Ascii (false, false, false, true, true, true, true,
+    false)), EmptyString))))))
+
+type mop =
+| MLabel of label
+| MPublish of msg
+| MRLock
+| MSendAll
+
+type agent_id =
+| GConn of nat
+| GRun
+| GWaiter of nat
+
+type okind =
+| KDone
+| KSub of nat
+| KBest
+
+type pend_op = { p_op : nat; p_agent : agent_id; p_script : mop list;
+                 p_kind : okind }
+
+(** val msg_eqb : msg -> msg -> bool **)
+
+let msg_eqb a b =
+  (&&) (Nat.eqb (fst a) (fst b)) (N.eqb (snd a) (snd b))
+
+(** val index_of0 : msg -> msg list -> nat -> nat option **)
+
+let rec index_of0 m l i =
+  match l with
+  | [] -> None
+  | x :: t -> if msg_eqb x m then Some i else index_of0 m t (S i)
+
+(** val send_all :
+    strategy -> nat -> (nat -> n) -> nat -> state -> state * bool **)
+
+let rec send_all strat nconns tgt fuel s =
+  match s.rpc with
+  | RNotify (_, _, rem) ->
+    (match rem with
+     | [] -> (s, true)
+     | _ :: _ ->
+       (match fuel with
+        | O -> (s, false)
+        | S f ->
+          (match step0 strat nconns tgt s LSend with
+           | Some s' -> send_all strat nconns tgt f s'
+           | None -> (s, false))))
+  | _ -> (s, true)
+
+(** val exec_mop :
+    strategy -> nat -> (nat -> n) -> state -> mop -> state * bool **)
+
+let exec_mop strat nconns tgt s = function
+| MLabel l ->
+  (match step0 strat nconns tgt s l with
+   | Some s' -> (s', true)
+   | None -> (s, false))
+| MPublish u ->
+  (match index_of0 u s.pend O with
+   | Some k0 ->
+     (match step0 strat nconns tgt s (LPublish k0) with
+      | Some s' -> (s', true)
+      | None -> (s, false))
+   | None -> (s, true))
+| MRLock ->
+  (match step0 strat nconns tgt s (LRLock (map snd s.wl)) with
+   | Some s' -> (s', true)
+   | None -> (s, false))
+| MSendAll -> send_all strat nconns tgt (S (length s.wl)) s
+
+(** val advance :
+    strategy -> nat -> (nat -> n) -> state -> mop list -> state * mop list **)
+
+let rec advance strat nconns tgt s script = match script with
+| [] -> (s, [])
+| m :: t ->
+  let (s', fin) = exec_mop strat nconns tgt s m in
+  if fin then advance strat nconns tgt s' t else (s', script)
+
+(** val finish : okind -> state -> sx **)
+
+let finish k0 s =
+  match k0 with
+  | KDone ->
+    SA (String ((Ascii (false, false, true, false, false, true, true,
+      false)), (String ((Ascii (true, true, true, true, false, true, true,
+      false)), (String ((Ascii (false, true, true, true, false, true, true,
+      false)), (String ((Ascii (true, false, true, false, false, true, true,
+      false)), EmptyString))))))))
+  | KSub w ->
+    SL ((SA (String ((Ascii (true, true, false, false, true, true, true,
+      false)), (String ((Ascii (true, false, true, false, true, true, true,
+      false)), (String ((Ascii (false, true, false, false, false, true, true,
+      false)), EmptyString))))))) :: ((SB
+      (match s.wch w with
+       | Some _ -> true
+       | None -> false)) :: []))
+  | KBest ->
+    SL ((SA (String ((Ascii (false, true, false, false, false, true, true,
+      false)), (String ((Ascii (true, false, true, false, false, true, true,
+      false)), (String ((Ascii (true, true, false, false, true, true, true,
+      false)), (String ((Ascii (false, false, true, false, true, true, true,
+      false)), EmptyString))))))))) :: ((out_choice s.best) :: []))
+
+(** val settle_pass :
+    strategy -> nat -> (nat -> n) -> state -> pend_op list ->
+    ((state * pend_op list) * sx list) * bool **)
+
+let rec settle_pass strat nconns tgt s = function
+| [] -> (((s, []), []), false)
+| p :: t ->
+  let (s1, rest) = advance strat nconns tgt s p.p_script in
+  let moved = negb (Nat.eqb (length rest) (length p.p_script)) in
+  let (p0, prog) = settle_pass strat nconns tgt s1 t in
+  let (p1, outs) = p0 in
+  let (s2, ps') = p1 in
+  (match rest with
+   | [] ->
+     (((s2, ps'), ((SL
+       ((sx_nat p.p_op) :: ((finish p.p_kind s1) :: []))) :: outs)), true)
+   | _ :: _ ->
+     (((s2, ({ p_op = p.p_op; p_agent = p.p_agent; p_script = rest; p_kind =
+       p.p_kind } :: ps')), outs), ((||) moved prog)))
+
+(** val settle :
+    strategy -> nat -> (nat -> n) -> nat -> state -> pend_op list ->
+    (state * pend_op list) * sx list **)
+
+let rec settle strat nconns tgt fuel s ps =
+  match fuel with
+  | O -> ((s, ps), [])
+  | S f ->
+    let (p, prog) = settle_pass strat nconns tgt s ps in
+    let (p0, outs) = p in
+    let (s1, ps1) = p0 in
+    if prog
+    then let (p1, outs2) = settle strat nconns tgt f s1 ps1 in
+         (p1, (app outs outs2))
+    else ((s1, ps1), outs)
+
+(** val agent_eqb : agent_id -> agent_id -> bool **)
+
+let agent_eqb a b =
+  match a with
+  | GConn x -> (match b with
+                | GConn y -> Nat.eqb x y
+                | _ -> false)
+  | GRun -> (match b with
+             | GRun -> true
+             | _ -> false)
+  | GWaiter x -> (match b with
+                  | GWaiter y -> Nat.eqb x y
+                  | _ -> false)
+
+(** val busy : pend_op list -> agent_id -> bool **)
+
+let busy ps a =
+  existsb (fun p -> agent_eqb p.p_agent a) ps
+
+(** val wants_lock : pend_op -> bool **)
+
+let wants_lock p =
+  match p.p_script with
+  | [] -> false
+  | m :: _ ->
+    (match m with
+     | MLabel l0 ->
+       (match l0 with
+        | LTick -> true
+        | LSubLock _ -> true
+        | LUnsub _ -> true
+        | _ -> false)
+     | _ -> false)
+
+(** val launch :
+    strategy -> nat -> (nat -> n) -> nat -> agent_id -> mop list -> okind ->
+    sx -> state -> pend_op list -> (sx * state) * pend_op list **)
+
+let launch strat nconns tgt i a script k0 blocked s ps =
+  let (s1, rest) = advance strat nconns tgt s script in
+  (match rest with
+   | [] -> (((finish k0 s1), s1), ps)
+   | _ :: _ ->
+     ((blocked, s1),
+       (app ps ({ p_op = i; p_agent = a; p_script = rest; p_kind =
+         k0 } :: []))))
+
+(** val small : n -> nat **)
+
+let small n0 =
+  N.to_nat (N.min n0 (Npos (XO (XO (XO (XO (XO (XO XH))))))))
+
+(** val set_nth_obs :
+    nat -> (bool * z) -> (bool * z) list -> (bool * z) list **)
+
+let rec set_nth_obs i v l =
+  match i with
+  | O -> (match l with
+          | [] -> v :: []
+          | _ :: t -> v :: t)
+  | S k0 ->
+    (match l with
+     | [] -> (false, Z0) :: (set_nth_obs k0 v [])
+     | x :: t -> x :: (set_nth_obs k0 v t))
+
+(** val do_op :
+    strategy -> nat -> (nat -> n) -> nat -> nat -> sx -> (bool * z) list ->
+    state -> pend_op list -> ((sx * (bool * z) list) * state) * pend_op list **)
+
+let do_op strat nconns tgt i nw o obs s ps =
+  let ret = fun x ->
+    let (p, ps1) = x in let (r, s1) = p in (((r, obs), s1), ps1)
+  in
+  (match o with
+   | SL l ->
+     (match l with
+      | [] ->
+        ret
+          (((sx_err (String ((Ascii (true, true, true, true, false, true,
+              true, false)), (String ((Ascii (false, false, false, false,
+              true, true, true, false)), EmptyString))))), s), ps)
+      | s0 :: args ->
+        (match s0 with
+         | SA nm ->
+           let is = fun x -> eqb1 nm x in
+           (match args with
+            | [] ->
+              if is (String ((Ascii (false, true, true, true, false, true,
+                   true, false)), (String ((Ascii (true, true, true, true,
+                   false, true, true, false)), (String ((Ascii (false, false,
+                   true, false, true, true, true, false)), (String ((Ascii
+                   (true, false, false, true, false, true, true, false)),
+                   (String ((Ascii (false, true, true, false, false, true,
+                   true, false)), (String ((Ascii (true, false, false, true,
+                   true, true, true, false)), EmptyString))))))))))))
+              then if busy ps GRun
+                   then ret (((SA (String ((Ascii (false, true, false, false,
+                          false, true, true, false)), (String ((Ascii (true,
+                          false, true, false, true, true, true, false)),
+                          (String ((Ascii (true, true, false, false, true,
+                          true, true, false)), (String ((Ascii (true, false,
+                          false, true, true, true, true, false)),
+                          EmptyString))))))))), s), ps)
+                   else (match step0 strat nconns tgt s LTake with
+                         | Some s1 ->
+                           let u =
+                             match s1.rpc with
+                             | RWantR u -> u
+                             | _ -> (O, N0)
+                           in
+                           let (p, ps2) =
+                             launch strat nconns tgt i GRun
+                               (MRLock :: (MSendAll :: ((MLabel
+                               LRUnlock) :: []))) KDone (SA (String ((Ascii
+                               (false, true, false, false, false, true, true,
+                               false)), (String ((Ascii (false, false, true,
+                               true, false, true, true, false)), (String
+                               ((Ascii (true, true, true, true, false, true,
+                               true, false)), (String ((Ascii (true, true,
+                               false, false, false, true, true, false)),
+                               (String ((Ascii (true, true, false, true,
+                               false, true, true, false)), (String ((Ascii
+                               (true, false, true, false, false, true, true,
+                               false)), (String ((Ascii (false, false, true,
+                               false, false, true, true, false)),
+                               EmptyString))))))))))))))) s1 ps
+                           in
+                           let (r, s2) = p in
+                           ((((SL (r :: ((sx_nat (fst u)) :: ((SN
+                           (snd u)) :: [])))), obs), s2), ps2)
+                         | None ->
+                           ret (((SA (String ((Ascii (true, false, true,
+                             false, false, true, true, false)), (String
+                             ((Ascii (true, false, true, true, false, true,
+                             true, false)), (String ((Ascii (false, false,
+                             false, false, true, true, true, false)), (String
+                             ((Ascii (false, false, true, false, true, true,
+                             true, false)), (String ((Ascii (true, false,
+                             false, true, true, true, true, false)),
+                             EmptyString))))))))))), s), ps))
+              else if is (String ((Ascii (false, false, true, false, true,
+                        true, true, false)), (String ((Ascii (true, false,
+                        false, true, false, true, true, false)), (String
+                        ((Ascii (true, true, false, false, false, true, true,
+                        false)), (String ((Ascii (true, true, false, true,
+                        false, true, true, false)), EmptyString))))))))
+                   then if busy ps GRun
+                        then ret (((SA (String ((Ascii (false, true, false,
+                               false, false, true, true, false)), (String
+                               ((Ascii (true, false, true, false, true, true,
+                               true, false)), (String ((Ascii (true, true,
+                               false, false, true, true, true, false)),
+                               (String ((Ascii (true, false, false, true,
+                               true, true, true, false)),
+                               EmptyString))))))))), s), ps)
+                        else ret
+                               (launch strat nconns tgt i GRun ((MLabel
+                                 LTick) :: ((MLabel (LUpdDone obs)) :: []))
+                                 KBest (SA (String ((Ascii (false, true,
+                                 false, false, false, true, true, false)),
+                                 (String ((Ascii (false, false, true, true,
+                                 false, true, true, false)), (String ((Ascii
+                                 (true, true, true, true, false, true, true,
+                                 false)), (String ((Ascii (true, true, false,
+                                 false, false, true, true, false)), (String
+                                 ((Ascii (true, true, false, true, false,
+                                 true, true, false)), (String ((Ascii (true,
+                                 false, true, false, false, true, true,
+                                 false)), (String ((Ascii (false, false,
+                                 true, false, false, true, true, false)),
+                                 EmptyString))))))))))))))) s ps)
+                   else if is (String ((Ascii (true, true, false, false,
+                             true, true, true, false)), (String ((Ascii
+                             (false, false, true, false, true, true, true,
+                             false)), (String ((Ascii (true, false, false,
+                             false, false, true, true, false)), (String
+                             ((Ascii (false, false, true, false, true, true,
+                             true, false)), (String ((Ascii (true, false,
+                             true, false, false, true, true, false)),
+                             EmptyString))))))))))
+                        then let locked =
+                               (||)
+                                 (match s.writer with
+                                  | Some _ -> true
+                                  | None -> false) (existsb wants_lock ps)
+                             in
+                             ret (((SL
+                               ((sx_nat (length s.updq)) :: ((if locked
+                                                              then SA (String
+                                                                    ((Ascii
+                                                                    (false,
+                                                                    false,
+                                                                    true,
+                                                                    true,
+                                                                    false,
+                                                                    true,
+                                                                    true,
+                                                                    false)),
+                                                                    (String
+                                                                    ((Ascii
+                                                                    (true,
+                                                                    true,
+                                                                    true,
+                                                                    true,
+                                                                    false,
+                                                                    true,
+                                                                    true,
+                                                                    false)),
+                                                                    (String
+                                                                    ((Ascii
+                                                                    (true,
+                                                                    true,
+                                                                    false,
+                                                                    false,
+                                                                    false,
+                                                                    true,
+                                                                    true,
+                                                                    false)),
+                                                                    (String
+                                                                    ((Ascii
+                                                                    (true,
+                                                                    true,
+                                                                    false,
+                                                                    true,
+                                                                    false,
+                                                                    true,
+                                                                    true,
+                                                                    false)),
+                                                                    (String
+                                                                    ((Ascii
+                                                                    (true,
+                                                                    false,
+                                                                    true,
+                                                                    false,
+                                                                    false,
+                                                                    true,
+                                                                    true,
+                                                                    false)),
+                                                                    (String
+                                                                    ((Ascii
+                                                                    (false,
+                                                                    false,
+                                                                    true,
+                                                                    false,
+                                                                    false,
+                                                                    true,
+                                                                    true,
+                                                                    false)),
+                                                                    EmptyString))))))))))))
+                                                              else sx_nat
+                                                                    (length
+                                                                    s.wl)) :: ((SL
+                               (map (fun w -> SB
+                                 (match s.wch w with
+                                  | Some _ -> true
+                                  | None -> false)) (seq O nw))) :: (
+                               (out_choice s.best) :: []))))), s), ps)
+                        else ret
+                               (((sx_err (String ((Ascii (true, true, true,
+                                   true, false, true, true, false)), (String
+                                   ((Ascii (false, false, false, false, true,
+                                   true, true, false)), (String ((Ascii
+                                   (false, false, false, false, true, true,
+                                   false, false)), EmptyString))))))), s), ps)
+            | s1 :: l0 ->
+              (match s1 with
+               | SN a1 ->
+                 (match l0 with
+                  | [] ->
+                    let w = small a1 in
+                    if is (String ((Ascii (true, true, false, false, true,
+                         true, true, false)), (String ((Ascii (true, false,
+                         true, false, true, true, true, false)), (String
+                         ((Ascii (false, true, false, false, false, true,
+                         true, false)), EmptyString))))))
+                    then if busy ps (GWaiter w)
+                         then ret (((SA (String ((Ascii (false, true, false,
+                                false, false, true, true, false)), (String
+                                ((Ascii (true, false, true, false, true,
+                                true, true, false)), (String ((Ascii (true,
+                                true, false, false, true, true, true,
+                                false)), (String ((Ascii (true, false, false,
+                                true, true, true, true, false)),
+                                EmptyString))))))))), s), ps)
+                         else (match s.wpc w with
+                               | WNew ->
+                                 ret
+                                   (launch strat nconns tgt i (GWaiter w)
+                                     ((MLabel (LSubLock w)) :: ((MLabel
+                                     (LSubBody w)) :: [])) (KSub w) (SA
+                                     (String ((Ascii (false, true, false,
+                                     false, false, true, true, false)),
+                                     (String ((Ascii (false, false, true,
+                                     true, false, true, true, false)),
+                                     (String ((Ascii (true, true, true, true,
+                                     false, true, true, false)), (String
+                                     ((Ascii (true, true, false, false,
+                                     false, true, true, false)), (String
+                                     ((Ascii (true, true, false, true, false,
+                                     true, true, false)), (String ((Ascii
+                                     (true, false, true, false, false, true,
+                                     true, false)), (String ((Ascii (false,
+                                     false, true, false, false, true, true,
+                                     false)), EmptyString))))))))))))))) s ps)
+                               | _ ->
+                                 ret (((SA (String ((Ascii (false, true,
+                                   false, false, false, true, true, false)),
+                                   (String ((Ascii (true, false, false,
+                                   false, false, true, true, false)), (String
+                                   ((Ascii (false, false, true, false, false,
+                                   true, true, false)), EmptyString))))))),
+                                   s), ps))
+                    else if is (String ((Ascii (false, true, false, false,
+                              true, true, true, false)), (String ((Ascii
+                              (true, false, true, false, false, true, true,
+                              false)), (String ((Ascii (true, true, false,
+                              false, false, true, true, false)), (String
+                              ((Ascii (false, true, true, false, true, true,
+                              true, false)), EmptyString))))))))
+                         then if busy ps (GWaiter w)
+                              then ret (((SA (String ((Ascii (false, true,
+                                     false, false, false, true, true,
+                                     false)), (String ((Ascii (true, false,
+                                     false, false, false, true, true,
+                                     false)), (String ((Ascii (false, false,
+                                     true, false, false, true, true, false)),
+                                     EmptyString))))))), s), ps)
+                              else (match s.wpc w with
+                                    | WWait ->
+                                      (match s.wch w with
+                                       | Some m ->
+                                         (match step0 strat nconns tgt s
+                                                  (LRecv w) with
+                                          | Some s2 ->
+                                            ret (((SL ((SA (String ((Ascii
+                                              (false, false, false, true,
+                                              false, true, true, false)),
+                                              (String ((Ascii (true, false,
+                                              true, false, false, true, true,
+                                              false)), (String ((Ascii (true,
+                                              false, false, false, false,
+                                              true, true, false)), (String
+                                              ((Ascii (false, false, true,
+                                              false, false, true, true,
+                                              false)),
+                                              EmptyString))))))))) :: ((SN
+                                              (snd m)) :: []))), s2), ps)
+                                          | None ->
+                                            ret
+                                              (((sx_err (String ((Ascii
+                                                  (false, true, false, false,
+                                                  true, true, true, false)),
+                                                  (String ((Ascii (true,
+                                                  false, true, false, false,
+                                                  true, true, false)),
+                                                  (String ((Ascii (true,
+                                                  true, false, false, false,
+                                                  true, true, false)),
+                                                  (String ((Ascii (false,
+                                                  true, true, false, true,
+                                                  true, true, false)),
+                                                  EmptyString))))))))), s),
+                                              ps))
+                                       | None ->
+                                         ret (((SA (String ((Ascii (true,
+                                           false, true, false, false, true,
+                                           true, false)), (String ((Ascii
+                                           (true, false, true, true, false,
+                                           true, true, false)), (String
+                                           ((Ascii (false, false, false,
+                                           false, true, true, true, false)),
+                                           (String ((Ascii (false, false,
+                                           true, false, true, true, true,
+                                           false)), (String ((Ascii (true,
+                                           false, false, true, true, true,
+                                           true, false)),
+                                           EmptyString))))))))))), s), ps))
+                                    | _ ->
+                                      ret (((SA (String ((Ascii (false, true,
+                                        false, false, false, true, true,
+                                        false)), (String ((Ascii (true,
+                                        false, false, false, false, true,
+                                        true, false)), (String ((Ascii
+                                        (false, false, true, false, false,
+                                        true, true, false)),
+                                        EmptyString))))))), s), ps))
+                         else if is (String ((Ascii (true, false, true,
+                                   false, true, true, true, false)), (String
+                                   ((Ascii (false, true, true, true, false,
+                                   true, true, false)), (String ((Ascii
+                                   (true, true, false, false, true, true,
+                                   true, false)), (String ((Ascii (true,
+                                   false, true, false, true, true, true,
+                                   false)), (String ((Ascii (false, true,
+                                   false, false, false, true, true, false)),
+                                   EmptyString))))))))))
+                              then if busy ps (GWaiter w)
+                                   then ret (((SA (String ((Ascii (false,
+                                          true, false, false, false, true,
+                                          true, false)), (String ((Ascii
+                                          (true, false, true, false, true,
+                                          true, true, false)), (String
+                                          ((Ascii (true, true, false, false,
+                                          true, true, true, false)), (String
+                                          ((Ascii (true, false, false, true,
+                                          true, true, true, false)),
+                                          EmptyString))))))))), s), ps)
+                                   else (match s.wpc w with
+                                         | WWait ->
+                                           ret
+                                             (launch strat nconns tgt i
+                                               (GWaiter w) ((MLabel (LLeave
+                                               (w, RTimeout))) :: ((MLabel
+                                               (LUnsub w)) :: [])) KDone (SA
+                                               (String ((Ascii (false, true,
+                                               false, false, false, true,
+                                               true, false)), (String ((Ascii
+                                               (false, false, true, true,
+                                               false, true, true, false)),
+                                               (String ((Ascii (true, true,
+                                               true, true, false, true, true,
+                                               false)), (String ((Ascii
+                                               (true, true, false, false,
+                                               false, true, true, false)),
+                                               (String ((Ascii (true, true,
+                                               false, true, false, true,
+                                               true, false)), (String ((Ascii
+                                               (true, false, true, false,
+                                               false, true, true, false)),
+                                               (String ((Ascii (false, false,
+                                               true, false, false, true,
+                                               true, false)),
+                                               EmptyString))))))))))))))) s
+                                               ps)
+                                         | WUnsub _ ->
+                                           ret
+                                             (launch strat nconns tgt i
+                                               (GWaiter w) ((MLabel (LUnsub
+                                               w)) :: []) KDone (SA (String
+                                               ((Ascii (false, true, false,
+                                               false, false, true, true,
+                                               false)), (String ((Ascii
+                                               (false, false, true, true,
+                                               false, true, true, false)),
+                                               (String ((Ascii (true, true,
+                                               true, true, false, true, true,
+                                               false)), (String ((Ascii
+                                               (true, true, false, false,
+                                               false, true, true, false)),
+                                               (String ((Ascii (true, true,
+                                               false, true, false, true,
+                                               true, false)), (String ((Ascii
+                                               (true, false, true, false,
+                                               false, true, true, false)),
+                                               (String ((Ascii (false, false,
+                                               true, false, false, true,
+                                               true, false)),
+                                               EmptyString))))))))))))))) s
+                                               ps)
+                                         | _ ->
+                                           ret (((SA (String ((Ascii (false,
+                                             true, false, false, false, true,
+                                             true, false)), (String ((Ascii
+                                             (true, false, false, false,
+                                             false, true, true, false)),
+                                             (String ((Ascii (false, false,
+                                             true, false, false, true, true,
+                                             false)), EmptyString))))))), s),
+                                             ps))
+                              else ret
+                                     (((sx_err (String ((Ascii (true, true,
+                                         true, true, false, true, true,
+                                         false)), (String ((Ascii (false,
+                                         false, false, false, true, true,
+                                         true, false)), (String ((Ascii
+                                         (true, false, false, false, true,
+                                         true, false, false)),
+                                         EmptyString))))))), s), ps)
+                  | s2 :: l1 ->
+                    (match s2 with
+                     | SN h ->
+                       (match l1 with
+                        | [] ->
+                          let c = small a1 in
+                          if is (String ((Ascii (true, true, false, false,
+                               true, true, true, false)), (String ((Ascii
+                               (true, false, true, false, false, true, true,
+                               false)), (String ((Ascii (false, false, true,
+                               false, true, true, true, false)), (String
+                               ((Ascii (false, false, false, true, false,
+                               true, true, false)), (String ((Ascii (true,
+                               false, true, false, false, true, true,
+                               false)), (String ((Ascii (true, false, false,
+                               false, false, true, true, false)), (String
+                               ((Ascii (false, false, true, false, false,
+                               true, true, false)), EmptyString))))))))))))))
+                          then if busy ps (GConn c)
+                               then ret (((SA (String ((Ascii (false, true,
+                                      false, false, false, true, true,
+                                      false)), (String ((Ascii (true, false,
+                                      true, false, true, true, true, false)),
+                                      (String ((Ascii (true, true, false,
+                                      false, true, true, true, false)),
+                                      (String ((Ascii (true, false, false,
+                                      true, true, true, true, false)),
+                                      EmptyString))))))))), s), ps)
+                               else ret
+                                      (launch strat nconns tgt i (GConn c)
+                                        ((MLabel (LSetHead (c,
+                                        h))) :: ((MPublish (c, h)) :: []))
+                                        KDone (SA (String ((Ascii (false,
+                                        true, false, false, false, true,
+                                        true, false)), (String ((Ascii
+                                        (false, false, true, true, false,
+                                        true, true, false)), (String ((Ascii
+                                        (true, true, true, true, false, true,
+                                        true, false)), (String ((Ascii (true,
+                                        true, false, false, false, true,
+                                        true, false)), (String ((Ascii (true,
+                                        true, false, true, false, true, true,
+                                        false)), (String ((Ascii (true,
+                                        false, true, false, false, true,
+                                        true, false)), (String ((Ascii
+                                        (false, false, true, false, false,
+                                        true, true, false)),
+                                        EmptyString))))))))))))))) s ps)
+                          else ret
+                                 (((sx_err (String ((Ascii (true, true, true,
+                                     true, false, true, true, false)),
+                                     (String ((Ascii (false, false, false,
+                                     false, true, true, true, false)),
+                                     (String ((Ascii (false, true, false,
+                                     false, true, true, false, false)),
+                                     EmptyString))))))), s), ps)
+                        | _ :: _ ->
+                          ret
+                            (((sx_err (String ((Ascii (true, true, true,
+                                true, false, true, true, false)), (String
+                                ((Ascii (false, false, false, false, true,
+                                true, true, false)), (String ((Ascii (false,
+                                false, false, false, false, true, false,
+                                false)), (String ((Ascii (true, false, false,
+                                false, false, true, true, false)), (String
+                                ((Ascii (false, true, false, false, true,
+                                true, true, false)), (String ((Ascii (true,
+                                true, true, false, false, true, true,
+                                false)), (String ((Ascii (true, true, false,
+                                false, true, true, true, false)),
+                                EmptyString))))))))))))))), s), ps))
+                     | SB al ->
+                       (match l1 with
+                        | [] ->
+                          ret
+                            (((sx_err (String ((Ascii (true, true, true,
+                                true, false, true, true, false)), (String
+                                ((Ascii (false, false, false, false, true,
+                                true, true, false)), (String ((Ascii (false,
+                                false, false, false, false, true, false,
+                                false)), (String ((Ascii (true, false, false,
+                                false, false, true, true, false)), (String
+                                ((Ascii (false, true, false, false, true,
+                                true, true, false)), (String ((Ascii (true,
+                                true, true, false, false, true, true,
+                                false)), (String ((Ascii (true, true, false,
+                                false, true, true, true, false)),
+                                EmptyString))))))))))))))), s), ps)
+                        | s3 :: l2 ->
+                          (match s3 with
+                           | SZ r ->
+                             (match l2 with
+                              | [] ->
+                                if is (String ((Ascii (true, true, false,
+                                     false, false, true, true, false)),
+                                     (String ((Ascii (true, true, true, true,
+                                     false, true, true, false)), (String
+                                     ((Ascii (false, true, true, true, false,
+                                     true, true, false)), (String ((Ascii
+                                     (false, true, true, true, false, true,
+                                     true, false)), EmptyString))))))))
+                                then ((((SA (String ((Ascii (false, false,
+                                       true, false, false, true, true,
+                                       false)), (String ((Ascii (true, true,
+                                       true, true, false, true, true,
+                                       false)), (String ((Ascii (false, true,
+                                       true, true, false, true, true,
+                                       false)), (String ((Ascii (true, false,
+                                       true, false, false, true, true,
+                                       false)), EmptyString))))))))),
+                                       (set_nth_obs (small a1) (al, r) obs)),
+                                       s), ps)
+                                else ret
+                                       (((sx_err (String ((Ascii (true, true,
+                                           true, true, false, true, true,
+                                           false)), (String ((Ascii (false,
+                                           false, false, false, true, true,
+                                           true, false)), (String ((Ascii
+                                           (true, true, false, false, true,
+                                           true, false, false)),
+                                           EmptyString))))))), s), ps)
+                              | _ :: _ ->
+                                ret
+                                  (((sx_err (String ((Ascii (true, true,
+                                      true, true, false, true, true, false)),
+                                      (String ((Ascii (false, false, false,
+                                      false, true, true, true, false)),
+                                      (String ((Ascii (false, false, false,
+                                      false, false, true, false, false)),
+                                      (String ((Ascii (true, false, false,
+                                      false, false, true, true, false)),
+                                      (String ((Ascii (false, true, false,
+                                      false, true, true, true, false)),
+                                      (String ((Ascii (true, true, true,
+                                      false, false, true, true, false)),
+                                      (String ((Ascii (true, true, false,
+                                      false, true, true, true, false)),
+                                      EmptyString))))))))))))))), s), ps))
+                           | _ ->
+                             ret
+                               (((sx_err (String ((Ascii (true, true, true,
+                                   true, false, true, true, false)), (String
+                                   ((Ascii (false, false, false, false, true,
+                                   true, true, false)), (String ((Ascii
+                                   (false, false, false, false, false, true,
+                                   false, false)), (String ((Ascii (true,
+                                   false, false, false, false, true, true,
+                                   false)), (String ((Ascii (false, true,
+                                   false, false, true, true, true, false)),
+                                   (String ((Ascii (true, true, true, false,
+                                   false, true, true, false)), (String
+                                   ((Ascii (true, true, false, false, true,
+                                   true, true, false)),
+                                   EmptyString))))))))))))))), s), ps)))
+                     | _ ->
+                       ret
+                         (((sx_err (String ((Ascii (true, true, true, true,
+                             false, true, true, false)), (String ((Ascii
+                             (false, false, false, false, true, true, true,
+                             false)), (String ((Ascii (false, false, false,
+                             false, false, true, false, false)), (String
+                             ((Ascii (true, false, false, false, false, true,
+                             true, false)), (String ((Ascii (false, true,
+                             false, false, true, true, true, false)), (String
+                             ((Ascii (true, true, true, false, false, true,
+                             true, false)), (String ((Ascii (true, true,
+                             false, false, true, true, true, false)),
+                             EmptyString))))))))))))))), s), ps)))
+               | _ ->
+                 ret
+                   (((sx_err (String ((Ascii (true, true, true, true, false,
+                       true, true, false)), (String ((Ascii (false, false,
+                       false, false, true, true, true, false)), (String
+                       ((Ascii (false, false, false, false, false, true,
+                       false, false)), (String ((Ascii (true, false, false,
+                       false, false, true, true, false)), (String ((Ascii
+                       (false, true, false, false, true, true, true, false)),
+                       (String ((Ascii (true, true, true, false, false, true,
+                       true, false)), (String ((Ascii (true, true, false,
+                       false, true, true, true, false)),
+                       EmptyString))))))))))))))), s), ps)))
+         | _ ->
+           ret
+             (((sx_err (String ((Ascii (true, true, true, true, false, true,
+                 true, false)), (String ((Ascii (false, false, false, false,
+                 true, true, true, false)), EmptyString))))), s), ps)))
+   | _ ->
+     ret
+       (((sx_err (String ((Ascii (true, true, true, true, false, true, true,
+           false)), (String ((Ascii (false, false, false, false, true, true,
+           true, false)), EmptyString))))), s), ps))
+
+(** val op_index : sx -> nat **)
+
+let op_index = function
+| SL l ->
+  (match l with
+   | [] -> O
+   | s :: _ ->
+     (match s with
+      | SN i ->
+        N.to_nat
+          (N.min i (Npos (XO (XO (XO (XO (XO (XI (XO (XI (XO (XI (XI (XO (XO
+            (XO (XO (XI XH))))))))))))))))))
+      | _ -> O))
+| _ -> O
+
+(** val ins_by_index : sx -> sx list -> sx list **)
+
+let rec ins_by_index x l = match l with
+| [] -> x :: []
+| y :: t ->
+  if Nat.leb (op_index x) (op_index y)
+  then x :: l
+  else y :: (ins_by_index x t)
+
+(** val sort_by_index : sx list -> sx list **)
+
+let sort_by_index l =
+  fold_right ins_by_index [] l
+
+(** val run_ops1 :
+    strategy -> nat -> (nat -> n) -> nat -> nat -> sx list -> (bool * z) list
+    -> state -> pend_op list -> sx list **)
+
+let rec run_ops1 strat nconns tgt i nw ops obs s ps =
+  match ops with
+  | [] -> []
+  | o :: t ->
+    let (p, ps1) = do_op strat nconns tgt i nw o obs s ps in
+    let (p0, s1) = p in
+    let (r, obs1) = p0 in
+    let (p1, outs) = settle strat nconns tgt (S (S (length ps1))) s1 ps1 in
+    let (s2, ps2) = p1 in
+    (SL (r :: ((SL
+    (sort_by_index outs)) :: []))) :: (run_ops1 strat nconns tgt (S i) nw t
+                                        obs1 s2 ps2)
+
+(** val try_step :
+    strategy -> nat -> (nat -> n) -> state -> label -> state **)
+
+let try_step strat nconns tgt s l =
+  match step0 strat nconns tgt s l with
+  | Some s' -> s'
+  | None -> s
+
+(** val deliver :
+    strategy -> nat -> (nat -> n) -> state -> nat -> n -> state **)
+
+let deliver strat nconns tgt s c h =
+  let s1 = try_step strat nconns tgt s (LSetHead (c, h)) in
+  let s2 = try_step strat nconns tgt s1 (LPublish O) in
+  let s3 = try_step strat nconns tgt s2 LTake in
+  let s4 = try_step strat nconns tgt s3 (LRLock (map snd s3.wl)) in
+  let s5 = fst (send_all strat nconns tgt (S (S (S (S O)))) s4) in
+  let s6 = try_step strat nconns tgt s5 LRUnlock in
+  try_step strat nconns tgt s6 (LRecv O)
+
+(** val wait_scenario :
+    strategy -> nat -> (nat -> n) -> state -> (nat * n) list -> wres -> sx **)
+
+let wait_scenario strat nconns tgt s0 heads fin =
+  let s1 =
+    try_step strat nconns tgt (try_step strat nconns tgt s0 (LSubLock O))
+      (LSubBody O)
+  in
+  let s2 = try_step strat nconns tgt s1 (LRecv O) in
+  let s3 =
+    fold_left (fun s ch0 -> deliver strat nconns tgt s (fst ch0) (snd ch0))
+      heads s2
+  in
+  let s4 =
+    try_step strat nconns tgt
+      (try_step strat nconns tgt s3 (LLeave (O, fin))) (LUnsub O)
+  in
+  (match s4.wpc O with
+   | WDone r ->
+     (match r with
+      | ROk ->
+        SA (String ((Ascii (false, true, true, true, false, true, true,
+          false)), (String ((Ascii (true, false, false, true, false, true,
+          true, false)), (String ((Ascii (false, false, true, true, false,
+          true, true, false)), EmptyString))))))
+      | RTimeout ->
+        SA (String ((Ascii (false, false, true, false, true, true, true,
+          false)), (String ((Ascii (true, false, false, true, false, true,
+          true, false)), (String ((Ascii (true, false, true, true, false,
+          true, true, false)), (String ((Ascii (true, false, true, false,
+          false, true, true, false)), (String ((Ascii (true, true, true,
+          true, false, true, true, false)), (String ((Ascii (true, false,
+          true, false, true, true, true, false)), (String ((Ascii (false,
+          false, true, false, true, true, true, false)),
+          EmptyString))))))))))))))
+      | RCancel ->
+        SA (String ((Ascii (true, true, false, false, false, true, true,
+          false)), (String ((Ascii (true, false, false, false, false, true,
+          true, false)), (String ((Ascii (false, true, true, true, false,
+          true, true, false)), (String ((Ascii (true, true, false, false,
+          false, true, true, false)), (String ((Ascii (true, false, true,
+          false, false, true, true, false)), (String ((Ascii (false, false,
+          true, true, false, true, true, false)), EmptyString)))))))))))))
+   | _ ->
+     sx_err (String ((Ascii (true, true, true, false, true, true, true,
+       false)), (String ((Ascii (true, false, false, false, false, true,
+       true, false)), (String ((Ascii (true, false, false, true, false, true,
+       true, false)), (String ((Ascii (false, false, true, false, true, true,
+       true, false)), EmptyString)))))))))
+
+(** val nth_tgt : sx list -> nat -> n **)
+
+let rec nth_tgt l w =
+  match l with
+  | [] -> N0
+  | s :: r ->
+    (match s with
+     | SN t -> (match w with
+                | O -> t
+                | S k0 -> nth_tgt r k0)
+     | _ -> (match w with
+             | O -> N0
+             | S k0 -> nth_tgt r k0))
+
+(** val run_walk : sx -> sx **)
+
+let run_walk = function
+| SL l ->
+  (match l with
+   | [] ->
+     sx_err (String ((Ascii (true, true, true, false, true, true, true,
+       false)), (String ((Ascii (true, false, false, false, false, true,
+       true, false)), (String ((Ascii (false, false, true, true, false, true,
+       true, false)), (String ((Ascii (true, true, false, true, false, true,
+       true, false)), EmptyString))))))))
+   | s :: l0 ->
+     (match s with
+      | SN st ->
+        (match l0 with
+         | [] ->
+           sx_err (String ((Ascii (true, true, true, false, true, true, true,
+             false)), (String ((Ascii (true, false, false, false, false,
+             true, true, false)), (String ((Ascii (false, false, true, true,
+             false, true, true, false)), (String ((Ascii (true, true, false,
+             true, false, true, true, false)), EmptyString))))))))
+         | s0 :: l1 ->
+           (match s0 with
+            | SN nc ->
+              (match l1 with
+               | [] ->
+                 sx_err (String ((Ascii (true, true, true, false, true, true,
+                   true, false)), (String ((Ascii (true, false, false, false,
+                   false, true, true, false)), (String ((Ascii (false, false,
+                   true, true, false, true, true, false)), (String ((Ascii
+                   (true, true, false, true, false, true, true, false)),
+                   EmptyString))))))))
+               | s1 :: l2 ->
+                 (match s1 with
+                  | SL tgts ->
+                    (match l2 with
+                     | [] ->
+                       sx_err (String ((Ascii (true, true, true, false, true,
+                         true, true, false)), (String ((Ascii (true, false,
+                         false, false, false, true, true, false)), (String
+                         ((Ascii (false, false, true, true, false, true,
+                         true, false)), (String ((Ascii (true, true, false,
+                         true, false, true, true, false)), EmptyString))))))))
+                     | s2 :: l3 ->
+                       (match s2 with
+                        | SL ops ->
+                          (match l3 with
+                           | [] ->
+                             let nconns = small nc in
+                             SL
+                             (run_ops1 (strat_of st) nconns (nth_tgt tgts) O
+                               (length tgts) ops []
+                               (init_state (fun _ -> N0)
+                                 (if Nat.eqb nconns O then None else Some O))
+                               [])
+                           | _ :: _ ->
+                             sx_err (String ((Ascii (true, true, true, false,
+                               true, true, true, false)), (String ((Ascii
+                               (true, false, false, false, false, true, true,
+                               false)), (String ((Ascii (false, false, true,
+                               true, false, true, true, false)), (String
+                               ((Ascii (true, true, false, true, false, true,
+                               true, false)), EmptyString)))))))))
+                        | _ ->
+                          sx_err (String ((Ascii (true, true, true, false,
+                            true, true, true, false)), (String ((Ascii (true,
+                            false, false, false, false, true, true, false)),
+                            (String ((Ascii (false, false, true, true, false,
+                            true, true, false)), (String ((Ascii (true, true,
+                            false, true, false, true, true, false)),
+                            EmptyString))))))))))
+                  | _ ->
+                    sx_err (String ((Ascii (true, true, true, false, true,
+                      true, true, false)), (String ((Ascii (true, false,
+                      false, false, false, true, true, false)), (String
+                      ((Ascii (false, false, true, true, false, true, true,
+                      false)), (String ((Ascii (true, true, false, true,
+                      false, true, true, false)), EmptyString))))))))))
+            | _ ->
+              sx_err (String ((Ascii (true, true, true, false, true, true,
+                true, false)), (String ((Ascii (true, false, false, false,
+                false, true, true, false)), (String ((Ascii (false, false,
+                true, true, false, true, true, false)), (String ((Ascii
+                (true, true, false, true, false, true, true, false)),
+                EmptyString))))))))))
+      | _ ->
+        sx_err (String ((Ascii (true, true, true, false, true, true, true,
+          false)), (String ((Ascii (true, false, false, false, false, true,
+          true, false)), (String ((Ascii (false, false, true, true, false,
+          true, true, false)), (String ((Ascii (true, true, false, true,
+          false, true, true, false)), EmptyString))))))))))
+| _ ->
+  sx_err (String ((Ascii (true, true, true, false, true, true, true, false)),
+    (String ((Ascii (true, false, false, false, false, true, true, false)),
+    (String ((Ascii (false, false, true, true, false, true, true, false)),
+    (String ((Ascii (true, true, false, true, false, true, true, false)),
+    EmptyString))))))))
+
+(** val heads_of : sx list -> (nat * n) list **)
+
+let rec heads_of = function
+| [] -> []
+| s :: t ->
+  (match s with
+   | SL l0 ->
+     (match l0 with
+      | [] -> []
+      | s0 :: l1 ->
+        (match s0 with
+         | SN c ->
+           (match l1 with
+            | [] -> []
+            | s1 :: l2 ->
+              (match s1 with
+               | SN h ->
+                 (match l2 with
+                  | [] -> ((small c), h) :: (heads_of t)
+                  | _ :: _ -> [])
+               | _ -> []))
+         | _ -> []))
+   | _ -> [])
+
+(** val run_wait : sx -> sx **)
+
+let run_wait = function
+| SL l ->
+  (match l with
+   | [] ->
+     sx_err (String ((Ascii (true, true, true, false, true, true, true,
+       false)), (String ((Ascii (true, false, false, false, false, true,
+       true, false)), (String ((Ascii (true, false, false, true, false, true,
+       true, false)), (String ((Ascii (false, false, true, false, true, true,
+       true, false)), (String ((Ascii (false, false, false, false, false,
+       true, false, false)), (String ((Ascii (true, false, false, false,
+       false, true, true, false)), (String ((Ascii (false, true, false,
+       false, true, true, true, false)), (String ((Ascii (true, true, true,
+       false, false, true, true, false)), (String ((Ascii (true, true, false,
+       false, true, true, true, false)), EmptyString))))))))))))))))))
+   | s :: l0 ->
+     (match s with
+      | SN tg ->
+        (match l0 with
+         | [] ->
+           sx_err (String ((Ascii (true, true, true, false, true, true, true,
+             false)), (String ((Ascii (true, false, false, false, false,
+             true, true, false)), (String ((Ascii (true, false, false, true,
+             false, true, true, false)), (String ((Ascii (false, false, true,
+             false, true, true, true, false)), (String ((Ascii (false, false,
+             false, false, false, true, false, false)), (String ((Ascii
+             (true, false, false, false, false, true, true, false)), (String
+             ((Ascii (false, true, false, false, true, true, true, false)),
+             (String ((Ascii (true, true, true, false, false, true, true,
+             false)), (String ((Ascii (true, true, false, false, true, true,
+             true, false)), EmptyString))))))))))))))))))
+         | s0 :: l1 ->
+           (match s0 with
+            | SN h1 ->
+              (match l1 with
+               | [] ->
+                 sx_err (String ((Ascii (true, true, true, false, true, true,
+                   true, false)), (String ((Ascii (true, false, false, false,
+                   false, true, true, false)), (String ((Ascii (true, false,
+                   false, true, false, true, true, false)), (String ((Ascii
+                   (false, false, true, false, true, true, true, false)),
+                   (String ((Ascii (false, false, false, false, false, true,
+                   false, false)), (String ((Ascii (true, false, false,
+                   false, false, true, true, false)), (String ((Ascii (false,
+                   true, false, false, true, true, true, false)), (String
+                   ((Ascii (true, true, true, false, false, true, true,
+                   false)), (String ((Ascii (true, true, false, false, true,
+                   true, true, false)), EmptyString))))))))))))))))))
+               | s1 :: l2 ->
+                 (match s1 with
+                  | SL hs ->
+                    (match l2 with
+                     | [] ->
+                       sx_err (String ((Ascii (true, true, true, false, true,
+                         true, true, false)), (String ((Ascii (true, false,
+                         false, false, false, true, true, false)), (String
+                         ((Ascii (true, false, false, true, false, true,
+                         true, false)), (String ((Ascii (false, false, true,
+                         false, true, true, true, false)), (String ((Ascii
+                         (false, false, false, false, false, true, false,
+                         false)), (String ((Ascii (true, false, false, false,
+                         false, true, true, false)), (String ((Ascii (false,
+                         true, false, false, true, true, true, false)),
+                         (String ((Ascii (true, true, true, false, false,
+                         true, true, false)), (String ((Ascii (true, true,
+                         false, false, true, true, true, false)),
+                         EmptyString))))))))))))))))))
+                     | s2 :: l3 ->
+                       (match s2 with
+                        | SB cancel ->
+                          (match l3 with
+                           | [] ->
+                             wait_scenario BestPing (S (S O)) (fun _ -> tg)
+                               (init_state (fun c ->
+                                 if Nat.eqb c O then h1 else N0) (Some O))
+                               (heads_of hs)
+                               (if cancel then RCancel else RTimeout)
+                           | _ :: _ ->
+                             sx_err (String ((Ascii (true, true, true, false,
+                               true, true, true, false)), (String ((Ascii
+                               (true, false, false, false, false, true, true,
+                               false)), (String ((Ascii (true, false, false,
+                               true, false, true, true, false)), (String
+                               ((Ascii (false, false, true, false, true,
+                               true, true, false)), (String ((Ascii (false,
+                               false, false, false, false, true, false,
+                               false)), (String ((Ascii (true, false, false,
+                               false, false, true, true, false)), (String
+                               ((Ascii (false, true, false, false, true,
+                               true, true, false)), (String ((Ascii (true,
+                               true, true, false, false, true, true, false)),
+                               (String ((Ascii (true, true, false, false,
+                               true, true, true, false)),
+                               EmptyString)))))))))))))))))))
+                        | _ ->
+                          sx_err (String ((Ascii (true, true, true, false,
+                            true, true, true, false)), (String ((Ascii (true,
+                            false, false, false, false, true, true, false)),
+                            (String ((Ascii (true, false, false, true, false,
+                            true, true, false)), (String ((Ascii (false,
+                            false, true, false, true, true, true, false)),
+                            (String ((Ascii (false, false, false, false,
+                            false, true, false, false)), (String ((Ascii
+                            (true, false, false, false, false, true, true,
+                            false)), (String ((Ascii (false, true, false,
+                            false, true, true, true, false)), (String ((Ascii
+                            (true, true, true, false, false, true, true,
+                            false)), (String ((Ascii (true, true, false,
+                            false, true, true, true, false)),
+                            EmptyString))))))))))))))))))))
+                  | _ ->
+                    sx_err (String ((Ascii (true, true, true, false, true,
+                      true, true, false)), (String ((Ascii (true, false,
+                      false, false, false, true, true, false)), (String
+                      ((Ascii (true, false, false, true, false, true, true,
+                      false)), (String ((Ascii (false, false, true, false,
+                      true, true, true, false)), (String ((Ascii (false,
+                      false, false, false, false, true, false, false)),
+                      (String ((Ascii (true, false, false, false, false,
+                      true, true, false)), (String ((Ascii (false, true,
+                      false, false, true, true, true, false)), (String
+                      ((Ascii (true, true, true, false, false, true, true,
+                      false)), (String ((Ascii (true, true, false, false,
+                      true, true, true, false)), EmptyString))))))))))))))))))))
+            | _ ->
+              sx_err (String ((Ascii (true, true, true, false, true, true,
+                true, false)), (String ((Ascii (true, false, false, false,
+                false, true, true, false)), (String ((Ascii (true, false,
+                false, true, false, true, true, false)), (String ((Ascii
+                (false, false, true, false, true, true, true, false)),
+                (String ((Ascii (false, false, false, false, false, true,
+                false, false)), (String ((Ascii (true, false, false, false,
+                false, true, true, false)), (String ((Ascii (false, true,
+                false, false, true, true, true, false)), (String ((Ascii
+                (true, true, true, false, false, true, true, false)), (String
+                ((Ascii (true, true, false, false, true, true, true, false)),
+                EmptyString))))))))))))))))))))
+      | _ ->
+        sx_err (String ((Ascii (true, true, true, false, true, true, true,
+          false)), (String ((Ascii (true, false, false, false, false, true,
+          true, false)), (String ((Ascii (true, false, false, true, false,
+          true, true, false)), (String ((Ascii (false, false, true, false,
+          true, true, true, false)), (String ((Ascii (false, false, false,
+          false, false, true, false, false)), (String ((Ascii (true, false,
+          false, false, false, true, true, false)), (String ((Ascii (false,
+          true, false, false, true, true, true, false)), (String ((Ascii
+          (true, true, true, false, false, true, true, false)), (String
+          ((Ascii (true, true, false, false, true, true, true, false)),
+          EmptyString))))))))))))))))))))
+| _ ->
+  sx_err (String ((Ascii (true, true, true, false, true, true, true, false)),
+    (String ((Ascii (true, false, false, false, false, true, true, false)),
+    (String ((Ascii (true, false, false, true, false, true, true, false)),
+    (String ((Ascii (false, false, true, false, true, true, true, false)),
+    (String ((Ascii (false, false, false, false, false, true, false, false)),
+    (String ((Ascii (true, false, false, false, false, true, true, false)),
+    (String ((Ascii (false, true, false, false, true, true, true, false)),
+    (String ((Ascii (true, true, true, false, false, true, true, false)),
+    (String ((Ascii (true, true, false, false, true, true, true, false)),
+    EmptyString))))))))))))))))))
+
+(** val run_repro : sx -> sx **)
+
+let run_repro _ =
+  SA (String ((Ascii (true, true, true, true, false, true, true, false)),
+    (String ((Ascii (true, true, false, true, false, true, true, false)),
+    EmptyString))))
+
+type bytes0 = n list
+
+(** val pEdKeyLen : n **)
+
+let pEdKeyLen =
+  Npos (XI (XO XH))
+
+(** val beqb : bytes0 -> bytes0 -> bool **)
+
+let rec beqb a b =
+  match a with
+  | [] -> (match b with
+           | [] -> true
+           | _ :: _ -> false)
+  | x :: a' ->
+    (match b with
+     | [] -> false
+     | y :: b' -> (&&) (N.eqb x y) (beqb a' b'))
+
+(** val bytes_of_string : string -> bytes0 **)
+
+let rec bytes_of_string = function
+| EmptyString -> []
+| String (c, t) -> (n_of_ascii c) :: (bytes_of_string t)
+
+(** val blen : bytes0 -> z **)
+
+let blen b =
+  Z.of_nat (length b)
+
+(** val byte_at : z -> z -> n **)
+
+let byte_at u k0 =
+  Z.to_N
+    (Z.modulo
+      (Z.div u (Z.pow (Zpos (XO XH)) (Z.mul (Zpos (XO (XO (XO XH)))) k0)))
+      (Zpos (XO (XO (XO (XO (XO (XO (XO (XO XH))))))))))
+
+(** val be32 : z -> bytes0 **)
+
+let be32 z0 =
+  let u =
+    Z.modulo z0 (Z.pow (Zpos (XO XH)) (Zpos (XO (XO (XO (XO (XO XH)))))))
+  in
+  (byte_at u (Zpos (XI XH))) :: ((byte_at u (Zpos (XO XH))) :: ((byte_at u
+                                                                  (Zpos XH)) :: (
+  (byte_at u Z0) :: [])))
+
+(** val le0 : z -> bytes0 **)
+
+let le0 z0 =
+  let u =
+    Z.modulo z0 (Z.pow (Zpos (XO XH)) (Zpos (XO (XO (XO (XO (XO XH)))))))
+  in
+  (byte_at u Z0) :: ((byte_at u (Zpos XH)) :: ((byte_at u (Zpos (XO XH))) :: (
+  (byte_at u (Zpos (XI XH))) :: [])))
+
+(** val le64 : z -> bytes0 **)
+
+let le64 z0 =
+  let u =
+    Z.modulo z0 (Z.pow (Zpos (XO XH)) (Zpos (XO (XO (XO (XO (XO (XO XH))))))))
+  in
+  (byte_at u Z0) :: ((byte_at u (Zpos XH)) :: ((byte_at u (Zpos (XO XH))) :: (
+  (byte_at u (Zpos (XI XH))) :: ((byte_at u (Zpos (XO (XO XH)))) :: (
+  (byte_at u (Zpos (XI (XO XH)))) :: ((byte_at u (Zpos (XO (XI XH)))) :: (
+  (byte_at u (Zpos (XI (XI XH)))) :: [])))))))
+
+(** val be64 : z -> bytes0 **)
+
+let be64 z0 =
+  rev (le64 z0)
+
+(** val be_val : bytes0 -> z **)
+
+let be_val b =
+  fold_left (fun a x ->
+    Z.add (Z.mul a (Zpos (XO (XO (XO (XO (XO (XO (XO (XO XH))))))))))
+      (Z.of_N x)) b Z0
+
+(** val to_int64 : z -> z **)
+
+let to_int64 u =
+  if Z.ltb u (Z.pow (Zpos (XO XH)) (Zpos (XI (XI (XI (XI (XI XH)))))))
+  then u
+  else Z.sub u (Z.pow (Zpos (XO XH)) (Zpos (XO (XO (XO (XO (XO (XO XH))))))))
+
+(** val be_min_fuel : nat -> n -> bytes0 -> bytes0 **)
+
+let rec be_min_fuel fuel n0 acc =
+  match fuel with
+  | O -> acc
+  | S f ->
+    if N.eqb n0 N0
+    then acc
+    else be_min_fuel f
+           (N.div n0 (Npos (XO (XO (XO (XO (XO (XO (XO (XO XH))))))))))
+           ((N.modulo n0 (Npos (XO (XO (XO (XO (XO (XO (XO (XO XH)))))))))) :: acc)
+
+(** val be_min : n -> bytes0 **)
+
+let be_min n0 =
+  be_min_fuel (S (N.to_nat (N.size n0))) n0 []
+
+(** val nib : n -> n option **)
+
+let nib c =
+  if (&&) (N.leb (Npos (XO (XO (XO (XO (XI XH)))))) c)
+       (N.leb c (Npos (XI (XO (XO (XI (XI XH)))))))
+  then Some (N.sub c (Npos (XO (XO (XO (XO (XI XH)))))))
+  else if (&&) (N.leb (Npos (XI (XO (XO (XO (XO (XI XH))))))) c)
+            (N.leb c (Npos (XO (XI (XI (XO (XO (XI XH))))))))
+       then Some (N.sub c (Npos (XI (XI (XI (XO (XI (XO XH))))))))
+       else if (&&) (N.leb (Npos (XI (XO (XO (XO (XO (XO XH))))))) c)
+                 (N.leb c (Npos (XO (XI (XI (XO (XO (XO XH))))))))
+            then Some (N.sub c (Npos (XI (XI (XI (XO (XI XH)))))))
+            else None
+
+(** val hex_decode : bytes0 -> bytes0 option **)
+
+let rec hex_decode = function
+| [] -> Some []
+| a :: l0 ->
+  (match l0 with
+   | [] -> None
+   | b :: t ->
+     (match nib a with
+      | Some x ->
+        (match nib b with
+         | Some y ->
+           (match hex_decode t with
+            | Some r ->
+              Some ((N.add (N.mul (Npos (XO (XO (XO (XO XH))))) x) y) :: r)
+            | None -> None)
+         | None -> None)
+      | None -> None))
+
+(** val hexdigit : n -> n **)
+
+let hexdigit n0 =
+  if N.ltb n0 (Npos (XO (XI (XO XH))))
+  then N.add (Npos (XO (XO (XO (XO (XI XH)))))) n0
+  else N.add (Npos (XI (XI (XI (XO (XI (XO XH))))))) n0
+
+(** val hex_encode : bytes0 -> bytes0 **)
+
+let rec hex_encode = function
+| [] -> []
+| x :: t ->
+  (hexdigit (N.div x (Npos (XO (XO (XO (XO XH))))))) :: ((hexdigit
+                                                           (N.modulo x (Npos
+                                                             (XO (XO (XO (XO
+                                                             XH))))))) :: 
+    (hex_encode t))
+
+(** val digit : n -> z option **)
+
+let digit c =
+  if (&&) (N.leb (Npos (XO (XO (XO (XO (XI XH)))))) c)
+       (N.leb c (Npos (XI (XO (XO (XI (XI XH)))))))
+  then Some (Z.sub (Z.of_N c) (Zpos (XO (XO (XO (XO (XI XH)))))))
+  else None
+
+(** val digits_val : z -> bytes0 -> z option **)
+
+let rec digits_val acc = function
+| [] -> Some acc
+| c :: t ->
+  (match digit c with
+   | Some d -> digits_val (Z.add (Z.mul acc (Zpos (XO (XI (XO XH))))) d) t
+   | None -> None)
+
+(** val parse_int32 : bytes0 -> z option **)
+
+let parse_int32 s = match s with
+| [] ->
+  let neg = false in
+  (match s with
+   | [] -> None
+   | _ :: _ ->
+     (match digits_val Z0 s with
+      | Some n0 ->
+        if neg
+        then if Z.leb n0 (Z.pow (Zpos (XO XH)) (Zpos (XI (XI (XI (XI XH))))))
+             then Some (Z.opp n0)
+             else None
+        else if Z.ltb n0 (Z.pow (Zpos (XO XH)) (Zpos (XI (XI (XI (XI XH))))))
+             then Some n0
+             else None
+      | None -> None))
+| n0 :: t ->
+  (match n0 with
+   | N0 ->
+     let neg = false in
+     (match s with
+      | [] -> None
+      | _ :: _ ->
+        (match digits_val Z0 s with
+         | Some n1 ->
+           if neg
+           then if Z.leb n1
+                     (Z.pow (Zpos (XO XH)) (Zpos (XI (XI (XI (XI XH))))))
+                then Some (Z.opp n1)
+                else None
+           else if Z.ltb n1
+                     (Z.pow (Zpos (XO XH)) (Zpos (XI (XI (XI (XI XH))))))
+                then Some n1
+                else None
+         | None -> None))
+   | Npos p ->
+     (match p with
+      | XI p0 ->
+        (match p0 with
+         | XI p1 ->
+           (match p1 with
+            | XO p2 ->
+              (match p2 with
+               | XI p3 ->
+                 (match p3 with
+                  | XO p4 ->
+                    (match p4 with
+                     | XH ->
+                       let neg = false in
+                       (match t with
+                        | [] -> None
+                        | _ :: _ ->
+                          (match digits_val Z0 t with
+                           | Some n1 ->
+                             if neg
+                             then if Z.leb n1
+                                       (Z.pow (Zpos (XO XH)) (Zpos (XI (XI
+                                         (XI (XI XH))))))
+                                  then Some (Z.opp n1)
+                                  else None
+                             else if Z.ltb n1
+                                       (Z.pow (Zpos (XO XH)) (Zpos (XI (XI
+                                         (XI (XI XH))))))
+                                  then Some n1
+                                  else None
+                           | None -> None))
+                     | _ ->
+                       let neg = false in
+                       (match s with
+                        | [] -> None
+                        | _ :: _ ->
+                          (match digits_val Z0 s with
+                           | Some n1 ->
+                             if neg
+                             then if Z.leb n1
+                                       (Z.pow (Zpos (XO XH)) (Zpos (XI (XI
+                                         (XI (XI XH))))))
+                                  then Some (Z.opp n1)
+                                  else None
+                             else if Z.ltb n1
+                                       (Z.pow (Zpos (XO XH)) (Zpos (XI (XI
+                                         (XI (XI XH))))))
+                                  then Some n1
+                                  else None
+                           | None -> None)))
+                  | _ ->
+                    let neg = false in
+                    (match s with
+                     | [] -> None
+                     | _ :: _ ->
+                       (match digits_val Z0 s with
+                        | Some n1 ->
+                          if neg
+                          then if Z.leb n1
+                                    (Z.pow (Zpos (XO XH)) (Zpos (XI (XI (XI
+                                      (XI XH))))))
+                               then Some (Z.opp n1)
+                               else None
+                          else if Z.ltb n1
+                                    (Z.pow (Zpos (XO XH)) (Zpos (XI (XI (XI
+                                      (XI XH))))))
+                               then Some n1
+                               else None
+                        | None -> None)))
+               | _ ->
+                 let neg = false in
+                 (match s with
+                  | [] -> None
+                  | _ :: _ ->
+                    (match digits_val Z0 s with
+                     | Some n1 ->
+                       if neg
+                       then if Z.leb n1
+                                 (Z.pow (Zpos (XO XH)) (Zpos (XI (XI (XI (XI
+                                   XH))))))
+                            then Some (Z.opp n1)
+                            else None
+                       else if Z.ltb n1
+                                 (Z.pow (Zpos (XO XH)) (Zpos (XI (XI (XI (XI
+                                   XH))))))
+                            then Some n1
+                            else None
+                     | None -> None)))
+            | _ ->
+              let neg = false in
+              (match s with
+               | [] -> None
+               | _ :: _ ->
+                 (match digits_val Z0 s with
+                  | Some n1 ->
+                    if neg
+                    then if Z.leb n1
+                              (Z.pow (Zpos (XO XH)) (Zpos (XI (XI (XI (XI
+                                XH))))))
+                         then Some (Z.opp n1)
+                         else None
+                    else if Z.ltb n1
+                              (Z.pow (Zpos (XO XH)) (Zpos (XI (XI (XI (XI
+                                XH))))))
+                         then Some n1
+                         else None
+                  | None -> None)))
+         | XO p1 ->
+           (match p1 with
+            | XI p2 ->
+              (match p2 with
+               | XI p3 ->
+                 (match p3 with
+                  | XO p4 ->
+                    (match p4 with
+                     | XH ->
+                       let neg = true in
+                       (match t with
+                        | [] -> None
+                        | _ :: _ ->
+                          (match digits_val Z0 t with
+                           | Some n1 ->
+                             if neg
+                             then if Z.leb n1
+                                       (Z.pow (Zpos (XO XH)) (Zpos (XI (XI
+                                         (XI (XI XH))))))
+                                  then Some (Z.opp n1)
+                                  else None
+                             else if Z.ltb n1
+                                       (Z.pow (Zpos (XO XH)) (Zpos (XI (XI
+                                         (XI (XI XH))))))
+                                  then Some n1
+                                  else None
+                           | None -> None))
+                     | _ ->
+                       let neg = false in
+                       (match s with
+                        | [] -> None
+                        | _ :: _ ->
+                          (match digits_val Z0 s with
+                           | Some n1 ->
+                             if neg
+                             then if Z.leb n1
+                                       (Z.pow (Zpos (XO XH)) (Zpos (XI (XI
+                                         (XI (XI XH))))))
+                                  then Some (Z.opp n1)
+                                  else None
+                             else if Z.ltb n1
+                                       (Z.pow (Zpos (XO XH)) (Zpos (XI (XI
+                                         (XI (XI XH))))))
+                                  then Some n1
+                                  else None
+                           | None -> None)))
+                  | _ ->
+                    let neg = false in
+                    (match s with
+                     | [] -> None
+                     | _ :: _ ->
+                       (match digits_val Z0 s with
+                        | Some n1 ->
+                          if neg
+                          then if Z.leb n1
+                                    (Z.pow (Zpos (XO XH)) (Zpos (XI (XI (XI
+                                      (XI XH))))))
+                               then Some (Z.opp n1)
+                               else None
+                          else if Z.ltb n1
+                                    (Z.pow (Zpos (XO XH)) (Zpos (XI (XI (XI
+                                      (XI XH))))))
+                               then Some n1
+                               else None
+                        | None -> None)))
+               | _ ->
+                 let neg = false in
+                 (match s with
+                  | [] -> None
+                  | _ :: _ ->
+                    (match digits_val Z0 s with
+                     | Some n1 ->
+                       if neg
+                       then if Z.leb n1
+                                 (Z.pow (Zpos (XO XH)) (Zpos (XI (XI (XI (XI
+                                   XH))))))
+                            then Some (Z.opp n1)
+                            else None
+                       else if Z.ltb n1
+                                 (Z.pow (Zpos (XO XH)) (Zpos (XI (XI (XI (XI
+                                   XH))))))
+                            then Some n1
+                            else None
+                     | None -> None)))
+            | _ ->
+              let neg = false in
+              (match s with
+               | [] -> None
+               | _ :: _ ->
+                 (match digits_val Z0 s with
+                  | Some n1 ->
+                    if neg
+                    then if Z.leb n1
+                              (Z.pow (Zpos (XO XH)) (Zpos (XI (XI (XI (XI
+                                XH))))))
+                         then Some (Z.opp n1)
+                         else None
+                    else if Z.ltb n1
+                              (Z.pow (Zpos (XO XH)) (Zpos (XI (XI (XI (XI
+                                XH))))))
+                         then Some n1
+                         else None
+                  | None -> None)))
+         | XH ->
+           let neg = false in
+           (match s with
+            | [] -> None
+            | _ :: _ ->
+              (match digits_val Z0 s with
+               | Some n1 ->
+                 if neg
+                 then if Z.leb n1
+                           (Z.pow (Zpos (XO XH)) (Zpos (XI (XI (XI (XI
+                             XH))))))
+                      then Some (Z.opp n1)
+                      else None
+                 else if Z.ltb n1
+                           (Z.pow (Zpos (XO XH)) (Zpos (XI (XI (XI (XI
+                             XH))))))
+                      then Some n1
+                      else None
+               | None -> None)))
+      | _ ->
+        let neg = false in
+        (match s with
+         | [] -> None
+         | _ :: _ ->
+           (match digits_val Z0 s with
+            | Some n1 ->
+              if neg
+              then if Z.leb n1
+                        (Z.pow (Zpos (XO XH)) (Zpos (XI (XI (XI (XI XH))))))
+                   then Some (Z.opp n1)
+                   else None
+              else if Z.ltb n1
+                        (Z.pow (Zpos (XO XH)) (Zpos (XI (XI (XI (XI XH))))))
+                   then Some n1
+                   else None
+            | None -> None))))
+
+(** val split_colon : bytes0 -> bytes0 -> bytes0 list **)
+
+let rec split_colon cur = function
+| [] -> (rev cur) :: []
+| c :: t ->
+  if N.eqb c (Npos (XO (XI (XO (XI (XI XH))))))
+  then (rev cur) :: (split_colon [] t)
+  else split_colon (c :: cur) t
+
+type proof = { p_address : bytes0; p_ts : z; p_domain : bytes0;
+               p_signature : bytes0; p_payload : bytes0; p_state_init : 
+               bytes0 }
+
+type parsed0 = { m_wc : z; m_addr : bytes0; m_ts : z; m_domain : bytes0;
+                 m_sig : bytes0; m_payload : bytes0 }
+
+(** val tonProofPrefix : bytes0 **)
+
+let tonProofPrefix =
+  bytes_of_string (String ((Ascii (false, false, true, false, true, true,
+    true, false)), (String ((Ascii (true, true, true, true, false, true,
+    true, false)), (String ((Ascii (false, true, true, true, false, true,
+    true, false)), (String ((Ascii (true, false, true, true, false, true,
+    false, false)), (String ((Ascii (false, false, false, false, true, true,
+    true, false)), (String ((Ascii (false, true, false, false, true, true,
+    true, false)), (String ((Ascii (true, true, true, true, false, true,
+    true, false)), (String ((Ascii (true, true, true, true, false, true,
+    true, false)), (String ((Ascii (false, true, true, false, false, true,
+    true, false)), (String ((Ascii (true, false, true, true, false, true,
+    false, false)), (String ((Ascii (true, false, false, true, false, true,
+    true, false)), (String ((Ascii (false, false, true, false, true, true,
+    true, false)), (String ((Ascii (true, false, true, false, false, true,
+    true, false)), (String ((Ascii (true, false, true, true, false, true,
+    true, false)), (String ((Ascii (true, false, true, true, false, true,
+    false, false)), (String ((Ascii (false, true, true, false, true, true,
+    true, false)), (String ((Ascii (false, true, false, false, true, true,
+    false, false)), (String ((Ascii (true, true, true, true, false, true,
+    false, false)), EmptyString))))))))))))))))))))))))))))))))))))
+
+(** val tonConnectPrefix : bytes0 **)
+
+let tonConnectPrefix =
+  bytes_of_string (String ((Ascii (false, false, true, false, true, true,
+    true, false)), (String ((Ascii (true, true, true, true, false, true,
+    true, false)), (String ((Ascii (false, true, true, true, false, true,
+    true, false)), (String ((Ascii (true, false, true, true, false, true,
+    false, false)), (String ((Ascii (true, true, false, false, false, true,
+    true, false)), (String ((Ascii (true, true, true, true, false, true,
+    true, false)), (String ((Ascii (false, true, true, true, false, true,
+    true, false)), (String ((Ascii (false, true, true, true, false, true,
+    true, false)), (String ((Ascii (true, false, true, false, false, true,
+    true, false)), (String ((Ascii (true, true, false, false, false, true,
+    true, false)), (String ((Ascii (false, false, true, false, true, true,
+    true, false)), EmptyString))))))))))))))))))))))
+
+(** val defaultLifeTimeProof : z **)
+
+let defaultLifeTimeProof =
+  Zpos (XO (XO (XI (XI (XO (XI (XO (XO XH))))))))
+
+(** val defaultLifeTimePayload : z **)
+
+let defaultLifeTimePayload =
+  Zpos (XO (XO (XI (XI (XO (XI (XO (XO XH))))))))
+
+(** val lifetime_or_default : z -> z -> z **)
+
+let lifetime_or_default configured dflt =
+  if Z.eqb configured Z0 then dflt else configured
+
+(** val convert : (bytes0 -> bytes0 option) -> proof -> parsed0 res **)
+
+let convert b64 tp =
+  match split_colon [] tp.p_address with
+  | [] -> Err eOther
+  | w :: l ->
+    (match l with
+     | [] -> Err eOther
+     | a :: l0 ->
+       (match l0 with
+        | [] ->
+          (match parse_int32 w with
+           | Some wc ->
+             (match hex_decode a with
+              | Some addr ->
+                (match b64 tp.p_signature with
+                 | Some sig0 ->
+                   Ok { m_wc = wc; m_addr = addr; m_ts = tp.p_ts; m_domain =
+                     tp.p_domain; m_sig = sig0; m_payload = tp.p_payload }
+                 | None -> Err eOther)
+              | None -> Err eInvalidHex)
+           | None -> Err eOther)
+        | _ :: _ -> Err eOther))
+
+(** val index_colon_go : bytes0 -> bytes0 -> (bytes0 * bytes0) option **)
+
+let rec index_colon_go cur = function
+| [] -> None
+| c :: t ->
+  if N.eqb c (Npos (XO (XI (XO (XI (XI XH))))))
+  then Some ((rev cur), t)
+  else index_colon_go (c :: cur) t
+
+(** val index_colon : bytes0 -> (bytes0 * bytes0) option **)
+
+let index_colon l =
+  index_colon_go [] l
+
+(** val pad_hex64 : bytes0 -> bytes0 **)
+
+let pad_hex64 h =
+  app
+    (repeat (Npos (XO (XO (XO (XO (XI XH))))))
+      (sub (S (S (S (S (S (S (S (S (S (S (S (S (S (S (S (S (S (S (S (S (S (S
+        (S (S (S (S (S (S (S (S (S (S (S (S (S (S (S (S (S (S (S (S (S (S (S
+        (S (S (S (S (S (S (S (S (S (S (S (S (S (S (S (S (S (S (S
+        O))))))))))))))))))))))))))))))))))))))))))))))))))))))))))))))))
+        (length h))) h
+
+(** val parse_account_id : bytes0 -> (z * bytes0) res **)
+
+let parse_account_id s =
+  match index_colon s with
+  | Some p ->
+    let (w, h) = p in
+    (match parse_int32 w with
+     | Some wc ->
+       (match hex_decode (pad_hex64 h) with
+        | Some a ->
+          if Nat.eqb (length a) (S (S (S (S (S (S (S (S (S (S (S (S (S (S (S
+               (S (S (S (S (S (S (S (S (S (S (S (S (S (S (S (S (S
+               O))))))))))))))))))))))))))))))))
+          then Ok (wc, a)
+          else Err eOther
+        | None -> Err eInvalidHex)
+     | None -> Err eOther)
+  | None -> Err eOther
+
+(** val message_layout : parsed0 -> bytes0 **)
+
+let message_layout p =
+  app tonProofPrefix
+    (app (be32 p.m_wc)
+      (app p.m_addr
+        (app (le0 (blen p.m_domain))
+          (app p.m_domain (app (le64 p.m_ts) p.m_payload)))))
+
+(** val create_message : (bytes0 -> bytes0) -> parsed0 -> bytes0 **)
+
+let create_message h p =
+  h
+    (app ((Npos (XI (XI (XI (XI (XI (XI (XI XH)))))))) :: ((Npos (XI (XI (XI
+      (XI (XI (XI (XI XH)))))))) :: []))
+      (app tonConnectPrefix (h (message_layout p))))
+
+(** val unixToInternal : z **)
+
+let unixToInternal =
+  Zpos (XO (XO (XO (XO (XO (XO (XO (XO (XI (XI (XI (XO (XI (XI (XI (XI (XI
+    (XO (XO (XO (XI (XO (XO (XI (XI (XI (XI (XO (XI (XI (XI (XO (XO (XI (XI
+    XH)))))))))))))))))))))))))))))))))))
+
+(** val wrap64 : z -> z **)
+
+let wrap64 z0 =
+  Z.sub
+    (Z.modulo
+      (Z.add z0 (Z.pow (Zpos (XO XH)) (Zpos (XI (XI (XI (XI (XI XH))))))))
+      (Z.pow (Zpos (XO XH)) (Zpos (XO (XO (XO (XO (XO (XO XH)))))))))
+    (Z.pow (Zpos (XO XH)) (Zpos (XI (XI (XI (XI (XI XH)))))))
+
+(** val clamp64 : z -> z **)
+
+let clamp64 z0 =
+  Z.max (Z.opp (Z.pow (Zpos (XO XH)) (Zpos (XI (XI (XI (XI (XI XH))))))))
+    (Z.min
+      (Z.sub (Z.pow (Zpos (XO XH)) (Zpos (XI (XI (XI (XI (XI XH))))))) (Zpos
+        XH)) z0)
+
+(** val giga : z **)
+
+let giga =
+  Zpos (XO (XO (XO (XO (XO (XO (XO (XO (XO (XI (XO (XI (XO (XO (XI (XI (XO
+    (XI (XO (XI (XI (XO (XO (XI (XI (XI (XO (XI (XI
+    XH)))))))))))))))))))))))))))))
+
+(** val since : z -> z -> z **)
+
+let since now ts =
+  let s = Z.div now giga in
+  let ns = Z.modulo now giga in
+  let tsi = Z.sub (wrap64 (Z.add ts unixToInternal)) unixToInternal in
+  clamp64 (Z.add (Z.mul (Z.sub s tsi) giga) ns)
+
+(** val expired : z -> z -> z -> bool **)
+
+let expired now ts lifetime =
+  Z.gtb (since now ts) (wrap64 (Z.mul lifetime giga))
+
+(** val generate_payload :
+    (bytes0 -> bytes0 -> bytes0) -> bytes0 -> bytes0 -> z -> z -> bytes0 **)
+
+let generate_payload hmac secret nonce lifetime now =
+  let body = app nonce (be64 (Z.div (Z.add now lifetime) giga)) in
+  hex_encode
+    (firstn (S (S (S (S (S (S (S (S (S (S (S (S (S (S (S (S (S (S (S (S (S (S
+      (S (S (S (S (S (S (S (S (S (S O))))))))))))))))))))))))))))))))
+      (app body (hmac secret body)))
+
+(** val check_payload :
+    (bytes0 -> bytes0 -> bytes0) -> bytes0 -> z -> z -> bytes0 -> bool res **)
+
+let check_payload hmac secret lifetime now payload =
+  match hex_decode payload with
+  | Some b ->
+    if negb
+         (Nat.eqb (length b) (S (S (S (S (S (S (S (S (S (S (S (S (S (S (S (S
+           (S (S (S (S (S (S (S (S (S (S (S (S (S (S (S (S
+           O)))))))))))))))))))))))))))))))))
+    then Ok false
+    else let mac =
+           hmac secret
+             (firstn (S (S (S (S (S (S (S (S (S (S (S (S (S (S (S (S
+               O)))))))))))))))) b)
+         in
+         if Nat.ltb (length mac) (S (S (S (S (S (S (S (S (S (S (S (S (S (S (S
+              (S O))))))))))))))))
+         then Panic pSlice
+         else if negb
+                   (beqb
+                     (skipn (S (S (S (S (S (S (S (S (S (S (S (S (S (S (S (S
+                       O)))))))))))))))) b)
+                     (firstn (S (S (S (S (S (S (S (S (S (S (S (S (S (S (S (S
+                       O)))))))))))))))) mac))
+              then Ok false
+              else Ok
+                     (negb
+                       (expired now
+                         (to_int64
+                           (be_val
+                             (firstn (S (S (S (S (S (S (S (S O))))))))
+                               (skipn (S (S (S (S (S (S (S (S O)))))))) b))))
+                         lifetime))
+  | None -> Ok false
+
+(** val static_domain : bytes0 -> bytes0 -> bool res **)
+
+let static_domain d s =
+  Ok (beqb s d)
+
+type stk =
+| StTiny of z
+| StInt of z
+| StOther
+
+type exec_result =
+| ExErr
+| ExRet of n * stk list
+
+(** val key_of_int : z -> bytes0 option **)
+
+let key_of_int z0 =
+  let b = be_min (Z.abs_N z0) in
+  let l = length b in
+  if (||)
+       (Nat.ltb l (S (S (S (S (S (S (S (S (S (S (S (S (S (S (S (S (S (S (S (S
+         (S (S (S (S O)))))))))))))))))))))))))
+       (Nat.ltb (S (S (S (S (S (S (S (S (S (S (S (S (S (S (S (S (S (S (S (S
+         (S (S (S (S (S (S (S (S (S (S (S (S
+         O)))))))))))))))))))))))))))))))) l)
+  then None
+  else Some
+         (app
+           (repeat N0
+             (sub (S (S (S (S (S (S (S (S (S (S (S (S (S (S (S (S (S (S (S (S
+               (S (S (S (S (S (S (S (S (S (S (S (S
+               O)))))))))))))))))))))))))))))))) l)) b)
+
+(** val get_wallet_pubkey : exec_result -> bytes0 option **)
+
+let get_wallet_pubkey = function
+| ExErr -> None
+| ExRet (code, st) ->
+  if negb ((||) (N.eqb code N0) (N.eqb code (Npos XH)))
+  then None
+  else (match st with
+        | [] -> None
+        | s :: l ->
+          (match s with
+           | StTiny z0 -> (match l with
+                           | [] -> key_of_int z0
+                           | _ :: _ -> None)
+           | StInt z0 -> (match l with
+                          | [] -> key_of_int z0
+                          | _ :: _ -> None)
+           | StOther -> None))
+
+type cell1 =
+| Cell1 of n * bool list * cell1 list * bytes0 option
+
+(** val c_ty : cell1 -> n **)
+
+let c_ty = function
+| Cell1 (t, _, _, _) -> t
+
+(** val c_bits : cell1 -> bool list **)
+
+let c_bits = function
+| Cell1 (_, b, _, _) -> b
+
+(** val c_refs : cell1 -> cell1 list **)
+
+let c_refs = function
+| Cell1 (_, _, r, _) -> r
+
+(** val c_hash : cell1 -> bytes0 option **)
+
+let c_hash = function
+| Cell1 (_, _, _, h) -> h
+
+(** val tyPruned : n **)
+
+let tyPruned =
+  Npos XH
+
+(** val tyLibrary : n **)
+
+let tyLibrary =
+  Npos (XO XH)
+
+(** val empty_cell_hash : bytes0 **)
+
+let empty_cell_hash =
+  (Npos (XO (XI (XI (XO (XI (XO (XO XH)))))))) :: ((Npos (XO (XI (XO (XO (XO
+    (XI (XO XH)))))))) :: ((Npos (XO (XI (XI (XO (XI (XO (XO
+    XH)))))))) :: ((Npos (XO (XI (XO (XO (XI (XO (XI XH)))))))) :: ((Npos (XO
+    (XO (XI (XO (XO XH)))))) :: ((Npos (XO (XI (XO (XO (XI (XI (XI
+    XH)))))))) :: ((Npos (XI (XO (XI (XO (XO (XO (XO XH)))))))) :: ((Npos (XO
+    (XI (XI (XO (XO (XO (XI XH)))))))) :: ((Npos (XI (XI (XO (XI (XI (XI
+    XH))))))) :: ((Npos (XO (XI (XI (XI (XO (XI (XI XH)))))))) :: ((Npos (XI
+    (XI (XO (XO (XI (XO (XO XH)))))))) :: ((Npos (XI (XI (XO (XO (XO (XO (XI
+    XH)))))))) :: ((Npos (XI (XI (XI XH)))) :: ((Npos (XO (XI (XO (XI (XO (XO
+    (XO XH)))))))) :: ((Npos (XO (XO (XO (XO (XI XH)))))) :: ((Npos (XI (XO
+    (XO (XO (XI (XO (XO XH)))))))) :: ((Npos (XI (XI (XI (XO (XI (XO
+    XH))))))) :: ((Npos (XO (XO (XO (XO (XI (XI (XI XH)))))))) :: ((Npos (XO
+    (XI (XO (XI (XI (XO (XI XH)))))))) :: ((Npos (XI (XI (XO (XO (XO (XI (XO
+    XH)))))))) :: ((Npos (XI (XO (XI (XI (XI (XO XH))))))) :: ((Npos (XI (XO
+    (XI (XO (XO (XO (XI XH)))))))) :: ((Npos (XO (XO (XO (XI (XI (XI (XO
+    XH)))))))) :: ((Npos (XO (XI (XI (XI (XI (XI XH))))))) :: ((Npos (XI (XO
+    (XO (XO (XO (XO XH))))))) :: ((Npos (XI (XI (XO XH)))) :: ((Npos (XO (XO
+    (XO (XI (XI (XI XH))))))) :: ((Npos (XI (XI (XO (XO (XO (XI
+    XH))))))) :: ((Npos (XO (XI (XO XH)))) :: ((Npos (XI (XO (XO
+    XH)))) :: ((Npos (XI (XI (XI (XI (XO (XO (XI XH)))))))) :: ((Npos (XI (XI
+    (XI (XO (XO (XO (XI XH)))))))) :: [])))))))))))))))))))))))))))))))
+
+(** val zero_cell : cell1 **)
+
+let zero_cell =
+  Cell1 (N0, [], [], (Some empty_cell_hash))
+
+type rd = bool list * cell1 list
+
+(** val rd_bit : rd -> (bool * rd) res **)
+
+let rd_bit r =
+  match fst r with
+  | [] -> Err eNotEnoughBits
+  | b :: t -> Ok (b, (t, (snd r)))
+
+(** val rd_skip : nat -> rd -> rd res **)
+
+let rd_skip n0 r =
+  if Nat.ltb (length (fst r)) n0
+  then Err eNotEnoughBits
+  else Ok ((skipn n0 (fst r)), (snd r))
+
+(** val rd_ref : rd -> (cell1 * rd) res **)
+
+let rd_ref r =
+  match snd r with
+  | [] -> Err eNotEnoughRefs
+  | c :: t -> Ok (c, ((fst r), t))
+
+(** val rd_maybe_ref : rd -> (cell1 option * rd) res **)
+
+let rd_maybe_ref r =
+  bind (rd_bit r) (fun pat ->
+    let (b, r1) = pat in
+    if b
+    then bind (rd_ref r1) (fun pat0 ->
+           let (c, r2) = pat0 in
+           Ok ((Some (if N.eqb (c_ty c) tyPruned then zero_cell else c)), r2))
+    else Ok (None, r1))
+
+(** val parse_state_init :
+    (cell1 -> bool) -> cell1 -> (cell1 option * cell1 option) res **)
+
+let parse_state_init lib_ok root =
+  if N.eqb (c_ty root) tyLibrary
+  then Err eOther
+  else bind (rd_bit ((c_bits root), (c_refs root))) (fun pat ->
+         let (sd, r1) = pat in
+         bind (if sd then rd_skip (S (S (S (S (S O))))) r1 else Ok r1)
+           (fun r2 ->
+           bind (rd_bit r2) (fun pat0 ->
+             let (sp, r3) = pat0 in
+             bind (if sp then rd_skip (S (S O)) r3 else Ok r3) (fun r4 ->
+               bind (rd_maybe_ref r4) (fun pat1 ->
+                 let (code, r5) = pat1 in
+                 bind (rd_maybe_ref r5) (fun pat2 ->
+                   let (data, r6) = pat2 in
+                   bind (rd_bit r6) (fun pat3 ->
+                     let (lb, r7) = pat3 in
+                     if lb
+                     then bind (rd_ref r7) (fun _ ->
+                            if lib_ok root
+                            then Ok (code, data)
+                            else Err eOther)
+                     else Ok (code, data))))))))
+
+type layout = { l_off : nat; l_dict : bool }
+
+(** val bytes_of_bits1 : nat -> bool list -> bytes0 **)
+
+let rec bytes_of_bits1 fuel l =
+  match fuel with
+  | O -> []
+  | S f ->
+    (n_of_bits (firstn (S (S (S (S (S (S (S (S O)))))))) l)) :: (bytes_of_bits1
+                                                                  f
+                                                                  (skipn (S
+                                                                    (S (S (S
+                                                                    (S (S (S
+                                                                    (S
+                                                                    O))))))))
+                                                                    l))
+
+(** val data_key : (cell1 -> bool) -> layout -> cell1 -> bytes0 res **)
+
+let data_key ext_ok l d =
+  if N.eqb (c_ty d) tyLibrary
+  then Err eOther
+  else if Nat.ltb (length (c_bits d))
+            (add l.l_off (S (S (S (S (S (S (S (S (S (S (S (S (S (S (S (S (S
+              (S (S (S (S (S (S (S (S (S (S (S (S (S (S (S (S (S (S (S (S (S
+              (S (S (S (S (S (S (S (S (S (S (S (S (S (S (S (S (S (S (S (S (S
+              (S (S (S (S (S (S (S (S (S (S (S (S (S (S (S (S (S (S (S (S (S
+              (S (S (S (S (S (S (S (S (S (S (S (S (S (S (S (S (S (S (S (S (S
+              (S (S (S (S (S (S (S (S (S (S (S (S (S (S (S (S (S (S (S (S (S
+              (S (S (S (S (S (S (S (S (S (S (S (S (S (S (S (S (S (S (S (S (S
+              (S (S (S (S (S (S (S (S (S (S (S (S (S (S (S (S (S (S (S (S (S
+              (S (S (S (S (S (S (S (S (S (S (S (S (S (S (S (S (S (S (S (S (S
+              (S (S (S (S (S (S (S (S (S (S (S (S (S (S (S (S (S (S (S (S (S
+              (S (S (S (S (S (S (S (S (S (S (S (S (S (S (S (S (S (S (S (S (S
+              (S (S (S (S (S (S (S (S (S (S (S (S (S (S (S (S (S (S (S (S (S
+              (S (S (S (S (S (S (S (S
+              O)))))))))))))))))))))))))))))))))))))))))))))))))))))))))))))))))))))))))))))))))))))))))))))))))))))))))))))))))))))))))))))))))))))))))))))))))))))))))))))))))))))))))))))))))))))))))))))))))))))))))))))))))))))))))))))))))))))))))))))))))))))))))))))))))
+       then Err eNotEnoughBits
+       else let key =
+              bytes_of_bits1 (S (S (S (S (S (S (S (S (S (S (S (S (S (S (S (S
+                (S (S (S (S (S (S (S (S (S (S (S (S (S (S (S (S
+                O)))))))))))))))))))))))))))))))) (skipn l.l_off (c_bits d))
+            in
+            if l.l_dict
+            then (match skipn
+                          (add l.l_off (S (S (S (S (S (S (S (S (S (S (S (S (S
+                            (S (S (S (S (S (S (S (S (S (S (S (S (S (S (S (S
+                            (S (S (S (S (S (S (S (S (S (S (S (S (S (S (S (S
+                            (S (S (S (S (S (S (S (S (S (S (S (S (S (S (S (S
+                            (S (S (S (S (S (S (S (S (S (S (S (S (S (S (S (S
+                            (S (S (S (S (S (S (S (S (S (S (S (S (S (S (S (S
+                            (S (S (S (S (S (S (S (S (S (S (S (S (S (S (S (S
+                            (S (S (S (S (S (S (S (S (S (S (S (S (S (S (S (S
+                            (S (S (S (S (S (S (S (S (S (S (S (S (S (S (S (S
+                            (S (S (S (S (S (S (S (S (S (S (S (S (S (S (S (S
+                            (S (S (S (S (S (S (S (S (S (S (S (S (S (S (S (S
+                            (S (S (S (S (S (S (S (S (S (S (S (S (S (S (S (S
+                            (S (S (S (S (S (S (S (S (S (S (S (S (S (S (S (S
+                            (S (S (S (S (S (S (S (S (S (S (S (S (S (S (S (S
+                            (S (S (S (S (S (S (S (S (S (S (S (S (S (S (S (S
+                            (S (S (S (S (S (S (S (S (S (S (S (S (S (S (S (S
+                            (S (S (S
+                            O)))))))))))))))))))))))))))))))))))))))))))))))))))))))))))))))))))))))))))))))))))))))))))))))))))))))))))))))))))))))))))))))))))))))))))))))))))))))))))))))))))))))))))))))))))))))))))))))))))))))))))))))))))))))))))))))))))))))))))))))))))))))))))))))))
+                          (c_bits d) with
+                  | [] -> Err eNotEnoughBits
+                  | b :: _ ->
+                    if b
+                    then (match c_refs d with
+                          | [] -> Err eNotEnoughRefs
+                          | _ :: _ -> if ext_ok d then Ok key else Err eOther)
+                    else Ok key)
+            else Ok key
+
+type known_table = (bytes0 * layout option) list
+
+(** val lookup : bytes0 -> known_table -> layout option option **)
+
+let rec lookup h = function
+| [] -> None
+| p :: t' -> let (k0, v) = p in if beqb h k0 then Some v else lookup h t'
+
+(** val parse_state_init_key :
+    (bytes0 -> cell1 list res) -> (cell1 -> bool) -> (cell1 -> bool) ->
+    known_table -> bytes0 -> bytes0 res **)
+
+let parse_state_init_key boc lib_ok ext_ok known si =
+  bind (boc si) (fun cells ->
+    match cells with
+    | [] -> Err eOther
+    | root :: l ->
+      (match l with
+       | [] ->
+         bind (parse_state_init lib_ok root) (fun pat ->
+           let (code, data) = pat in
+           (match code with
+            | Some c ->
+              (match data with
+               | Some d ->
+                 (match c_hash c with
+                  | Some h ->
+                    (match lookup h known with
+                     | Some o ->
+                       (match o with
+                        | Some l0 -> data_key ext_ok l0 d
+                        | None -> Err eOther)
+                     | None -> Err eOther)
+                  | None -> Err eOther)
+               | None -> Err eOther)
+            | None -> Err eOther))
+       | _ :: _ -> Err eOther))
+
+(** val compare_state_init :
+    (bytes0 -> cell1 list res) -> bytes0 -> bytes0 -> bool res **)
+
+let compare_state_init boc addr si =
+  bind (boc si) (fun cells ->
+    match cells with
+    | [] -> Err eOther
+    | root :: l ->
+      (match l with
+       | [] ->
+         (match c_hash root with
+          | Some h -> Ok (beqb h addr)
+          | None -> Err eOther)
+       | _ :: _ -> Err eOther))
+
+(** val ed_verify :
+    (bytes0 -> bytes0 -> bytes0 -> bool) -> bytes0 -> bytes0 -> bytes0 ->
+    bool res **)
+
+let ed_verify verify pk msg0 sig0 =
+  if Nat.eqb (length pk) (S (S (S (S (S (S (S (S (S (S (S (S (S (S (S (S (S
+       (S (S (S (S (S (S (S (S (S (S (S (S (S (S (S
+       O))))))))))))))))))))))))))))))))
+  then Ok (verify pk msg0 sig0)
+  else Panic pEdKeyLen
+
+type key_source =
+| FromGetMethod
+| FromStateInit
+
+(** val wallet_key :
+    (bytes0 -> cell1 list res) -> (cell1 -> bool) -> (cell1 -> bool) ->
+    known_table -> ((z * bytes0) -> exec_result) -> (z * bytes0) -> bytes0 ->
+    (bytes0 * key_source) res **)
+
+let wallet_key boc lib_ok ext_ok known exec acc si =
+  match get_wallet_pubkey (exec acc) with
+  | Some k0 -> Ok (k0, FromGetMethod)
+  | None ->
+    (match si with
+     | [] -> Err eOther
+     | _ :: _ ->
+       bind (compare_state_init boc (snd acc) si) (fun ok ->
+         if negb ok
+         then Err eOther
+         else (match parse_state_init_key boc lib_ok ext_ok known si with
+               | Ok k0 -> Ok (k0, FromStateInit)
+               | Err e -> Err e
+               | Panic p -> Panic p)))
+
+(** val check_proof_src :
+    (bytes0 -> bytes0) -> (bytes0 -> bytes0 -> bytes0 -> bool) -> (bytes0 ->
+    bytes0 option) -> (bytes0 -> cell1 list res) -> (cell1 -> bool) -> (cell1
+    -> bool) -> known_table -> ((z * bytes0) -> exec_result) -> (bytes0 ->
+    bool res) -> (bytes0 -> bool res) -> z -> z -> proof ->
+    (bytes0 * key_source) res **)
+
+let check_proof_src h verify b64 boc lib_ok ext_ok known exec cp cd lifetime now tp =
+  bind (cp tp.p_payload) (fun verified ->
+    if negb verified
+    then Err eOther
+    else bind (convert b64 tp) (fun pm ->
+           if expired now pm.m_ts lifetime
+           then Err eOther
+           else bind (cd pm.m_domain) (fun ok ->
+                  if negb ok
+                  then Err eOther
+                  else bind (parse_account_id tp.p_address) (fun acc ->
+                         bind
+                           (wallet_key boc lib_ok ext_ok known exec acc
+                             tp.p_state_init) (fun ks ->
+                           bind
+                             (ed_verify verify (fst ks) (create_message h pm)
+                               pm.m_sig) (fun v ->
+                             if v then Ok ks else Err eOther))))))
+
+(** val check_proof :
+    (bytes0 -> bytes0) -> (bytes0 -> bytes0 -> bytes0 -> bool) -> (bytes0 ->
+    bytes0 option) -> (bytes0 -> cell1 list res) -> (cell1 -> bool) -> (cell1
+    -> bool) -> known_table -> ((z * bytes0) -> exec_result) -> (bytes0 ->
+    bool res) -> (bytes0 -> bool res) -> z -> z -> proof -> bytes0 res **)
+
+let check_proof h verify b64 boc lib_ok ext_ok known exec cp cd lifetime now tp =
+  res_map fst
+    (check_proof_src h verify b64 boc lib_ok ext_ok known exec cp cd lifetime
+      now tp)
+
+(** val dec_digits : nat -> z -> bytes0 -> bytes0 **)
+
+let rec dec_digits fuel n0 acc =
+  match fuel with
+  | O -> acc
+  | S f ->
+    let acc' =
+      (Z.to_N
+        (Z.add (Zpos (XO (XO (XO (XO (XI XH))))))
+          (Z.modulo n0 (Zpos (XO (XI (XO XH))))))) :: acc
+    in
+    if Z.eqb (Z.div n0 (Zpos (XO (XI (XO XH))))) Z0
+    then acc'
+    else dec_digits f (Z.div n0 (Zpos (XO (XI (XO XH))))) acc'
+
+(** val print_int : z -> bytes0 **)
+
+let print_int z0 =
+  if Z.ltb z0 Z0
+  then (Npos (XI (XO (XI (XI (XO
+         XH)))))) :: (dec_digits (S (S (S (S (S (S (S (S (S (S (S (S (S (S (S
+                       (S (S (S (S (S O)))))))))))))))))))) (Z.opp z0) [])
+  else dec_digits (S (S (S (S (S (S (S (S (S (S (S (S (S (S (S (S (S (S (S (S
+         O)))))))))))))))))))) z0 []
+
+(** val to_raw : z -> bytes0 -> bytes0 **)
+
+let to_raw wc addr =
+  app (print_int wc)
+    (app ((Npos (XO (XI (XO (XI (XI XH)))))) :: []) (hex_encode addr))
+
+(** val version_layout : n -> layout option **)
+
+let version_layout v =
+  if N.leb v (Npos (XO (XO XH)))
+  then Some { l_off = (S (S (S (S (S (S (S (S (S (S (S (S (S (S (S (S (S (S
+         (S (S (S (S (S (S (S (S (S (S (S (S (S (S
+         O)))))))))))))))))))))))))))))))); l_dict = false }
+  else if (||) (N.eqb v (Npos (XI (XO XH)))) (N.eqb v (Npos (XO (XI XH))))
+       then Some { l_off = (S (S (S (S (S (S (S (S (S (S (S (S (S (S (S (S (S
+              (S (S (S (S (S (S (S (S (S (S (S (S (S (S (S (S (S (S (S (S (S
+              (S (S (S (S (S (S (S (S (S (S (S (S (S (S (S (S (S (S (S (S (S
+              (S (S (S (S (S
+              O))))))))))))))))))))))))))))))))))))))))))))))))))))))))))))))));
+              l_dict = false }
+       else if (||) (N.eqb v (Npos (XO (XO (XO XH)))))
+                 (N.eqb v (Npos (XI (XO (XO XH)))))
+            then Some { l_off = (S (S (S (S (S (S (S (S (S (S (S (S (S (S (S
+                   (S (S (S (S (S (S (S (S (S (S (S (S (S (S (S (S (S (S (S
+                   (S (S (S (S (S (S (S (S (S (S (S (S (S (S (S (S (S (S (S
+                   (S (S (S (S (S (S (S (S (S (S (S
+                   O))))))))))))))))))))))))))))))))))))))))))))))))))))))))))))))));
+                   l_dict = false }
+            else if N.eqb v (Npos (XO (XI (XO XH))))
+                 then Some { l_off = (S (S (S (S (S (S (S (S (S (S (S (S (S
+                        (S (S (S (S (S (S (S (S (S (S (S (S (S (S (S (S (S (S
+                        (S (S (S (S (S (S (S (S (S (S (S (S (S (S (S (S (S (S
+                        (S (S (S (S (S (S (S (S (S (S (S (S (S (S (S (S (S (S
+                        (S (S (S (S (S (S (S (S (S (S (S (S (S (S (S (S (S (S
+                        (S (S (S (S (S (S (S (S (S (S (S (S (S (S (S (S (S (S
+                        (S (S (S (S (S (S (S (S (S (S
+                        O)))))))))))))))))))))))))))))))))))))))))))))))))))))))))))))))))))))))))))))))))))))))))))))))))))))))))))))))));
+                        l_dict = true }
+                 else if N.eqb v (Npos (XI (XI (XO XH))))
+                      then Some { l_off = (S (S (S (S (S (S (S (S (S (S (S (S
+                             (S (S (S (S (S (S (S (S (S (S (S (S (S (S (S (S
+                             (S (S (S (S (S (S (S (S (S (S (S (S (S (S (S (S
+                             (S (S (S (S (S (S (S (S (S (S (S (S (S (S (S (S
+                             (S (S (S (S (S
+                             O)))))))))))))))))))))))))))))))))))))))))))))))))))))))))))))))));
+                             l_dict = true }
+                      else None
+
+(** val known_of : (n * bytes0) list -> known_table **)
+
+let known_of hashes =
+  map (fun vh -> ((snd vh), (version_layout (fst vh)))) hashes
+
+(** val gen_known_hashes : (n * n list) list **)
+
+let gen_known_hashes =
+  (N0, ((Npos (XO (XO (XO (XO (XO (XI (XO XH)))))))) :: ((Npos (XI (XI (XI
+    (XI (XO (XO (XI XH)))))))) :: ((Npos (XO (XI (XO (XO (XO (XO (XI
+    XH)))))))) :: ((Npos (XO (XO (XI (XO (XO (XO (XI XH)))))))) :: ((Npos (XO
+    (XI (XO (XI (XO (XO (XO XH)))))))) :: ((Npos (XO (XI (XI (XI (XO (XI (XI
+    XH)))))))) :: ((Npos (XO (XI (XI (XO XH))))) :: ((Npos (XO (XI (XO (XO
+    (XO (XI (XO XH)))))))) :: ((Npos (XI (XO (XO (XO (XI (XI
+    XH))))))) :: ((Npos (XO (XI (XO (XO (XI (XI (XI XH)))))))) :: ((Npos (XI
+    (XI (XI (XI (XO (XO (XI XH)))))))) :: ((Npos (XO (XO (XO (XO (XO (XO (XI
+    XH)))))))) :: ((Npos (XI (XI (XI (XO (XI (XI (XO XH)))))))) :: ((Npos (XO
+    (XO (XO (XI (XI XH)))))) :: ((Npos (XI (XO (XI (XI (XO XH)))))) :: ((Npos
+    (XI (XO (XO (XO (XO (XO (XO XH)))))))) :: ((Npos (XI (XO (XI (XO (XI (XI
+    XH))))))) :: ((Npos (XO (XO (XI (XI (XO (XI XH))))))) :: ((Npos (XO (XO
+    (XI (XI (XO (XI (XI XH)))))))) :: ((Npos (XI (XO (XO (XO (XI (XI (XO
+    XH)))))))) :: ((Npos XH) :: ((Npos (XI (XO (XI (XI (XI (XI
+    XH))))))) :: ((Npos (XI (XI XH))) :: ((Npos (XI (XI (XI (XI (XI (XI
+    XH))))))) :: ((Npos (XO (XI (XO (XI (XO (XI (XO XH)))))))) :: ((Npos (XI
+    (XI (XO (XI (XO (XI (XO XH)))))))) :: ((Npos (XI (XI (XO (XI (XI
+    XH)))))) :: ((Npos (XO (XI (XI (XO (XI (XI (XO XH)))))))) :: ((Npos (XO
+    XH)) :: ((Npos (XO (XI (XI (XO (XI (XI (XI XH)))))))) :: ((Npos (XO (XI
+    (XI (XO (XO (XO (XO XH)))))))) :: ((Npos (XO (XO (XI (XI (XO (XO (XO
+    XH)))))))) :: []))))))))))))))))))))))))))))))))) :: (((Npos XH), ((Npos
+    (XO (XO (XI (XO (XI (XO (XI XH)))))))) :: ((Npos (XO (XO (XO (XO (XI (XO
+    (XO XH)))))))) :: ((Npos (XI (XI (XI (XI (XO XH)))))) :: ((Npos (XO (XO
+    (XI (XI (XO (XO (XI XH)))))))) :: ((Npos (XI (XI (XI (XI (XI (XO (XO
+    XH)))))))) :: ((Npos (XI (XO (XI (XI (XO (XI (XO XH)))))))) :: ((Npos (XO
+    (XO (XI (XO (XI (XI XH))))))) :: ((Npos (XI (XO (XO (XI (XO (XI
+    XH))))))) :: ((Npos (XI (XI (XI (XI (XO (XO (XO XH)))))))) :: ((Npos (XO
+    (XO (XO (XI (XO (XI (XO XH)))))))) :: ((Npos (XI (XI (XO (XO (XO (XI (XI
+    XH)))))))) :: ((Npos (XI (XI (XO (XO (XI (XO XH))))))) :: ((Npos (XO (XI
+    (XO (XO (XO XH)))))) :: ((Npos (XO (XI (XO XH)))) :: ((Npos (XO (XO (XO
+    (XI (XO (XI XH))))))) :: ((Npos (XO (XI (XO (XI (XI (XO (XI
+    XH)))))))) :: ((Npos (XI (XO (XI XH)))) :: ((Npos (XI (XI (XI (XI (XO (XO
+    (XI XH)))))))) :: ((Npos (XO (XI (XO (XO (XI (XI XH))))))) :: ((Npos (XI
+    (XI (XO (XO (XO (XI (XI XH)))))))) :: ((Npos (XI (XI (XO (XI (XO
+    XH)))))) :: ((Npos (XI (XI (XO (XI (XO (XO (XI XH)))))))) :: ((Npos (XO
+    (XI (XI (XI (XO XH)))))) :: ((Npos (XI (XO (XO (XI (XI (XI (XO
+    XH)))))))) :: ((Npos (XO (XI (XI (XI (XO (XI (XI XH)))))))) :: ((Npos (XO
+    (XO XH))) :: ((Npos (XI (XO (XO (XO (XO XH)))))) :: ((Npos (XO (XO (XI
+    (XI (XI (XI XH))))))) :: ((Npos (XI (XI (XI (XO XH))))) :: ((Npos (XI (XI
+    (XO (XO (XI (XO (XI XH)))))))) :: ((Npos (XO (XI XH))) :: ((Npos (XO (XO
+    (XI (XI (XO XH)))))) :: []))))))))))))))))))))))))))))))))) :: (((Npos
+    (XO XH)), ((Npos (XO (XO (XO (XI (XI (XO XH))))))) :: ((Npos (XO (XO (XI
+    (XI (XI (XI XH))))))) :: ((Npos (XI (XI (XI (XO (XO (XO (XI
+    XH)))))))) :: ((Npos (XI (XO (XO (XI (XO (XO (XO XH)))))))) :: ((Npos (XI
+    (XI (XI (XI (XO (XI (XI XH)))))))) :: ((Npos (XI (XO (XO (XO (XI (XI (XI
+    XH)))))))) :: ((Npos (XO (XO (XO (XI (XO (XO (XI XH)))))))) :: ((Npos (XI
+    (XI (XI (XI (XO (XO XH))))))) :: ((Npos (XO (XI (XI (XO (XO (XO
+    XH))))))) :: ((Npos (XO (XO (XI (XI (XO (XI (XI XH)))))))) :: ((Npos (XI
+    (XI (XI (XO (XI XH)))))) :: ((Npos (XI (XI (XI (XO (XI (XO (XO
+    XH)))))))) :: ((Npos (XO (XO (XI (XO (XO (XI (XI XH)))))))) :: ((Npos (XI
+    (XI (XI (XI (XI (XO XH))))))) :: ((Npos (XO (XO (XO (XI (XO (XO (XI
+    XH)))))))) :: ((Npos (XI (XO (XO XH)))) :: ((Npos (XI (XO (XO (XO (XO (XI
+    (XO XH)))))))) :: ((Npos (XI (XI (XI (XI (XO (XO XH))))))) :: ((Npos (XI
+    (XO (XI (XO (XI (XI (XI XH)))))))) :: ((Npos (XO (XI (XI (XI (XO (XI (XO
+    XH)))))))) :: ((Npos (XO (XO (XI (XO (XO XH)))))) :: ((Npos (XI (XO (XO
+    (XO (XI (XI (XI XH)))))))) :: ((Npos (XO (XO (XO (XO (XO (XI (XI
+    XH)))))))) :: ((Npos (XI (XI (XI (XO (XO (XO (XI XH)))))))) :: ((Npos (XO
+    (XI (XI (XO (XO (XI (XO XH)))))))) :: ((Npos (XI (XO (XO (XI (XO (XI (XO
+    XH)))))))) :: ((Npos (XO (XO (XI (XI (XI (XO (XO XH)))))))) :: ((Npos (XI
+    (XO (XO (XI (XO (XO (XI XH)))))))) :: ((Npos (XO (XO (XI (XI (XI (XO (XI
+    XH)))))))) :: ((Npos (XO (XO (XO (XO (XI (XO (XO XH)))))))) :: ((Npos (XI
+    (XO (XO (XO (XO (XI XH))))))) :: ((Npos (XI (XI (XI (XI (XI (XI (XI
+    XH)))))))) :: []))))))))))))))))))))))))))))))))) :: (((Npos (XI XH)),
+    ((Npos (XO (XO (XI (XI (XI (XO XH))))))) :: ((Npos (XO (XI (XO (XI (XI
+    (XO (XO XH)))))))) :: ((Npos (XO (XI (XI (XI (XI (XO XH))))))) :: ((Npos
+    (XO (XO (XO (XI (XO (XI XH))))))) :: ((Npos (XI (XO (XO (XO (XO (XO (XI
+    XH)))))))) :: ((Npos (XO (XO (XO XH)))) :: ((Npos (XI (XO (XO (XO (XO (XI
+    (XI XH)))))))) :: ((Npos (XI (XI (XI (XO (XO (XO (XO XH)))))))) :: ((Npos
+    (XI (XO (XO (XO (XO XH)))))) :: ((Npos (XO (XO (XO (XO (XO (XI (XO
+    XH)))))))) :: ((Npos (XO (XO (XI (XI (XI (XI XH))))))) :: ((Npos (XO (XI
+    (XO (XO (XO (XO XH))))))) :: ((Npos (XI (XO (XO (XI (XI (XI (XI
+    XH)))))))) :: ((Npos (XI (XO (XI (XO (XI (XO (XO XH)))))))) :: ((Npos (XI
+    (XI (XO (XI (XO (XI XH))))))) :: ((Npos (XI (XI (XO (XI (XI (XI (XI
+    XH)))))))) :: ((Npos (XI (XO (XO (XI (XI XH)))))) :: ((Npos (XI (XO (XI
+    (XI (XO (XI (XO XH)))))))) :: ((Npos (XI (XI (XI (XO (XI (XI
+    XH))))))) :: ((Npos (XO (XO (XI (XI (XO (XI (XI XH)))))))) :: ((Npos (XI
+    (XO (XI (XI (XO (XI XH))))))) :: ((Npos (XO (XI (XO (XO (XO (XI
+    XH))))))) :: ((Npos (XI (XI (XO (XI (XO (XO XH))))))) :: ((Npos (XO (XO
+    (XO (XO (XO (XI XH))))))) :: ((Npos (XI (XO (XI (XO (XO (XO (XI
+    XH)))))))) :: ((Npos (XO (XI (XI (XO (XI (XI XH))))))) :: ((Npos (XO (XO
+    (XI (XI (XO (XI (XI XH)))))))) :: ((Npos (XO (XO (XO (XI (XO (XO (XO
+    XH)))))))) :: ((Npos (XO (XI (XI (XI (XO (XI (XI XH)))))))) :: ((Npos (XO
+    (XI (XI (XO (XO (XI (XI XH)))))))) :: ((Npos (XI (XI (XO (XO (XI (XO
+    XH))))))) :: ((Npos (XI (XO (XO (XI (XO
+    XH)))))) :: []))))))))))))))))))))))))))))))))) :: (((Npos (XO (XO XH))),
+    ((Npos (XO (XI (XI (XI (XI (XI (XI XH)))))))) :: ((Npos (XI (XO (XI (XO
+    (XI (XO (XO XH)))))))) :: ((Npos (XO (XO (XO (XO (XI XH)))))) :: ((Npos
+    (XI (XI (XO (XO (XI (XO (XI XH)))))))) :: ((Npos (XO (XO (XI (XO (XO
+    XH)))))) :: ((Npos (XO (XO (XO (XI (XI XH)))))) :: ((Npos (XI (XI (XO (XO
+    (XI (XO XH))))))) :: ((Npos (XO (XO (XO XH)))) :: ((Npos (XO (XI (XI (XI
+    (XI XH)))))) :: ((Npos (XO (XI (XO (XO (XI (XI (XI XH)))))))) :: ((Npos
+    (XI (XI (XI (XI (XO (XI (XI XH)))))))) :: ((Npos (XI (XI (XO
+    XH)))) :: ((Npos (XO (XO (XI (XI (XO (XO XH))))))) :: ((Npos (XI (XO (XO
+    (XI (XO XH)))))) :: ((Npos (XO (XO (XO XH)))) :: ((Npos (XO (XO (XO (XO
+    (XO (XO (XI XH)))))))) :: ((Npos (XI (XI (XO (XI (XO (XI (XO
+    XH)))))))) :: ((Npos (XO (XI (XI (XO (XI (XI (XI XH)))))))) :: ((Npos (XO
+    (XI (XO (XI (XI (XI (XI XH)))))))) :: ((Npos (XO (XO (XI (XI
+    XH))))) :: ((Npos (XI (XO (XO (XO (XI XH)))))) :: ((Npos (XO (XI (XO (XI
+    (XO (XI (XI XH)))))))) :: ((Npos (XO (XO (XI (XO (XO XH)))))) :: ((Npos
+    (XO (XI (XO (XI (XI XH)))))) :: ((Npos (XO (XO (XI (XI (XO (XI (XO
+    XH)))))))) :: ((Npos (XO (XI (XO (XI (XO (XI (XO XH)))))))) :: ((Npos (XI
+    (XI (XO (XI (XI (XO XH))))))) :: ((Npos (XO (XO (XO (XI (XI (XI (XI
+    XH)))))))) :: ((Npos (XI (XI (XI (XO (XO (XO (XI XH)))))))) :: ((Npos (XI
+    (XI (XI (XO (XI (XO (XI XH)))))))) :: ((Npos (XI (XI (XO (XO (XI (XO
+    XH))))))) :: ((Npos (XI (XO (XO (XO (XI (XI (XI
+    XH)))))))) :: []))))))))))))))))))))))))))))))))) :: (((Npos (XI (XO
+    XH))), ((Npos (XO (XI (XI (XO (XI (XI (XO XH)))))))) :: ((Npos (XO (XO
+    (XO (XO XH))))) :: ((Npos (XI (XO (XO (XO (XO (XO XH))))))) :: ((Npos (XI
+    (XO (XI (XO (XO (XI (XO XH)))))))) :: ((Npos (XO (XI (XO (XI (XO (XO (XO
+    XH)))))))) :: ((Npos (XI (XO (XO (XI (XI (XI XH))))))) :: ((Npos (XO (XO
+    (XO (XO (XO (XO (XO XH)))))))) :: ((Npos (XI (XO (XO (XI (XI (XI (XO
+    XH)))))))) :: ((Npos (XO (XI (XI (XO (XO (XO XH))))))) :: ((Npos (XO (XO
+    (XO (XI (XO (XI (XI XH)))))))) :: ((Npos (XI (XI (XO (XI (XI (XI (XI
+    XH)))))))) :: ((Npos (XO (XI (XI (XI (XI (XO (XO XH)))))))) :: ((Npos (XI
+    (XO (XO (XI XH))))) :: ((Npos (XO (XI (XI (XI (XO (XO (XO
+    XH)))))))) :: ((Npos (XO (XO (XI (XI (XI XH)))))) :: ((Npos (XO (XO (XO
+    (XO (XI (XO (XO XH)))))))) :: ((Npos (XI (XO (XI (XI (XO (XO
+    XH))))))) :: ((Npos (XO (XO (XI (XO (XO XH)))))) :: ((Npos (XI (XO (XO
+    (XI (XI (XI XH))))))) :: ((Npos (XI (XI (XI (XI (XI (XO (XO
+    XH)))))))) :: ((Npos (XO (XI (XO (XI (XI (XI (XI XH)))))))) :: ((Npos (XO
+    (XI (XI (XO (XI XH)))))) :: ((Npos (XI (XI (XI (XO (XI (XO
+    XH))))))) :: ((Npos (XO (XI (XI (XI (XO (XO XH))))))) :: ((Npos (XO (XO
+    (XI (XO (XO (XI (XO XH)))))))) :: ((Npos (XI (XO (XI (XO (XO
+    XH)))))) :: ((Npos (XO (XO (XI (XI XH))))) :: ((Npos (XI (XO (XO (XO (XO
+    (XO XH))))))) :: ((Npos (XI (XO (XI (XO (XO (XI (XO XH)))))))) :: ((Npos
+    (XO (XI (XI (XO (XO (XI XH))))))) :: ((Npos (XI (XO (XI (XO (XI (XI (XI
+    XH)))))))) :: ((Npos (XI (XO (XO (XO (XO (XO (XO
+    XH)))))))) :: []))))))))))))))))))))))))))))))))) :: (((Npos (XO (XI
+    XH))), ((Npos (XO (XO (XI (XO (XO (XO (XO XH)))))))) :: ((Npos (XO (XI
+    (XO (XI (XI (XO (XI XH)))))))) :: ((Npos (XO (XI (XO (XI (XI (XI (XI
+    XH)))))))) :: ((Npos (XO (XO (XI (XO (XO (XO XH))))))) :: ((Npos (XI (XI
+    (XI (XI (XI (XO (XO XH)))))))) :: ((Npos (XO (XO (XO (XI (XI (XO (XO
+    XH)))))))) :: ((Npos (XO (XI (XI (XO (XO (XI (XO XH)))))))) :: ((Npos (XO
+    (XO (XO (XI (XI (XO (XO XH)))))))) :: ((Npos (XI (XI (XI (XO (XI (XI
+    XH))))))) :: ((Npos (XI (XO (XO (XI (XO (XO (XO XH)))))))) :: ((Npos (XO
+    (XI (XO (XI (XI (XI (XO XH)))))))) :: ((Npos (XI (XI (XO (XO (XO
+    XH)))))) :: ((Npos (XI (XI (XO (XO (XO XH)))))) :: ((Npos (XO (XO (XO (XI
+    (XI (XO XH))))))) :: ((Npos (XI (XI XH))) :: ((Npos (XI (XI (XO (XI (XO
+    XH)))))) :: ((Npos (XO (XO (XO (XO (XO (XO (XI XH)))))))) :: ((Npos (XI
+    (XI (XI (XO (XI (XI (XI XH)))))))) :: ((Npos (XI (XO (XI (XI (XO (XI
+    XH))))))) :: ((Npos (XO (XO (XI (XO (XO (XO (XI XH)))))))) :: ((Npos (XO
+    (XI (XO (XO (XI (XO XH))))))) :: ((Npos (XO (XO (XO (XO (XO (XO
+    XH))))))) :: ((Npos (XO XH)) :: ((Npos (XI (XO (XI (XO (XO (XI (XO
+    XH)))))))) :: ((Npos (XO (XO (XO (XO (XI (XO (XI XH)))))))) :: ((Npos (XI
+    (XO (XO (XO (XI (XO (XO XH)))))))) :: ((Npos (XI (XI (XO (XI (XO (XO (XO
+    XH)))))))) :: ((Npos (XO (XI (XO (XI (XI (XO (XO XH)))))))) :: ((Npos (XI
+    (XO (XI (XO (XI (XI XH))))))) :: ((Npos (XO (XI (XO (XO (XI (XO (XI
+    XH)))))))) :: ((Npos (XI (XO (XI (XO (XI (XO (XI XH)))))))) :: ((Npos (XI
+    (XO (XO (XI (XI (XO (XO
+    XH)))))))) :: []))))))))))))))))))))))))))))))))) :: (((Npos (XI (XI
+    XH))), ((Npos (XO (XO (XO (XI (XO (XO (XO XH)))))))) :: ((Npos (XI (XI
+    (XO (XI (XI (XI (XI XH)))))))) :: ((Npos (XO (XO (XO (XI (XI (XI (XI
+    XH)))))))) :: ((Npos (XO (XO (XO (XI XH))))) :: ((Npos (XO (XO (XI (XO
+    (XO (XI (XI XH)))))))) :: ((Npos (XI (XO (XI (XI (XI (XI
+    XH))))))) :: ((Npos (XI (XI (XI (XI (XI (XO XH))))))) :: ((Npos (XO (XI
+    (XO (XO (XI XH)))))) :: ((Npos (XI (XI (XI (XI (XO (XO (XO
+    XH)))))))) :: ((Npos (XI (XO (XI (XI (XI (XI XH))))))) :: ((Npos (XI (XI
+    (XO (XO (XO (XO (XI XH)))))))) :: ((Npos (XI (XI (XO (XI (XO (XO
+    XH))))))) :: ((Npos (XI (XO (XI (XI (XO (XI (XO XH)))))))) :: ((Npos (XI
+    (XI (XO (XO (XO (XO XH))))))) :: ((Npos (XI (XI (XO (XO (XO
+    XH)))))) :: ((Npos (XI (XI (XO (XI (XI (XI (XO XH)))))))) :: ((Npos (XO
+    (XO (XO (XI (XO XH)))))) :: ((Npos (XI (XO (XO (XO (XO (XI (XO
+    XH)))))))) :: ((Npos (XO (XI (XI (XI (XO XH)))))) :: ((Npos (XO (XI (XI
+    (XO (XO (XO (XI XH)))))))) :: ((Npos (XI (XI (XI (XO (XO (XO (XI
+    XH)))))))) :: ((Npos (XO (XO (XI (XI (XI (XO XH))))))) :: ((Npos (XI (XO
+    (XO (XI (XO (XI (XI XH)))))))) :: ((Npos (XO (XO (XI (XI (XO (XI (XI
+    XH)))))))) :: ((Npos (XI (XO (XI (XO (XO XH)))))) :: ((Npos (XI (XI (XI
+    (XO (XI (XO (XI XH)))))))) :: ((Npos (XI (XI (XI (XO (XI (XI
+    XH))))))) :: ((Npos (XO (XI (XI (XO (XO (XO XH))))))) :: ((Npos (XI (XO
+    (XI (XO (XO (XO (XI XH)))))))) :: ((Npos (XO (XI (XI (XI (XO (XI
+    XH))))))) :: ((Npos (XI (XO (XI (XI XH))))) :: ((Npos (XI (XO (XI (XI (XO
+    (XI (XI XH)))))))) :: []))))))))))))))))))))))))))))))))) :: (((Npos (XO
+    (XO (XO XH)))), ((Npos (XO (XO (XI (XO (XO (XI XH))))))) :: ((Npos (XI
+    (XO (XI (XI (XI (XO (XI XH)))))))) :: ((Npos (XO (XO (XI (XO (XI (XO
+    XH))))))) :: ((Npos (XO (XO (XO (XO (XO (XO (XO XH)))))))) :: ((Npos (XI
+    (XO (XI (XO (XI (XO XH))))))) :: ((Npos (XO (XI (XO (XO (XO
+    XH)))))) :: ((Npos (XI (XO (XI (XO (XO (XO (XI XH)))))))) :: ((Npos (XO
+    (XI (XI (XI (XI (XI (XO XH)))))))) :: ((Npos (XO (XI (XO (XI (XO (XO (XO
+    XH)))))))) :: ((Npos (XI (XO (XI (XI (XI (XO (XO XH)))))))) :: ((Npos (XI
+    (XO (XI (XO (XI (XI (XO XH)))))))) :: ((Npos (XO (XO (XI (XI (XI (XO (XO
+    XH)))))))) :: ((Npos (XO (XI (XO (XI (XO (XI (XI XH)))))))) :: ((Npos
+    XH) :: ((Npos (XI (XO XH))) :: ((Npos (XO (XO (XI (XI (XO (XO (XI
+    XH)))))))) :: ((Npos (XO (XO (XO (XO (XI (XI (XI XH)))))))) :: ((Npos (XO
+    (XO (XO (XO (XI (XO (XI XH)))))))) :: ((Npos (XI (XI (XI (XO (XO (XO (XO
+    XH)))))))) :: ((Npos (XO (XI (XI (XO (XO (XO (XO XH)))))))) :: ((Npos (XO
+    (XI (XO (XI (XO (XO (XI XH)))))))) :: ((Npos (XI (XO (XO (XI (XI (XI
+    XH))))))) :: ((Npos (XO (XI (XI (XI (XI (XI (XO XH)))))))) :: ((Npos (XO
+    (XO (XO (XI (XI (XI (XO XH)))))))) :: ((Npos (XI (XI (XO (XI (XO (XO (XI
+    XH)))))))) :: ((Npos (XI (XO (XO (XI (XI (XI XH))))))) :: ((Npos (XO (XO
+    (XO (XI (XO (XI (XI XH)))))))) :: ((Npos (XO (XO (XO (XO (XO (XO (XO
+    XH)))))))) :: ((Npos (XO (XO (XO (XI (XO (XI (XO XH)))))))) :: ((Npos (XI
+    (XI (XI (XO (XI (XO (XI XH)))))))) :: ((Npos (XO (XI (XO (XO (XI
+    XH)))))) :: ((Npos (XI (XO (XI (XI (XO
+    XH)))))) :: []))))))))))))))))))))))))))))))))) :: (((Npos (XI (XO (XO
+    XH)))), ((Npos (XO (XI (XI (XI (XI (XI (XI XH)))))))) :: ((Npos (XI (XO
+    (XI (XO (XI (XI (XO XH)))))))) :: ((Npos (XI (XI (XI (XI (XI (XI (XI
+    XH)))))))) :: ((Npos (XO (XO (XO (XI (XO (XI XH))))))) :: ((Npos (XO (XO
+    (XO (XO (XO XH)))))) :: ((Npos (XO (XI (XO (XO (XO (XI (XI
+    XH)))))))) :: ((Npos (XI (XI (XI (XI (XI (XI (XI XH)))))))) :: ((Npos (XI
+    (XO (XI XH)))) :: ((Npos (XO (XO (XI (XO (XI (XO (XO XH)))))))) :: ((Npos
+    (XI (XI (XO (XO (XO (XO (XO XH)))))))) :: ((Npos (XI (XI (XI (XO (XO (XI
+    (XI XH)))))))) :: ((Npos (XO (XO (XO (XO (XO (XI (XI XH)))))))) :: ((Npos
+    (XO (XI (XI (XO (XI (XO (XI XH)))))))) :: ((Npos (XO (XO (XI (XI (XO
+    XH)))))) :: ((Npos (XI (XO (XO (XO (XO (XO (XO XH)))))))) :: ((Npos (XI
+    (XO (XI (XI (XI (XI XH))))))) :: ((Npos (XO (XO (XI (XO (XO (XO (XO
+    XH)))))))) :: ((Npos (XI (XI (XI (XO (XO (XI XH))))))) :: ((Npos (XI (XO
+    (XO (XI (XO (XO (XO XH)))))))) :: ((Npos (XI (XI (XO (XI (XI (XI (XI
+    XH)))))))) :: ((Npos (XO (XI (XO (XI (XO (XO XH))))))) :: ((Npos (XI (XO
+    (XI (XO (XO (XI (XI XH)))))))) :: ((Npos (XO (XO (XO (XO (XO (XO (XO
+    XH)))))))) :: ((Npos (XO (XO (XO (XI (XO (XO (XI XH)))))))) :: ((Npos (XO
+    (XO (XO (XI (XI (XI XH))))))) :: ((Npos (XO (XI (XI (XO (XO (XO (XO
+    XH)))))))) :: ((Npos (XI (XO (XI (XI (XO (XI XH))))))) :: ((Npos (XI (XO
+    (XI (XO (XI (XO (XO XH)))))))) :: ((Npos (XI (XO (XI (XI (XI (XO (XO
+    XH)))))))) :: ((Npos (XI (XI (XO (XI (XO (XI (XO XH)))))))) :: ((Npos (XI
+    (XO (XI (XO (XI (XO (XI XH)))))))) :: ((Npos (XO (XO (XO (XO (XO (XO (XI
+    XH)))))))) :: []))))))))))))))))))))))))))))))))) :: (((Npos (XO (XI (XO
+    XH)))), ((Npos (XI (XI (XO (XO (XI (XI (XI XH)))))))) :: ((Npos (XI (XI
+    (XI (XO (XI (XO (XI XH)))))))) :: ((Npos (XO (XI (XO (XI (XO (XO (XI
+    XH)))))))) :: ((Npos (XI (XI (XO (XO (XI (XO XH))))))) :: ((Npos (XI (XO
+    (XO (XI (XO (XO XH))))))) :: ((Npos (XI (XO (XI (XI (XI
+    XH)))))) :: ((Npos (XO (XI (XI (XI (XO (XI (XI XH)))))))) :: ((Npos (XO
+    (XI (XO (XI (XI (XO (XI XH)))))))) :: ((Npos (XO (XI (XO (XO (XO (XO (XI
+    XH)))))))) :: ((Npos (XI (XI (XO (XI (XO (XO (XO XH)))))))) :: ((Npos (XO
+    (XO (XO (XI (XI XH)))))) :: ((Npos (XI (XO (XO (XI XH))))) :: ((Npos (XO
+    (XI (XI (XO (XO (XO (XO XH)))))))) :: ((Npos (XO (XO (XO (XI (XO (XI (XO
+    XH)))))))) :: ((Npos (XI (XO (XO (XI (XO (XO XH))))))) :: ((Npos (XO (XO
+    (XO (XO (XO (XO XH))))))) :: ((Npos (XO (XO (XI (XI (XI
+    XH)))))) :: ((Npos (XO (XI (XO (XI (XI (XI (XO XH)))))))) :: ((Npos (XI
+    (XI (XO (XO (XO (XO (XI XH)))))))) :: ((Npos (XO (XI (XO (XO (XI (XO (XI
+    XH)))))))) :: ((Npos (XI (XO (XI (XO (XO (XO (XI XH)))))))) :: ((Npos (XO
+    (XO (XI (XO (XO (XO (XO XH)))))))) :: ((Npos (XI (XI (XI (XO (XI (XI
+    XH))))))) :: ((Npos (XO (XI (XO (XI (XI (XO (XO XH)))))))) :: ((Npos (XO
+    (XO (XO (XO (XI (XI (XI XH)))))))) :: ((Npos (XI (XO (XO (XO (XO (XO (XO
+    XH)))))))) :: ((Npos (XO (XI XH))) :: ((Npos (XO (XI (XO (XI (XI (XO
+    XH))))))) :: ((Npos (XO (XO (XO (XO (XI (XI (XI XH)))))))) :: ((Npos (XO
+    (XO (XI (XI (XO (XI (XO XH)))))))) :: ((Npos (XI (XI (XO (XI (XO (XO
+    XH))))))) :: ((Npos (XI (XI (XO (XO (XI (XO (XO
+    XH)))))))) :: []))))))))))))))))))))))))))))))))) :: (((Npos (XI (XI (XO
+    XH)))), ((Npos (XO (XO (XO (XO (XO XH)))))) :: ((Npos (XI (XI (XO (XO (XO
+    (XO (XO XH)))))))) :: ((Npos (XI (XI (XO (XI (XO (XO XH))))))) :: ((Npos
+    (XI (XI (XO (XI (XI (XI XH))))))) :: ((Npos (XO (XI (XO (XO (XI (XI
+    XH))))))) :: ((Npos (XI (XO (XO (XO (XI (XI (XO XH)))))))) :: ((Npos (XO
+    (XI (XO (XO XH))))) :: ((Npos (XO (XO (XI (XO XH))))) :: ((Npos (XO (XI
+    (XI (XI (XI (XI XH))))))) :: ((Npos (XI (XI (XO (XI XH))))) :: ((Npos (XI
+    (XI (XI (XI (XO XH)))))) :: ((Npos (XO (XO (XI (XO (XI (XI (XO
+    XH)))))))) :: ((Npos (XI (XI (XI (XO (XI (XO XH))))))) :: ((Npos (XO (XO
+    (XO (XI (XI (XI (XO XH)))))))) :: ((Npos (XO (XI (XI (XI (XO (XO
+    XH))))))) :: ((Npos (XO (XO (XI (XO (XI (XI XH))))))) :: ((Npos (XI (XO
+    (XO (XO (XI (XO (XI XH)))))))) :: ((Npos (XI (XI (XO (XO (XO (XI (XO
+    XH)))))))) :: ((Npos (XI (XI (XI XH)))) :: ((Npos (XO (XO XH))) :: ((Npos
+    (XI (XI (XI (XO (XI (XI (XI XH)))))))) :: ((Npos (XI (XI (XI (XO (XI
+    XH)))))) :: ((Npos (XO (XO (XI (XO (XI (XO (XI XH)))))))) :: ((Npos (XO
+    (XI (XI (XO (XI (XI (XI XH)))))))) :: ((Npos (XO (XI (XO (XI (XO
+    XH)))))) :: ((Npos (XO (XI (XI (XO (XO (XI XH))))))) :: ((Npos (XO (XI
+    (XI (XI (XO (XO (XO XH)))))))) :: ((Npos (XI (XO (XI (XO (XI (XO (XO
+    XH)))))))) :: ((Npos (XO (XI (XO (XO (XI (XO XH))))))) :: ((Npos (XO (XI
+    (XO (XO (XI (XO (XI XH)))))))) :: ((Npos (XI (XI (XI (XO (XI (XI (XO
+    XH)))))))) :: ((Npos (XI (XI (XI (XI (XO
+    XH)))))) :: []))))))))))))))))))))))))))))))))) :: [])))))))))))
+
+(** val known_wallets : known_table **)
+
+let known_wallets =
+  known_of gen_known_hashes
+
+(** val out_res : ('a1 -> sx) -> 'a1 res -> sx **)
+
+let out_res f = function
+| Ok a -> f a
+| Err _ ->
+  SA (String ((Ascii (true, false, true, false, false, true, true, false)),
+    (String ((Ascii (false, true, false, false, true, true, true, false)),
+    (String ((Ascii (false, true, false, false, true, true, true, false)),
+    EmptyString))))))
+| Panic _ ->
+  SA (String ((Ascii (false, false, false, false, true, true, true, false)),
+    (String ((Ascii (true, false, false, false, false, true, true, false)),
+    (String ((Ascii (false, true, true, true, false, true, true, false)),
+    (String ((Ascii (true, false, false, true, false, true, true, false)),
+    (String ((Ascii (true, true, false, false, false, true, true, false)),
+    EmptyString))))))))))
+
+(** val opt_bytes : sx -> bytes0 option **)
+
+let opt_bytes = function
+| SBytes b -> Some b
+| _ -> None
+
+(** val table_lookup : bytes0 -> sx list -> bytes0 -> bytes0 **)
+
+let rec table_lookup k0 t dflt =
+  match t with
+  | [] -> dflt
+  | s :: t' ->
+    (match s with
+     | SL l ->
+       (match l with
+        | [] -> table_lookup k0 t' dflt
+        | s0 :: l0 ->
+          (match s0 with
+           | SBytes k' ->
+             (match l0 with
+              | [] -> table_lookup k0 t' dflt
+              | s1 :: l1 ->
+                (match s1 with
+                 | SBytes v ->
+                   (match l1 with
+                    | [] -> if beqb k0 k' then v else table_lookup k0 t' dflt
+                    | _ :: _ -> table_lookup k0 t' dflt)
+                 | _ -> table_lookup k0 t' dflt))
+           | _ -> table_lookup k0 t' dflt))
+     | _ -> table_lookup k0 t' dflt)
+
+(** val zeros32 : bytes0 **)
+
+let zeros32 =
+  repeat N0 (S (S (S (S (S (S (S (S (S (S (S (S (S (S (S (S (S (S (S (S (S (S
+    (S (S (S (S (S (S (S (S (S (S O))))))))))))))))))))))))))))))))
+
+(** val hmac_of : sx list -> bytes0 -> bytes0 -> bytes0 **)
+
+let hmac_of t _ m =
+  table_lookup m t zeros32
+
+(** val verify_of : sx list -> bytes0 -> bytes0 -> bytes0 -> bool **)
+
+let rec verify_of t pk msg0 sig0 =
+  match t with
+  | [] -> false
+  | s :: t' ->
+    (match s with
+     | SL l ->
+       (match l with
+        | [] -> verify_of t' pk msg0 sig0
+        | s0 :: l0 ->
+          (match s0 with
+           | SBytes pk' ->
+             (match l0 with
+              | [] -> verify_of t' pk msg0 sig0
+              | s1 :: l1 ->
+                (match s1 with
+                 | SBytes msg' ->
+                   (match l1 with
+                    | [] -> verify_of t' pk msg0 sig0
+                    | s2 :: l2 ->
+                      (match s2 with
+                       | SB b ->
+                         (match l2 with
+                          | [] ->
+                            if (&&) (beqb pk pk') (beqb msg0 msg')
+                            then b
+                            else verify_of t' pk msg0 sig0
+                          | _ :: _ -> verify_of t' pk msg0 sig0)
+                       | _ -> verify_of t' pk msg0 sig0))
+                 | _ -> verify_of t' pk msg0 sig0))
+           | _ -> verify_of t' pk msg0 sig0))
+     | _ -> verify_of t' pk msg0 sig0)
+
+(** val cell_of_sx : nat -> sx -> cell1 **)
+
+let rec cell_of_sx fuel a =
+  match fuel with
+  | O -> zero_cell
+  | S f ->
+    (match a with
+     | SL l ->
+       (match l with
+        | [] -> zero_cell
+        | s :: l0 ->
+          (match s with
+           | SN ty ->
+             (match l0 with
+              | [] -> zero_cell
+              | s0 :: l1 ->
+                (match s0 with
+                 | SBits b ->
+                   (match l1 with
+                    | [] -> zero_cell
+                    | s1 :: l2 ->
+                      (match s1 with
+                       | SL refs ->
+                         (match l2 with
+                          | [] -> zero_cell
+                          | h :: l3 ->
+                            (match l3 with
+                             | [] ->
+                               Cell1 (ty, b, (map (cell_of_sx f) refs),
+                                 (opt_bytes h))
+                             | _ :: _ -> zero_cell))
+                       | _ -> zero_cell))
+                 | _ -> zero_cell))
+           | _ -> zero_cell))
+     | _ -> zero_cell)
+
+(** val boc_of : sx -> bytes0 -> cell1 list res **)
+
+let boc_of a _ =
+  match a with
+  | SL cells -> Ok (map (cell_of_sx (S (S (S (S (S (S (S (S O))))))))) cells)
+  | _ -> Err eOther
+
+(** val stk_of : sx -> stk **)
+
+let stk_of = function
+| SL l ->
+  (match l with
+   | [] -> StOther
+   | s :: l0 ->
+     (match s with
+      | SA k0 ->
+        (match l0 with
+         | [] -> StOther
+         | s0 :: l1 ->
+           (match s0 with
+            | SZ z0 ->
+              (match l1 with
+               | [] ->
+                 if eqb1 k0 (String ((Ascii (false, false, true, false, true,
+                      true, true, false)), (String ((Ascii (true, false,
+                      false, true, false, true, true, false)), (String
+                      ((Ascii (false, true, true, true, false, true, true,
+                      false)), (String ((Ascii (true, false, false, true,
+                      true, true, true, false)), EmptyString))))))))
+                 then StTiny z0
+                 else if eqb1 k0 (String ((Ascii (true, false, false, true,
+                           false, true, true, false)), (String ((Ascii
+                           (false, true, true, true, false, true, true,
+                           false)), (String ((Ascii (false, false, true,
+                           false, true, true, true, false)), EmptyString))))))
+                      then StInt z0
+                      else StOther
+               | _ :: _ -> StOther)
+            | _ -> StOther))
+      | _ -> StOther))
+| _ -> StOther
+
+(** val exec_of : sx -> exec_result **)
+
+let exec_of = function
+| SL l ->
+  (match l with
+   | [] -> ExErr
+   | s :: l0 ->
+     (match s with
+      | SN code ->
+        (match l0 with
+         | [] -> ExErr
+         | s0 :: l1 ->
+           (match s0 with
+            | SL st ->
+              (match l1 with
+               | [] -> ExRet (code, (map stk_of st))
+               | _ :: _ -> ExErr)
+            | _ -> ExErr))
+      | _ -> ExErr))
+| _ -> ExErr
+
+(** val bool_of : sx -> bool **)
+
+let bool_of = function
+| SB b -> b
+| _ -> false
+
+(** val run_msg : sx -> sx **)
+
+let run_msg = function
+| SL l ->
+  (match l with
+   | [] ->
+     sx_err (String ((Ascii (true, true, false, false, false, true, true,
+       false)), (String ((Ascii (true, false, false, false, true, true,
+       false, false)), (String ((Ascii (true, false, false, true, true, true,
+       false, false)), (String ((Ascii (false, true, true, true, false, true,
+       false, false)), (String ((Ascii (true, false, true, true, false, true,
+       true, false)), (String ((Ascii (true, true, false, false, true, true,
+       true, false)), (String ((Ascii (true, true, true, false, false, true,
+       true, false)), EmptyString))))))))))))))
+   | s :: l0 ->
+     (match s with
+      | SZ wc ->
+        (match l0 with
+         | [] ->
+           sx_err (String ((Ascii (true, true, false, false, false, true,
+             true, false)), (String ((Ascii (true, false, false, false, true,
+             true, false, false)), (String ((Ascii (true, false, false, true,
+             true, true, false, false)), (String ((Ascii (false, true, true,
+             true, false, true, false, false)), (String ((Ascii (true, false,
+             true, true, false, true, true, false)), (String ((Ascii (true,
+             true, false, false, true, true, true, false)), (String ((Ascii
+             (true, true, true, false, false, true, true, false)),
+             EmptyString))))))))))))))
+         | s0 :: l1 ->
+           (match s0 with
+            | SBytes addr ->
+              (match l1 with
+               | [] ->
+                 sx_err (String ((Ascii (true, true, false, false, false,
+                   true, true, false)), (String ((Ascii (true, false, false,
+                   false, true, true, false, false)), (String ((Ascii (true,
+                   false, false, true, true, true, false, false)), (String
+                   ((Ascii (false, true, true, true, false, true, false,
+                   false)), (String ((Ascii (true, false, true, true, false,
+                   true, true, false)), (String ((Ascii (true, true, false,
+                   false, true, true, true, false)), (String ((Ascii (true,
+                   true, true, false, false, true, true, false)),
+                   EmptyString))))))))))))))
+               | s1 :: l2 ->
+                 (match s1 with
+                  | SZ ts ->
+                    (match l2 with
+                     | [] ->
+                       sx_err (String ((Ascii (true, true, false, false,
+                         false, true, true, false)), (String ((Ascii (true,
+                         false, false, false, true, true, false, false)),
+                         (String ((Ascii (true, false, false, true, true,
+                         true, false, false)), (String ((Ascii (false, true,
+                         true, true, false, true, false, false)), (String
+                         ((Ascii (true, false, true, true, false, true, true,
+                         false)), (String ((Ascii (true, true, false, false,
+                         true, true, true, false)), (String ((Ascii (true,
+                         true, true, false, false, true, true, false)),
+                         EmptyString))))))))))))))
+                     | s2 :: l3 ->
+                       (match s2 with
+                        | SBytes dom ->
+                          (match l3 with
+                           | [] ->
+                             sx_err (String ((Ascii (true, true, false,
+                               false, false, true, true, false)), (String
+                               ((Ascii (true, false, false, false, true,
+                               true, false, false)), (String ((Ascii (true,
+                               false, false, true, true, true, false,
+                               false)), (String ((Ascii (false, true, true,
+                               true, false, true, false, false)), (String
+                               ((Ascii (true, false, true, true, false, true,
+                               true, false)), (String ((Ascii (true, true,
+                               false, false, true, true, true, false)),
+                               (String ((Ascii (true, true, true, false,
+                               false, true, true, false)),
+                               EmptyString))))))))))))))
+                           | s3 :: l4 ->
+                             (match s3 with
+                              | SBytes pl ->
+                                (match l4 with
+                                 | [] ->
+                                   SBytes
+                                     (create_message sha256 { m_wc = wc;
+                                       m_addr = addr; m_ts = ts; m_domain =
+                                       dom; m_sig = []; m_payload = pl })
+                                 | _ :: _ ->
+                                   sx_err (String ((Ascii (true, true, false,
+                                     false, false, true, true, false)),
+                                     (String ((Ascii (true, false, false,
+                                     false, true, true, false, false)),
+                                     (String ((Ascii (true, false, false,
+                                     true, true, true, false, false)),
+                                     (String ((Ascii (false, true, true,
+                                     true, false, true, false, false)),
+                                     (String ((Ascii (true, false, true,
+                                     true, false, true, true, false)),
+                                     (String ((Ascii (true, true, false,
+                                     false, true, true, true, false)),
+                                     (String ((Ascii (true, true, true,
+                                     false, false, true, true, false)),
+                                     EmptyString)))))))))))))))
+                              | _ ->
+                                sx_err (String ((Ascii (true, true, false,
+                                  false, false, true, true, false)), (String
+                                  ((Ascii (true, false, false, false, true,
+                                  true, false, false)), (String ((Ascii
+                                  (true, false, false, true, true, true,
+                                  false, false)), (String ((Ascii (false,
+                                  true, true, true, false, true, false,
+                                  false)), (String ((Ascii (true, false,
+                                  true, true, false, true, true, false)),
+                                  (String ((Ascii (true, true, false, false,
+                                  true, true, true, false)), (String ((Ascii
+                                  (true, true, true, false, false, true,
+                                  true, false)), EmptyString))))))))))))))))
+                        | _ ->
+                          sx_err (String ((Ascii (true, true, false, false,
+                            false, true, true, false)), (String ((Ascii
+                            (true, false, false, false, true, true, false,
+                            false)), (String ((Ascii (true, false, false,
+                            true, true, true, false, false)), (String ((Ascii
+                            (false, true, true, true, false, true, false,
+                            false)), (String ((Ascii (true, false, true,
+                            true, false, true, true, false)), (String ((Ascii
+                            (true, true, false, false, true, true, true,
+                            false)), (String ((Ascii (true, true, true,
+                            false, false, true, true, false)),
+                            EmptyString))))))))))))))))
+                  | _ ->
+                    sx_err (String ((Ascii (true, true, false, false, false,
+                      true, true, false)), (String ((Ascii (true, false,
+                      false, false, true, true, false, false)), (String
+                      ((Ascii (true, false, false, true, true, true, false,
+                      false)), (String ((Ascii (false, true, true, true,
+                      false, true, false, false)), (String ((Ascii (true,
+                      false, true, true, false, true, true, false)), (String
+                      ((Ascii (true, true, false, false, true, true, true,
+                      false)), (String ((Ascii (true, true, true, false,
+                      false, true, true, false)), EmptyString))))))))))))))))
+            | _ ->
+              sx_err (String ((Ascii (true, true, false, false, false, true,
+                true, false)), (String ((Ascii (true, false, false, false,
+                true, true, false, false)), (String ((Ascii (true, false,
+                false, true, true, true, false, false)), (String ((Ascii
+                (false, true, true, true, false, true, false, false)),
+                (String ((Ascii (true, false, true, true, false, true, true,
+                false)), (String ((Ascii (true, true, false, false, true,
+                true, true, false)), (String ((Ascii (true, true, true,
+                false, false, true, true, false)), EmptyString))))))))))))))))
+      | _ ->
+        sx_err (String ((Ascii (true, true, false, false, false, true, true,
+          false)), (String ((Ascii (true, false, false, false, true, true,
+          false, false)), (String ((Ascii (true, false, false, true, true,
+          true, false, false)), (String ((Ascii (false, true, true, true,
+          false, true, false, false)), (String ((Ascii (true, false, true,
+          true, false, true, true, false)), (String ((Ascii (true, true,
+          false, false, true, true, true, false)), (String ((Ascii (true,
+          true, true, false, false, true, true, false)),
+          EmptyString))))))))))))))))
+| _ ->
+  sx_err (String ((Ascii (true, true, false, false, false, true, true,
+    false)), (String ((Ascii (true, false, false, false, true, true, false,
+    false)), (String ((Ascii (true, false, false, true, true, true, false,
+    false)), (String ((Ascii (false, true, true, true, false, true, false,
+    false)), (String ((Ascii (true, false, true, true, false, true, true,
+    false)), (String ((Ascii (true, true, false, false, true, true, true,
+    false)), (String ((Ascii (true, true, true, false, false, true, true,
+    false)), EmptyString))))))))))))))
+
+(** val sx_acc : (z * bytes0) -> sx **)
+
+let sx_acc x =
+  SL ((SZ (fst x)) :: ((SBytes (snd x)) :: []))
+
+(** val run_conv : sx -> sx **)
+
+let run_conv = function
+| SL l ->
+  (match l with
+   | [] ->
+     sx_err (String ((Ascii (true, true, false, false, false, true, true,
+       false)), (String ((Ascii (true, false, false, false, true, true,
+       false, false)), (String ((Ascii (true, false, false, true, true, true,
+       false, false)), (String ((Ascii (false, true, true, true, false, true,
+       false, false)), (String ((Ascii (true, true, false, false, false,
+       true, true, false)), (String ((Ascii (true, true, true, true, false,
+       true, true, false)), (String ((Ascii (false, true, true, true, false,
+       true, true, false)), (String ((Ascii (false, true, true, false, true,
+       true, true, false)), EmptyString))))))))))))))))
+   | s :: l0 ->
+     (match s with
+      | SBytes addr ->
+        (match l0 with
+         | [] ->
+           sx_err (String ((Ascii (true, true, false, false, false, true,
+             true, false)), (String ((Ascii (true, false, false, false, true,
+             true, false, false)), (String ((Ascii (true, false, false, true,
+             true, true, false, false)), (String ((Ascii (false, true, true,
+             true, false, true, false, false)), (String ((Ascii (true, true,
+             false, false, false, true, true, false)), (String ((Ascii (true,
+             true, true, true, false, true, true, false)), (String ((Ascii
+             (false, true, true, true, false, true, true, false)), (String
+             ((Ascii (false, true, true, false, true, true, true, false)),
+             EmptyString))))))))))))))))
+         | s0 :: l1 ->
+           (match s0 with
+            | SBytes sigt ->
+              (match l1 with
+               | [] ->
+                 sx_err (String ((Ascii (true, true, false, false, false,
+                   true, true, false)), (String ((Ascii (true, false, false,
+                   false, true, true, false, false)), (String ((Ascii (true,
+                   false, false, true, true, true, false, false)), (String
+                   ((Ascii (false, true, true, true, false, true, false,
+                   false)), (String ((Ascii (true, true, false, false, false,
+                   true, true, false)), (String ((Ascii (true, true, true,
+                   true, false, true, true, false)), (String ((Ascii (false,
+                   true, true, true, false, true, true, false)), (String
+                   ((Ascii (false, true, true, false, true, true, true,
+                   false)), EmptyString))))))))))))))))
+               | b64o :: l2 ->
+                 (match l2 with
+                  | [] ->
+                    let tp = { p_address = addr; p_ts = Z0; p_domain = [];
+                      p_signature = sigt; p_payload = []; p_state_init = [] }
+                    in
+                    SL
+                    ((out_res (fun p -> SL ((SZ p.m_wc) :: ((SBytes
+                       p.m_addr) :: ((SBytes p.m_sig) :: []))))
+                       (convert (fun _ -> opt_bytes b64o) tp)) :: ((match 
+                                                                    index_colon
+                                                                    addr with
+                                                                    | Some _ ->
+                                                                    out_res
+                                                                    sx_acc
+                                                                    (parse_account_id
+                                                                    addr)
+                                                                    | None ->
+                                                                    SA
+                                                                    (String
+                                                                    ((Ascii
+                                                                    (false,
+                                                                    true,
+                                                                    true,
+                                                                    true,
+                                                                    false,
+                                                                    true,
+                                                                    true,
+                                                                    false)),
+                                                                    (String
+                                                                    ((Ascii
+                                                                    (true,
+                                                                    true,
+                                                                    true,
+                                                                    true,
+                                                                    false,
+                                                                    true,
+                                                                    true,
+                                                                    false)),
+                                                                    (String
+                                                                    ((Ascii
+                                                                    (true,
+                                                                    true,
+                                                                    false,
+                                                                    false,
+                                                                    false,
+                                                                    true,
+                                                                    true,
+                                                                    false)),
+                                                                    (String
+                                                                    ((Ascii
+                                                                    (true,
+                                                                    true,
+                                                                    true,
+                                                                    true,
+                                                                    false,
+                                                                    true,
+                                                                    true,
+                                                                    false)),
+                                                                    (String
+                                                                    ((Ascii
+                                                                    (false,
+                                                                    false,
+                                                                    true,
+                                                                    true,
+                                                                    false,
+                                                                    true,
+                                                                    true,
+                                                                    false)),
+                                                                    (String
+                                                                    ((Ascii
+                                                                    (true,
+                                                                    true,
+                                                                    true,
+                                                                    true,
+                                                                    false,
+                                                                    true,
+                                                                    true,
+                                                                    false)),
+                                                                    (String
+                                                                    ((Ascii
+                                                                    (false,
+                                                                    true,
+                                                                    true,
+                                                                    true,
+                                                                    false,
+                                                                    true,
+                                                                    true,
+                                                                    false)),
+                                                                    EmptyString))))))))))))))) :: []))
+                  | _ :: _ ->
+                    sx_err (String ((Ascii (true, true, false, false, false,
+                      true, true, false)), (String ((Ascii (true, false,
+                      false, false, true, true, false, false)), (String
+                      ((Ascii (true, false, false, true, true, true, false,
+                      false)), (String ((Ascii (false, true, true, true,
+                      false, true, false, false)), (String ((Ascii (true,
+                      true, false, false, false, true, true, false)), (String
+                      ((Ascii (true, true, true, true, false, true, true,
+                      false)), (String ((Ascii (false, true, true, true,
+                      false, true, true, false)), (String ((Ascii (false,
+                      true, true, false, true, true, true, false)),
+                      EmptyString))))))))))))))))))
+            | _ ->
+              sx_err (String ((Ascii (true, true, false, false, false, true,
+                true, false)), (String ((Ascii (true, false, false, false,
+                true, true, false, false)), (String ((Ascii (true, false,
+                false, true, true, true, false, false)), (String ((Ascii
+                (false, true, true, true, false, true, false, false)),
+                (String ((Ascii (true, true, false, false, false, true, true,
+                false)), (String ((Ascii (true, true, true, true, false,
+                true, true, false)), (String ((Ascii (false, true, true,
+                true, false, true, true, false)), (String ((Ascii (false,
+                true, true, false, true, true, true, false)),
+                EmptyString))))))))))))))))))
+      | _ ->
+        sx_err (String ((Ascii (true, true, false, false, false, true, true,
+          false)), (String ((Ascii (true, false, false, false, true, true,
+          false, false)), (String ((Ascii (true, false, false, true, true,
+          true, false, false)), (String ((Ascii (false, true, true, true,
+          false, true, false, false)), (String ((Ascii (true, true, false,
+          false, false, true, true, false)), (String ((Ascii (true, true,
+          true, true, false, true, true, false)), (String ((Ascii (false,
+          true, true, true, false, true, true, false)), (String ((Ascii
+          (false, true, true, false, true, true, true, false)),
+          EmptyString))))))))))))))))))
+| _ ->
+  sx_err (String ((Ascii (true, true, false, false, false, true, true,
+    false)), (String ((Ascii (true, false, false, false, true, true, false,
+    false)), (String ((Ascii (true, false, false, true, true, true, false,
+    false)), (String ((Ascii (false, true, true, true, false, true, false,
+    false)), (String ((Ascii (true, true, false, false, false, true, true,
+    false)), (String ((Ascii (true, true, true, true, false, true, true,
+    false)), (String ((Ascii (false, true, true, true, false, true, true,
+    false)), (String ((Ascii (false, true, true, false, true, true, true,
+    false)), EmptyString))))))))))))))))
+
+(** val run_payload : sx -> sx **)
+
+let run_payload = function
+| SL l ->
+  (match l with
+   | [] ->
+     sx_err (String ((Ascii (true, true, false, false, false, true, true,
+       false)), (String ((Ascii (true, false, false, false, true, true,
+       false, false)), (String ((Ascii (true, false, false, true, true, true,
+       false, false)), (String ((Ascii (false, true, true, true, false, true,
+       false, false)), (String ((Ascii (false, false, false, false, true,
+       true, true, false)), (String ((Ascii (true, false, false, false,
+       false, true, true, false)), (String ((Ascii (true, false, false, true,
+       true, true, true, false)), (String ((Ascii (false, false, true, true,
+       false, true, true, false)), (String ((Ascii (true, true, true, true,
+       false, true, true, false)), (String ((Ascii (true, false, false,
+       false, false, true, true, false)), (String ((Ascii (false, false,
+       true, false, false, true, true, false)),
+       EmptyString))))))))))))))))))))))
+   | s :: l0 ->
+     (match s with
+      | SBytes secret ->
+        (match l0 with
+         | [] ->
+           sx_err (String ((Ascii (true, true, false, false, false, true,
+             true, false)), (String ((Ascii (true, false, false, false, true,
+             true, false, false)), (String ((Ascii (true, false, false, true,
+             true, true, false, false)), (String ((Ascii (false, true, true,
+             true, false, true, false, false)), (String ((Ascii (false,
+             false, false, false, true, true, true, false)), (String ((Ascii
+             (true, false, false, false, false, true, true, false)), (String
+             ((Ascii (true, false, false, true, true, true, true, false)),
+             (String ((Ascii (false, false, true, true, false, true, true,
+             false)), (String ((Ascii (true, true, true, true, false, true,
+             true, false)), (String ((Ascii (true, false, false, false,
+             false, true, true, false)), (String ((Ascii (false, false, true,
+             false, false, true, true, false)),
+             EmptyString))))))))))))))))))))))
+         | s0 :: l1 ->
+           (match s0 with
+            | SZ lt ->
+              (match l1 with
+               | [] ->
+                 sx_err (String ((Ascii (true, true, false, false, false,
+                   true, true, false)), (String ((Ascii (true, false, false,
+                   false, true, true, false, false)), (String ((Ascii (true,
+                   false, false, true, true, true, false, false)), (String
+                   ((Ascii (false, true, true, true, false, true, false,
+                   false)), (String ((Ascii (false, false, false, false,
+                   true, true, true, false)), (String ((Ascii (true, false,
+                   false, false, false, true, true, false)), (String ((Ascii
+                   (true, false, false, true, true, true, true, false)),
+                   (String ((Ascii (false, false, true, true, false, true,
+                   true, false)), (String ((Ascii (true, true, true, true,
+                   false, true, true, false)), (String ((Ascii (true, false,
+                   false, false, false, true, true, false)), (String ((Ascii
+                   (false, false, true, false, false, true, true, false)),
+                   EmptyString))))))))))))))))))))))
+               | s1 :: l2 ->
+                 (match s1 with
+                  | SZ now ->
+                    (match l2 with
+                     | [] ->
+                       sx_err (String ((Ascii (true, true, false, false,
+                         false, true, true, false)), (String ((Ascii (true,
+                         false, false, false, true, true, false, false)),
+                         (String ((Ascii (true, false, false, true, true,
+                         true, false, false)), (String ((Ascii (false, true,
+                         true, true, false, true, false, false)), (String
+                         ((Ascii (false, false, false, false, true, true,
+                         true, false)), (String ((Ascii (true, false, false,
+                         false, false, true, true, false)), (String ((Ascii
+                         (true, false, false, true, true, true, true,
+                         false)), (String ((Ascii (false, false, true, true,
+                         false, true, true, false)), (String ((Ascii (true,
+                         true, true, true, false, true, true, false)),
+                         (String ((Ascii (true, false, false, false, false,
+                         true, true, false)), (String ((Ascii (false, false,
+                         true, false, false, true, true, false)),
+                         EmptyString))))))))))))))))))))))
+                     | s2 :: l3 ->
+                       (match s2 with
+                        | SBytes pl ->
+                          (match l3 with
+                           | [] ->
+                             sx_err (String ((Ascii (true, true, false,
+                               false, false, true, true, false)), (String
+                               ((Ascii (true, false, false, false, true,
+                               true, false, false)), (String ((Ascii (true,
+                               false, false, true, true, true, false,
+                               false)), (String ((Ascii (false, true, true,
+                               true, false, true, false, false)), (String
+                               ((Ascii (false, false, false, false, true,
+                               true, true, false)), (String ((Ascii (true,
+                               false, false, false, false, true, true,
+                               false)), (String ((Ascii (true, false, false,
+                               true, true, true, true, false)), (String
+                               ((Ascii (false, false, true, true, false,
+                               true, true, false)), (String ((Ascii (true,
+                               true, true, true, false, true, true, false)),
+                               (String ((Ascii (true, false, false, false,
+                               false, true, true, false)), (String ((Ascii
+                               (false, false, true, false, false, true, true,
+                               false)), EmptyString))))))))))))))))))))))
+                           | s3 :: l4 ->
+                             (match s3 with
+                              | SL ht ->
+                                (match l4 with
+                                 | [] ->
+                                   out_res (fun x -> SB x)
+                                     (check_payload (hmac_of ht) secret
+                                       (lifetime_or_default lt
+                                         defaultLifeTimePayload) now pl)
+                                 | _ :: _ ->
+                                   sx_err (String ((Ascii (true, true, false,
+                                     false, false, true, true, false)),
+                                     (String ((Ascii (true, false, false,
+                                     false, true, true, false, false)),
+                                     (String ((Ascii (true, false, false,
+                                     true, true, true, false, false)),
+                                     (String ((Ascii (false, true, true,
+                                     true, false, true, false, false)),
+                                     (String ((Ascii (false, false, false,
+                                     false, true, true, true, false)),
+                                     (String ((Ascii (true, false, false,
+                                     false, false, true, true, false)),
+                                     (String ((Ascii (true, false, false,
+                                     true, true, true, true, false)), (String
+                                     ((Ascii (false, false, true, true,
+                                     false, true, true, false)), (String
+                                     ((Ascii (true, true, true, true, false,
+                                     true, true, false)), (String ((Ascii
+                                     (true, false, false, false, false, true,
+                                     true, false)), (String ((Ascii (false,
+                                     false, true, false, false, true, true,
+                                     false)),
+                                     EmptyString)))))))))))))))))))))))
+                              | _ ->
+                                sx_err (String ((Ascii (true, true, false,
+                                  false, false, true, true, false)), (String
+                                  ((Ascii (true, false, false, false, true,
+                                  true, false, false)), (String ((Ascii
+                                  (true, false, false, true, true, true,
+                                  false, false)), (String ((Ascii (false,
+                                  true, true, true, false, true, false,
+                                  false)), (String ((Ascii (false, false,
+                                  false, false, true, true, true, false)),
+                                  (String ((Ascii (true, false, false, false,
+                                  false, true, true, false)), (String ((Ascii
+                                  (true, false, false, true, true, true,
+                                  true, false)), (String ((Ascii (false,
+                                  false, true, true, false, true, true,
+                                  false)), (String ((Ascii (true, true, true,
+                                  true, false, true, true, false)), (String
+                                  ((Ascii (true, false, false, false, false,
+                                  true, true, false)), (String ((Ascii
+                                  (false, false, true, false, false, true,
+                                  true, false)),
+                                  EmptyString))))))))))))))))))))))))
+                        | _ ->
+                          sx_err (String ((Ascii (true, true, false, false,
+                            false, true, true, false)), (String ((Ascii
+                            (true, false, false, false, true, true, false,
+                            false)), (String ((Ascii (true, false, false,
+                            true, true, true, false, false)), (String ((Ascii
+                            (false, true, true, true, false, true, false,
+                            false)), (String ((Ascii (false, false, false,
+                            false, true, true, true, false)), (String ((Ascii
+                            (true, false, false, false, false, true, true,
+                            false)), (String ((Ascii (true, false, false,
+                            true, true, true, true, false)), (String ((Ascii
+                            (false, false, true, true, false, true, true,
+                            false)), (String ((Ascii (true, true, true, true,
+                            false, true, true, false)), (String ((Ascii
+                            (true, false, false, false, false, true, true,
+                            false)), (String ((Ascii (false, false, true,
+                            false, false, true, true, false)),
+                            EmptyString))))))))))))))))))))))))
+                  | _ ->
+                    sx_err (String ((Ascii (true, true, false, false, false,
+                      true, true, false)), (String ((Ascii (true, false,
+                      false, false, true, true, false, false)), (String
+                      ((Ascii (true, false, false, true, true, true, false,
+                      false)), (String ((Ascii (false, true, true, true,
+                      false, true, false, false)), (String ((Ascii (false,
+                      false, false, false, true, true, true, false)), (String
+                      ((Ascii (true, false, false, false, false, true, true,
+                      false)), (String ((Ascii (true, false, false, true,
+                      true, true, true, false)), (String ((Ascii (false,
+                      false, true, true, false, true, true, false)), (String
+                      ((Ascii (true, true, true, true, false, true, true,
+                      false)), (String ((Ascii (true, false, false, false,
+                      false, true, true, false)), (String ((Ascii (false,
+                      false, true, false, false, true, true, false)),
+                      EmptyString))))))))))))))))))))))))
+            | _ ->
+              sx_err (String ((Ascii (true, true, false, false, false, true,
+                true, false)), (String ((Ascii (true, false, false, false,
+                true, true, false, false)), (String ((Ascii (true, false,
+                false, true, true, true, false, false)), (String ((Ascii
+                (false, true, true, true, false, true, false, false)),
+                (String ((Ascii (false, false, false, false, true, true,
+                true, false)), (String ((Ascii (true, false, false, false,
+                false, true, true, false)), (String ((Ascii (true, false,
+                false, true, true, true, true, false)), (String ((Ascii
+                (false, false, true, true, false, true, true, false)),
+                (String ((Ascii (true, true, true, true, false, true, true,
+                false)), (String ((Ascii (true, false, false, false, false,
+                true, true, false)), (String ((Ascii (false, false, true,
+                false, false, true, true, false)),
+                EmptyString))))))))))))))))))))))))
+      | _ ->
+        sx_err (String ((Ascii (true, true, false, false, false, true, true,
+          false)), (String ((Ascii (true, false, false, false, true, true,
+          false, false)), (String ((Ascii (true, false, false, true, true,
+          true, false, false)), (String ((Ascii (false, true, true, true,
+          false, true, false, false)), (String ((Ascii (false, false, false,
+          false, true, true, true, false)), (String ((Ascii (true, false,
+          false, false, false, true, true, false)), (String ((Ascii (true,
+          false, false, true, true, true, true, false)), (String ((Ascii
+          (false, false, true, true, false, true, true, false)), (String
+          ((Ascii (true, true, true, true, false, true, true, false)),
+          (String ((Ascii (true, false, false, false, false, true, true,
+          false)), (String ((Ascii (false, false, true, false, false, true,
+          true, false)), EmptyString))))))))))))))))))))))))
+| _ ->
+  sx_err (String ((Ascii (true, true, false, false, false, true, true,
+    false)), (String ((Ascii (true, false, false, false, true, true, false,
+    false)), (String ((Ascii (true, false, false, true, true, true, false,
+    false)), (String ((Ascii (false, true, true, true, false, true, false,
+    false)), (String ((Ascii (false, false, false, false, true, true, true,
+    false)), (String ((Ascii (true, false, false, false, false, true, true,
+    false)), (String ((Ascii (true, false, false, true, true, true, true,
+    false)), (String ((Ascii (false, false, true, true, false, true, true,
+    false)), (String ((Ascii (true, true, true, true, false, true, true,
+    false)), (String ((Ascii (true, false, false, false, false, true, true,
+    false)), (String ((Ascii (false, false, true, false, false, true, true,
+    false)), EmptyString))))))))))))))))))))))
+
+(** val run_pubkey : sx -> sx **)
+
+let run_pubkey a =
+  match get_wallet_pubkey (exec_of a) with
+  | Some k0 -> SBytes k0
+  | None ->
+    SA (String ((Ascii (true, false, true, false, false, true, true, false)),
+      (String ((Ascii (false, true, false, false, true, true, true, false)),
+      (String ((Ascii (false, true, false, false, true, true, true, false)),
+      EmptyString))))))
+
+(** val run_stateinit : sx -> sx **)
+
+let run_stateinit = function
+| SL l ->
+  (match l with
+   | [] ->
+     sx_err (String ((Ascii (true, true, false, false, false, true, true,
+       false)), (String ((Ascii (true, false, false, false, true, true,
+       false, false)), (String ((Ascii (true, false, false, true, true, true,
+       false, false)), (String ((Ascii (false, true, true, true, false, true,
+       false, false)), (String ((Ascii (true, true, false, false, true, true,
+       true, false)), (String ((Ascii (false, false, true, false, true, true,
+       true, false)), (String ((Ascii (true, false, false, false, false,
+       true, true, false)), (String ((Ascii (false, false, true, false, true,
+       true, true, false)), (String ((Ascii (true, false, true, false, false,
+       true, true, false)), (String ((Ascii (true, false, false, true, false,
+       true, true, false)), (String ((Ascii (false, true, true, true, false,
+       true, true, false)), (String ((Ascii (true, false, false, true, false,
+       true, true, false)), (String ((Ascii (false, false, true, false, true,
+       true, true, false)), EmptyString))))))))))))))))))))))))))
+   | s :: l0 ->
+     (match s with
+      | SBytes addr ->
+        (match l0 with
+         | [] ->
+           sx_err (String ((Ascii (true, true, false, false, false, true,
+             true, false)), (String ((Ascii (true, false, false, false, true,
+             true, false, false)), (String ((Ascii (true, false, false, true,
+             true, true, false, false)), (String ((Ascii (false, true, true,
+             true, false, true, false, false)), (String ((Ascii (true, true,
+             false, false, true, true, true, false)), (String ((Ascii (false,
+             false, true, false, true, true, true, false)), (String ((Ascii
+             (true, false, false, false, false, true, true, false)), (String
+             ((Ascii (false, false, true, false, true, true, true, false)),
+             (String ((Ascii (true, false, true, false, false, true, true,
+             false)), (String ((Ascii (true, false, false, true, false, true,
+             true, false)), (String ((Ascii (false, true, true, true, false,
+             true, true, false)), (String ((Ascii (true, false, false, true,
+             false, true, true, false)), (String ((Ascii (false, false, true,
+             false, true, true, true, false)),
+             EmptyString))))))))))))))))))))))))))
+         | s0 :: l1 ->
+           (match s0 with
+            | SBytes si ->
+              (match l1 with
+               | [] ->
+                 sx_err (String ((Ascii (true, true, false, false, false,
+                   true, true, false)), (String ((Ascii (true, false, false,
+                   false, true, true, false, false)), (String ((Ascii (true,
+                   false, false, true, true, true, false, false)), (String
+                   ((Ascii (false, true, true, true, false, true, false,
+                   false)), (String ((Ascii (true, true, false, false, true,
+                   true, true, false)), (String ((Ascii (false, false, true,
+                   false, true, true, true, false)), (String ((Ascii (true,
+                   false, false, false, false, true, true, false)), (String
+                   ((Ascii (false, false, true, false, true, true, true,
+                   false)), (String ((Ascii (true, false, true, false, false,
+                   true, true, false)), (String ((Ascii (true, false, false,
+                   true, false, true, true, false)), (String ((Ascii (false,
+                   true, true, true, false, true, true, false)), (String
+                   ((Ascii (true, false, false, true, false, true, true,
+                   false)), (String ((Ascii (false, false, true, false, true,
+                   true, true, false)), EmptyString))))))))))))))))))))))))))
+               | bo :: l2 ->
+                 (match l2 with
+                  | [] ->
+                    sx_err (String ((Ascii (true, true, false, false, false,
+                      true, true, false)), (String ((Ascii (true, false,
+                      false, false, true, true, false, false)), (String
+                      ((Ascii (true, false, false, true, true, true, false,
+                      false)), (String ((Ascii (false, true, true, true,
+                      false, true, false, false)), (String ((Ascii (true,
+                      true, false, false, true, true, true, false)), (String
+                      ((Ascii (false, false, true, false, true, true, true,
+                      false)), (String ((Ascii (true, false, false, false,
+                      false, true, true, false)), (String ((Ascii (false,
+                      false, true, false, true, true, true, false)), (String
+                      ((Ascii (true, false, true, false, false, true, true,
+                      false)), (String ((Ascii (true, false, false, true,
+                      false, true, true, false)), (String ((Ascii (false,
+                      true, true, true, false, true, true, false)), (String
+                      ((Ascii (true, false, false, true, false, true, true,
+                      false)), (String ((Ascii (false, false, true, false,
+                      true, true, true, false)),
+                      EmptyString))))))))))))))))))))))))))
+                  | lo :: l3 ->
+                    (match l3 with
+                     | [] ->
+                       sx_err (String ((Ascii (true, true, false, false,
+                         false, true, true, false)), (String ((Ascii (true,
+                         false, false, false, true, true, false, false)),
+                         (String ((Ascii (true, false, false, true, true,
+                         true, false, false)), (String ((Ascii (false, true,
+                         true, true, false, true, false, false)), (String
+                         ((Ascii (true, true, false, false, true, true, true,
+                         false)), (String ((Ascii (false, false, true, false,
+                         true, true, true, false)), (String ((Ascii (true,
+                         false, false, false, false, true, true, false)),
+                         (String ((Ascii (false, false, true, false, true,
+                         true, true, false)), (String ((Ascii (true, false,
+                         true, false, false, true, true, false)), (String
+                         ((Ascii (true, false, false, true, false, true,
+                         true, false)), (String ((Ascii (false, true, true,
+                         true, false, true, true, false)), (String ((Ascii
+                         (true, false, false, true, false, true, true,
+                         false)), (String ((Ascii (false, false, true, false,
+                         true, true, true, false)),
+                         EmptyString))))))))))))))))))))))))))
+                     | eo :: l4 ->
+                       (match l4 with
+                        | [] ->
+                          let boc = boc_of bo in
+                          SL
+                          ((out_res (fun x -> SB x)
+                             (compare_state_init boc addr si)) :: ((out_res
+                                                                    (fun x ->
+                                                                    SBytes x)
+                                                                    (parse_state_init_key
+                                                                    boc
+                                                                    (fun _ ->
+                                                                    bool_of lo)
+                                                                    (fun _ ->
+                                                                    bool_of eo)
+                                                                    known_wallets
+                                                                    si)) :: []))
+                        | _ :: _ ->
+                          sx_err (String ((Ascii (true, true, false, false,
+                            false, true, true, false)), (String ((Ascii
+                            (true, false, false, false, true, true, false,
+                            false)), (String ((Ascii (true, false, false,
+                            true, true, true, false, false)), (String ((Ascii
+                            (false, true, true, true, false, true, false,
+                            false)), (String ((Ascii (true, true, false,
+                            false, true, true, true, false)), (String ((Ascii
+                            (false, false, true, false, true, true, true,
+                            false)), (String ((Ascii (true, false, false,
+                            false, false, true, true, false)), (String
+                            ((Ascii (false, false, true, false, true, true,
+                            true, false)), (String ((Ascii (true, false,
+                            true, false, false, true, true, false)), (String
+                            ((Ascii (true, false, false, true, false, true,
+                            true, false)), (String ((Ascii (false, true,
+                            true, true, false, true, true, false)), (String
+                            ((Ascii (true, false, false, true, false, true,
+                            true, false)), (String ((Ascii (false, false,
+                            true, false, true, true, true, false)),
+                            EmptyString))))))))))))))))))))))))))))))
+            | _ ->
+              sx_err (String ((Ascii (true, true, false, false, false, true,
+                true, false)), (String ((Ascii (true, false, false, false,
+                true, true, false, false)), (String ((Ascii (true, false,
+                false, true, true, true, false, false)), (String ((Ascii
+                (false, true, true, true, false, true, false, false)),
+                (String ((Ascii (true, true, false, false, true, true, true,
+                false)), (String ((Ascii (false, false, true, false, true,
+                true, true, false)), (String ((Ascii (true, false, false,
+                false, false, true, true, false)), (String ((Ascii (false,
+                false, true, false, true, true, true, false)), (String
+                ((Ascii (true, false, true, false, false, true, true,
+                false)), (String ((Ascii (true, false, false, true, false,
+                true, true, false)), (String ((Ascii (false, true, true,
+                true, false, true, true, false)), (String ((Ascii (true,
+                false, false, true, false, true, true, false)), (String
+                ((Ascii (false, false, true, false, true, true, true,
+                false)), EmptyString))))))))))))))))))))))))))))
+      | _ ->
+        sx_err (String ((Ascii (true, true, false, false, false, true, true,
+          false)), (String ((Ascii (true, false, false, false, true, true,
+          false, false)), (String ((Ascii (true, false, false, true, true,
+          true, false, false)), (String ((Ascii (false, true, true, true,
+          false, true, false, false)), (String ((Ascii (true, true, false,
+          false, true, true, true, false)), (String ((Ascii (false, false,
+          true, false, true, true, true, false)), (String ((Ascii (true,
+          false, false, false, false, true, true, false)), (String ((Ascii
+          (false, false, true, false, true, true, true, false)), (String
+          ((Ascii (true, false, true, false, false, true, true, false)),
+          (String ((Ascii (true, false, false, true, false, true, true,
+          false)), (String ((Ascii (false, true, true, true, false, true,
+          true, false)), (String ((Ascii (true, false, false, true, false,
+          true, true, false)), (String ((Ascii (false, false, true, false,
+          true, true, true, false)), EmptyString))))))))))))))))))))))))))))
+| _ ->
+  sx_err (String ((Ascii (true, true, false, false, false, true, true,
+    false)), (String ((Ascii (true, false, false, false, true, true, false,
+    false)), (String ((Ascii (true, false, false, true, true, true, false,
+    false)), (String ((Ascii (false, true, true, true, false, true, false,
+    false)), (String ((Ascii (true, true, false, false, true, true, true,
+    false)), (String ((Ascii (false, false, true, false, true, true, true,
+    false)), (String ((Ascii (true, false, false, false, false, true, true,
+    false)), (String ((Ascii (false, false, true, false, true, true, true,
+    false)), (String ((Ascii (true, false, true, false, false, true, true,
+    false)), (String ((Ascii (true, false, false, true, false, true, true,
+    false)), (String ((Ascii (false, true, true, true, false, true, true,
+    false)), (String ((Ascii (true, false, false, true, false, true, true,
+    false)), (String ((Ascii (false, false, true, false, true, true, true,
+    false)), EmptyString))))))))))))))))))))))))))
+
+(** val proof_of_sx : sx -> proof option **)
+
+let proof_of_sx = function
+| SL l ->
+  (match l with
+   | [] -> None
+   | s :: l0 ->
+     (match s with
+      | SBytes addr ->
+        (match l0 with
+         | [] -> None
+         | s0 :: l1 ->
+           (match s0 with
+            | SZ ts ->
+              (match l1 with
+               | [] -> None
+               | s1 :: l2 ->
+                 (match s1 with
+                  | SBytes dom ->
+                    (match l2 with
+                     | [] -> None
+                     | s2 :: l3 ->
+                       (match s2 with
+                        | SBytes sig0 ->
+                          (match l3 with
+                           | [] -> None
+                           | s3 :: l4 ->
+                             (match s3 with
+                              | SBytes pl ->
+                                (match l4 with
+                                 | [] -> None
+                                 | s4 :: l5 ->
+                                   (match s4 with
+                                    | SBytes si ->
+                                      (match l5 with
+                                       | [] ->
+                                         Some { p_address = addr; p_ts = ts;
+                                           p_domain = dom; p_signature =
+                                           sig0; p_payload = pl;
+                                           p_state_init = si }
+                                       | _ :: _ -> None)
+                                    | _ -> None))
+                              | _ -> None))
+                        | _ -> None))
+                  | _ -> None))
+            | _ -> None))
+      | _ -> None))
+| _ -> None
+
+(** val run_check : sx -> sx **)
+
+let run_check = function
+| SL l ->
+  (match l with
+   | [] ->
+     sx_err (String ((Ascii (true, true, false, false, false, true, true,
+       false)), (String ((Ascii (true, false, false, false, true, true,
+       false, false)), (String ((Ascii (true, false, false, true, true, true,
+       false, false)), (String ((Ascii (false, true, true, true, false, true,
+       false, false)), (String ((Ascii (true, true, false, false, false,
+       true, true, false)), (String ((Ascii (false, false, false, true,
+       false, true, true, false)), (String ((Ascii (true, false, true, false,
+       false, true, true, false)), (String ((Ascii (true, true, false, false,
+       false, true, true, false)), (String ((Ascii (true, true, false, true,
+       false, true, true, false)), EmptyString))))))))))))))))))
+   | s :: l0 ->
+     (match s with
+      | SBytes secret ->
+        (match l0 with
+         | [] ->
+           sx_err (String ((Ascii (true, true, false, false, false, true,
+             true, false)), (String ((Ascii (true, false, false, false, true,
+             true, false, false)), (String ((Ascii (true, false, false, true,
+             true, true, false, false)), (String ((Ascii (false, true, true,
+             true, false, true, false, false)), (String ((Ascii (true, true,
+             false, false, false, true, true, false)), (String ((Ascii
+             (false, false, false, true, false, true, true, false)), (String
+             ((Ascii (true, false, true, false, false, true, true, false)),
+             (String ((Ascii (true, true, false, false, false, true, true,
+             false)), (String ((Ascii (true, true, false, true, false, true,
+             true, false)), EmptyString))))))))))))))))))
+         | s0 :: l1 ->
+           (match s0 with
+            | SZ ltp ->
+              (match l1 with
+               | [] ->
+                 sx_err (String ((Ascii (true, true, false, false, false,
+                   true, true, false)), (String ((Ascii (true, false, false,
+                   false, true, true, false, false)), (String ((Ascii (true,
+                   false, false, true, true, true, false, false)), (String
+                   ((Ascii (false, true, true, true, false, true, false,
+                   false)), (String ((Ascii (true, true, false, false, false,
+                   true, true, false)), (String ((Ascii (false, false, false,
+                   true, false, true, true, false)), (String ((Ascii (true,
+                   false, true, false, false, true, true, false)), (String
+                   ((Ascii (true, true, false, false, false, true, true,
+                   false)), (String ((Ascii (true, true, false, true, false,
+                   true, true, false)), EmptyString))))))))))))))))))
+               | s1 :: l2 ->
+                 (match s1 with
+                  | SZ ltpl ->
+                    (match l2 with
+                     | [] ->
+                       sx_err (String ((Ascii (true, true, false, false,
+                         false, true, true, false)), (String ((Ascii (true,
+                         false, false, false, true, true, false, false)),
+                         (String ((Ascii (true, false, false, true, true,
+                         true, false, false)), (String ((Ascii (false, true,
+                         true, true, false, true, false, false)), (String
+                         ((Ascii (true, true, false, false, false, true,
+                         true, false)), (String ((Ascii (false, false, false,
+                         true, false, true, true, false)), (String ((Ascii
+                         (true, false, true, false, false, true, true,
+                         false)), (String ((Ascii (true, true, false, false,
+                         false, true, true, false)), (String ((Ascii (true,
+                         true, false, true, false, true, true, false)),
+                         EmptyString))))))))))))))))))
+                     | s2 :: l3 ->
+                       (match s2 with
+                        | SBytes dom ->
+                          (match l3 with
+                           | [] ->
+                             sx_err (String ((Ascii (true, true, false,
+                               false, false, true, true, false)), (String
+                               ((Ascii (true, false, false, false, true,
+                               true, false, false)), (String ((Ascii (true,
+                               false, false, true, true, true, false,
+                               false)), (String ((Ascii (false, true, true,
+                               true, false, true, false, false)), (String
+                               ((Ascii (true, true, false, false, false,
+                               true, true, false)), (String ((Ascii (false,
+                               false, false, true, false, true, true,
+                               false)), (String ((Ascii (true, false, true,
+                               false, false, true, true, false)), (String
+                               ((Ascii (true, true, false, false, false,
+                               true, true, false)), (String ((Ascii (true,
+                               true, false, true, false, true, true, false)),
+                               EmptyString))))))))))))))))))
+                           | ex :: l4 ->
+                             (match l4 with
+                              | [] ->
+                                sx_err (String ((Ascii (true, true, false,
+                                  false, false, true, true, false)), (String
+                                  ((Ascii (true, false, false, false, true,
+                                  true, false, false)), (String ((Ascii
+                                  (true, false, false, true, true, true,
+                                  false, false)), (String ((Ascii (false,
+                                  true, true, true, false, true, false,
+                                  false)), (String ((Ascii (true, true,
+                                  false, false, false, true, true, false)),
+                                  (String ((Ascii (false, false, false, true,
+                                  false, true, true, false)), (String ((Ascii
+                                  (true, false, true, false, false, true,
+                                  true, false)), (String ((Ascii (true, true,
+                                  false, false, false, true, true, false)),
+                                  (String ((Ascii (true, true, false, true,
+                                  false, true, true, false)),
+                                  EmptyString))))))))))))))))))
+                              | pr :: l5 ->
+                                (match l5 with
+                                 | [] ->
+                                   sx_err (String ((Ascii (true, true, false,
+                                     false, false, true, true, false)),
+                                     (String ((Ascii (true, false, false,
+                                     false, true, true, false, false)),
+                                     (String ((Ascii (true, false, false,
+                                     true, true, true, false, false)),
+                                     (String ((Ascii (false, true, true,
+                                     true, false, true, false, false)),
+                                     (String ((Ascii (true, true, false,
+                                     false, false, true, true, false)),
+                                     (String ((Ascii (false, false, false,
+                                     true, false, true, true, false)),
+                                     (String ((Ascii (true, false, true,
+                                     false, false, true, true, false)),
+                                     (String ((Ascii (true, true, false,
+                                     false, false, true, true, false)),
+                                     (String ((Ascii (true, true, false,
+                                     true, false, true, true, false)),
+                                     EmptyString))))))))))))))))))
+                                 | s3 :: l6 ->
+                                   (match s3 with
+                                    | SZ now ->
+                                      (match l6 with
+                                       | [] ->
+                                         sx_err (String ((Ascii (true, true,
+                                           false, false, false, true, true,
+                                           false)), (String ((Ascii (true,
+                                           false, false, false, true, true,
+                                           false, false)), (String ((Ascii
+                                           (true, false, false, true, true,
+                                           true, false, false)), (String
+                                           ((Ascii (false, true, true, true,
+                                           false, true, false, false)),
+                                           (String ((Ascii (true, true,
+                                           false, false, false, true, true,
+                                           false)), (String ((Ascii (false,
+                                           false, false, true, false, true,
+                                           true, false)), (String ((Ascii
+                                           (true, false, true, false, false,
+                                           true, true, false)), (String
+                                           ((Ascii (true, true, false, false,
+                                           false, true, true, false)),
+                                           (String ((Ascii (true, true,
+                                           false, true, false, true, true,
+                                           false)),
+                                           EmptyString))))))))))))))))))
+                                       | s4 :: l7 ->
+                                         (match s4 with
+                                          | SL ht ->
+                                            (match l7 with
+                                             | [] ->
+                                               sx_err (String ((Ascii (true,
+                                                 true, false, false, false,
+                                                 true, true, false)), (String
+                                                 ((Ascii (true, false, false,
+                                                 false, true, true, false,
+                                                 false)), (String ((Ascii
+                                                 (true, false, false, true,
+                                                 true, true, false, false)),
+                                                 (String ((Ascii (false,
+                                                 true, true, true, false,
+                                                 true, false, false)),
+                                                 (String ((Ascii (true, true,
+                                                 false, false, false, true,
+                                                 true, false)), (String
+                                                 ((Ascii (false, false,
+                                                 false, true, false, true,
+                                                 true, false)), (String
+                                                 ((Ascii (true, false, true,
+                                                 false, false, true, true,
+                                                 false)), (String ((Ascii
+                                                 (true, true, false, false,
+                                                 false, true, true, false)),
+                                                 (String ((Ascii (true, true,
+                                                 false, true, false, true,
+                                                 true, false)),
+                                                 EmptyString))))))))))))))))))
+                                             | b64o :: l8 ->
+                                               (match l8 with
+                                                | [] ->
+                                                  sx_err (String ((Ascii
+                                                    (true, true, false,
+                                                    false, false, true, true,
+                                                    false)), (String ((Ascii
+                                                    (true, false, false,
+                                                    false, true, true, false,
+                                                    false)), (String ((Ascii
+                                                    (true, false, false,
+                                                    true, true, true, false,
+                                                    false)), (String ((Ascii
+                                                    (false, true, true, true,
+                                                    false, true, false,
+                                                    false)), (String ((Ascii
+                                                    (true, true, false,
+                                                    false, false, true, true,
+                                                    false)), (String ((Ascii
+                                                    (false, false, false,
+                                                    true, false, true, true,
+                                                    false)), (String ((Ascii
+                                                    (true, false, true,
+                                                    false, false, true, true,
+                                                    false)), (String ((Ascii
+                                                    (true, true, false,
+                                                    false, false, true, true,
+                                                    false)), (String ((Ascii
+                                                    (true, true, false, true,
+                                                    false, true, true,
+                                                    false)),
+                                                    EmptyString))))))))))))))))))
+                                                | bo :: l9 ->
+                                                  (match l9 with
+                                                   | [] ->
+                                                     sx_err (String ((Ascii
+                                                       (true, true, false,
+                                                       false, false, true,
+                                                       true, false)), (String
+                                                       ((Ascii (true, false,
+                                                       false, false, true,
+                                                       true, false, false)),
+                                                       (String ((Ascii (true,
+                                                       false, false, true,
+                                                       true, true, false,
+                                                       false)), (String
+                                                       ((Ascii (false, true,
+                                                       true, true, false,
+                                                       true, false, false)),
+                                                       (String ((Ascii (true,
+                                                       true, false, false,
+                                                       false, true, true,
+                                                       false)), (String
+                                                       ((Ascii (false, false,
+                                                       false, true, false,
+                                                       true, true, false)),
+                                                       (String ((Ascii (true,
+                                                       false, true, false,
+                                                       false, true, true,
+                                                       false)), (String
+                                                       ((Ascii (true, true,
+                                                       false, false, false,
+                                                       true, true, false)),
+                                                       (String ((Ascii (true,
+                                                       true, false, true,
+                                                       false, true, true,
+                                                       false)),
+                                                       EmptyString))))))))))))))))))
+                                                   | lo :: l10 ->
+                                                     (match l10 with
+                                                      | [] ->
+                                                        sx_err (String
+                                                          ((Ascii (true,
+                                                          true, false, false,
+                                                          false, true, true,
+                                                          false)), (String
+                                                          ((Ascii (true,
+                                                          false, false,
+                                                          false, true, true,
+                                                          false, false)),
+                                                          (String ((Ascii
+                                                          (true, false,
+                                                          false, true, true,
+                                                          true, false,
+                                                          false)), (String
+                                                          ((Ascii (false,
+                                                          true, true, true,
+                                                          false, true, false,
+                                                          false)), (String
+                                                          ((Ascii (true,
+                                                          true, false, false,
+                                                          false, true, true,
+                                                          false)), (String
+                                                          ((Ascii (false,
+                                                          false, false, true,
+                                                          false, true, true,
+                                                          false)), (String
+                                                          ((Ascii (true,
+                                                          false, true, false,
+                                                          false, true, true,
+                                                          false)), (String
+                                                          ((Ascii (true,
+                                                          true, false, false,
+                                                          false, true, true,
+                                                          false)), (String
+                                                          ((Ascii (true,
+                                                          true, false, true,
+                                                          false, true, true,
+                                                          false)),
+                                                          EmptyString))))))))))))))))))
+                                                      | eo :: l11 ->
+                                                        (match l11 with
+                                                         | [] ->
+                                                           sx_err (String
+                                                             ((Ascii (true,
+                                                             true, false,
+                                                             false, false,
+                                                             true, true,
+                                                             false)), (String
+                                                             ((Ascii (true,
+                                                             false, false,
+                                                             false, true,
+                                                             true, false,
+                                                             false)), (String
+                                                             ((Ascii (true,
+                                                             false, false,
+                                                             true, true,
+                                                             true, false,
+                                                             false)), (String
+                                                             ((Ascii (false,
+                                                             true, true,
+                                                             true, false,
+                                                             true, false,
+                                                             false)), (String
+                                                             ((Ascii (true,
+                                                             true, false,
+                                                             false, false,
+                                                             true, true,
+                                                             false)), (String
+                                                             ((Ascii (false,
+                                                             false, false,
+                                                             true, false,
+                                                             true, true,
+                                                             false)), (String
+                                                             ((Ascii (true,
+                                                             false, true,
+                                                             false, false,
+                                                             true, true,
+                                                             false)), (String
+                                                             ((Ascii (true,
+                                                             true, false,
+                                                             false, false,
+                                                             true, true,
+                                                             false)), (String
+                                                             ((Ascii (true,
+                                                             true, false,
+                                                             true, false,
+                                                             true, true,
+                                                             false)),
+                                                             EmptyString))))))))))))))))))
+                                                         | s5 :: l12 ->
+                                                           (match s5 with
+                                                            | SL vt ->
+                                                              (match l12 with
+                                                               | [] ->
+                                                                 (match 
+                                                                  proof_of_sx
+                                                                    pr with
+                                                                  | Some tp ->
+                                                                    let r =
+                                                                    check_proof
+                                                                    sha256
+                                                                    (verify_of
+                                                                    vt)
+                                                                    (fun _ ->
+                                                                    opt_bytes
+                                                                    b64o)
+                                                                    (boc_of
+                                                                    bo)
+                                                                    (fun _ ->
+                                                                    bool_of lo)
+                                                                    (fun _ ->
+                                                                    bool_of eo)
+                                                                    known_wallets
+                                                                    (fun _ ->
+                                                                    exec_of ex)
+                                                                    (check_payload
+                                                                    (hmac_of
+                                                                    ht)
+                                                                    secret
+                                                                    (lifetime_or_default
+                                                                    ltpl
+                                                                    defaultLifeTimePayload)
+                                                                    now)
+                                                                    (static_domain
+                                                                    dom)
+                                                                    (lifetime_or_default
+                                                                    ltp
+                                                                    defaultLifeTimeProof)
+                                                                    now tp
+                                                                    in
+                                                                    out_res
+                                                                    (fun k0 ->
+                                                                    SL ((SB
+                                                                    true) :: ((SBytes
+                                                                    k0) :: [])))
+                                                                    r
+                                                                  | None ->
+                                                                    sx_err
+                                                                    (String
+                                                                    ((Ascii
+                                                                    (true,
+                                                                    true,
+                                                                    false,
+                                                                    false,
+                                                                    false,
+                                                                    true,
+                                                                    true,
+                                                                    false)),
+                                                                    (String
+                                                                    ((Ascii
+                                                                    (true,
+                                                                    false,
+                                                                    false,
+                                                                    false,
+                                                                    true,
+                                                                    true,
+                                                                    false,
+                                                                    false)),
+                                                                    (String
+                                                                    ((Ascii
+                                                                    (true,
+                                                                    false,
+                                                                    false,
+                                                                    true,
+                                                                    true,
+                                                                    true,
+                                                                    false,
+                                                                    false)),
+                                                                    (String
+                                                                    ((Ascii
+                                                                    (false,
+                                                                    true,
+                                                                    true,
+                                                                    true,
+                                                                    false,
+                                                                    true,
+                                                                    false,
+                                                                    false)),
+                                                                    (String
+                                                                    ((Ascii
+                                                                    (true,
+                                                                    true,
+                                                                    false,
+                                                                    false,
+                                                                    false,
+                                                                    true,
+                                                                    true,
+                                                                    false)),
+                                                                    (String
+                                                                    ((Ascii
+                                                                    (false,
+                                                                    false,
+                                                                    false,
+                                                                    true,
+                                                                    false,
+                                                                    true,
+                                                                    true,
+                                                                    false)),
+                                                                    (String
+                                                                    ((Ascii
+                                                                    (true,
+                                                                    false,
+                                                                    true,
+                                                                    false,
+                                                                    false,
+                                                                    true,
+                                                                    true,
+                                                                    false)),
+                                                                    (String
+                                                                    ((Ascii
+                                                                    (true,
+                                                                    true,
+                                                                    false,
+                                                                    false,
+                                                                    false,
+                                                                    true,
+                                                                    true,
+                                                                    false)),
+                                                                    (String
+                                                                    ((Ascii
+                                                                    (true,
+                                                                    true,
+                                                                    false,
+                                                                    true,
+                                                                    false,
+                                                                    true,
+                                                                    true,
+                                                                    false)),
+                                                                    (String
+                                                                    ((Ascii
+                                                                    (false,
+                                                                    false,
+                                                                    false,
+                                                                    false,
+                                                                    false,
+                                                                    true,
+                                                                    false,
+                                                                    false)),
+                                                                    (String
+                                                                    ((Ascii
+                                                                    (false,
+                                                                    false,
+                                                                    false,
+                                                                    false,
+                                                                    true,
+                                                                    true,
+                                                                    true,
+                                                                    false)),
+                                                                    (String
+                                                                    ((Ascii
+                                                                    (false,
+                                                                    true,
+                                                                    false,
+                                                                    false,
+                                                                    true,
+                                                                    true,
+                                                                    true,
+                                                                    false)),
+                                                                    (String
+                                                                    ((Ascii
+                                                                    (true,
+                                                                    true,
+                                                                    true,
+                                                                    true,
+                                                                    false,
+                                                                    true,
+                                                                    true,
+                                                                    false)),
+                                                                    (String
+                                                                    ((Ascii
+                                                                    (true,
+                                                                    true,
+                                                                    true,
+                                                                    true,
+                                                                    false,
+                                                                    true,
+                                                                    true,
+                                                                    false)),
+                                                                    (String
+                                                                    ((Ascii
+                                                                    (false,
+                                                                    true,
+                                                                    true,
+                                                                    false,
+                                                                    false,
+                                                                    true,
+                                                                    true,
+                                                                    false)),
+                                                                    EmptyString)))))))))))))))))))))))))))))))
+                                                               | _ :: _ ->
+                                                                 sx_err
+                                                                   (String
+                                                                   ((Ascii
+                                                                   (true,
+                                                                   true,
+                                                                   false,
+                                                                   false,
+                                                                   false,
+                                                                   true,
+                                                                   true,
+                                                                   false)),
+                                                                   (String
+                                                                   ((Ascii
+                                                                   (true,
+                                                                   false,
+                                                                   false,
+                                                                   false,
+                                                                   true,
+                                                                   true,
+                                                                   false,
+                                                                   false)),
+                                                                   (String
+                                                                   ((Ascii
+                                                                   (true,
+                                                                   false,
+                                                                   false,
+                                                                   true,
+                                                                   true,
+                                                                   true,
+                                                                   false,
+                                                                   false)),
+                                                                   (String
+                                                                   ((Ascii
+                                                                   (false,
+                                                                   true,
+                                                                   true,
+                                                                   true,
+                                                                   false,
+                                                                   true,
+                                                                   false,
+                                                                   false)),
+                                                                   (String
+                                                                   ((Ascii
+                                                                   (true,
+                                                                   true,
+                                                                   false,
+                                                                   false,
+                                                                   false,
+                                                                   true,
+                                                                   true,
+                                                                   false)),
+                                                                   (String
+                                                                   ((Ascii
+                                                                   (false,
+                                                                   false,
+                                                                   false,
+                                                                   true,
+                                                                   false,
+                                                                   true,
+                                                                   true,
+                                                                   false)),
+                                                                   (String
+                                                                   ((Ascii
+                                                                   (true,
+                                                                   false,
+                                                                   true,
+                                                                   false,
+                                                                   false,
+                                                                   true,
+                                                                   true,
+                                                                   false)),
+                                                                   (String
+                                                                   ((Ascii
+                                                                   (true,
+                                                                   true,
+                                                                   false,
+                                                                   false,
+                                                                   false,
+                                                                   true,
+                                                                   true,
+                                                                   false)),
+                                                                   (String
+                                                                   ((Ascii
+                                                                   (true,
+                                                                   true,
+                                                                   false,
+                                                                   true,
+                                                                   false,
+                                                                   true,
+                                                                   true,
+                                                                   false)),
+                                                                   EmptyString)))))))))))))))))))
+                                                            | _ ->
+                                                              sx_err (String
+                                                                ((Ascii
+                                                                (true, true,
+                                                                false, false,
+                                                                false, true,
+                                                                true,
+                                                                false)),
+                                                                (String
+                                                                ((Ascii
+                                                                (true, false,
+                                                                false, false,
+                                                                true, true,
+                                                                false,
+                                                                false)),
+                                                                (String
+                                                                ((Ascii
+                                                                (true, false,
+                                                                false, true,
+                                                                true, true,
+                                                                false,
+                                                                false)),
+                                                                (String
+                                                                ((Ascii
+                                                                (false, true,
+                                                                true, true,
+                                                                false, true,
+                                                                false,
+                                                                false)),
+                                                                (String
+                                                                ((Ascii
+                                                                (true, true,
+                                                                false, false,
+                                                                false, true,
+                                                                true,
+                                                                false)),
+                                                                (String
+                                                                ((Ascii
+                                                                (false,
+                                                                false, false,
+                                                                true, false,
+                                                                true, true,
+                                                                false)),
+                                                                (String
+                                                                ((Ascii
+                                                                (true, false,
+                                                                true, false,
+                                                                false, true,
+                                                                true,
+                                                                false)),
+                                                                (String
+                                                                ((Ascii
+                                                                (true, true,
+                                                                false, false,
+                                                                false, true,
+                                                                true,
+                                                                false)),
+                                                                (String
+                                                                ((Ascii
+                                                                (true, true,
+                                                                false, true,
+                                                                false, true,
+                                                                true,
+                                                                false)),
+                                                                EmptyString))))))))))))))))))))))))
+                                          | _ ->
+                                            sx_err (String ((Ascii (true,
+                                              true, false, false, false,
+                                              true, true, false)), (String
+                                              ((Ascii (true, false, false,
+                                              false, true, true, false,
+                                              false)), (String ((Ascii (true,
+                                              false, false, true, true, true,
+                                              false, false)), (String ((Ascii
+                                              (false, true, true, true,
+                                              false, true, false, false)),
+                                              (String ((Ascii (true, true,
+                                              false, false, false, true,
+                                              true, false)), (String ((Ascii
+                                              (false, false, false, true,
+                                              false, true, true, false)),
+                                              (String ((Ascii (true, false,
+                                              true, false, false, true, true,
+                                              false)), (String ((Ascii (true,
+                                              true, false, false, false,
+                                              true, true, false)), (String
+                                              ((Ascii (true, true, false,
+                                              true, false, true, true,
+                                              false)),
+                                              EmptyString))))))))))))))))))))
+                                    | _ ->
+                                      sx_err (String ((Ascii (true, true,
+                                        false, false, false, true, true,
+                                        false)), (String ((Ascii (true,
+                                        false, false, false, true, true,
+                                        false, false)), (String ((Ascii
+                                        (true, false, false, true, true,
+                                        true, false, false)), (String ((Ascii
+                                        (false, true, true, true, false,
+                                        true, false, false)), (String ((Ascii
+                                        (true, true, false, false, false,
+                                        true, true, false)), (String ((Ascii
+                                        (false, false, false, true, false,
+                                        true, true, false)), (String ((Ascii
+                                        (true, false, true, false, false,
+                                        true, true, false)), (String ((Ascii
+                                        (true, true, false, false, false,
+                                        true, true, false)), (String ((Ascii
+                                        (true, true, false, true, false,
+                                        true, true, false)),
+                                        EmptyString))))))))))))))))))))))
+                        | _ ->
+                          sx_err (String ((Ascii (true, true, false, false,
+                            false, true, true, false)), (String ((Ascii
+                            (true, false, false, false, true, true, false,
+                            false)), (String ((Ascii (true, false, false,
+                            true, true, true, false, false)), (String ((Ascii
+                            (false, true, true, true, false, true, false,
+                            false)), (String ((Ascii (true, true, false,
+                            false, false, true, true, false)), (String
+                            ((Ascii (false, false, false, true, false, true,
+                            true, false)), (String ((Ascii (true, false,
+                            true, false, false, true, true, false)), (String
+                            ((Ascii (true, true, false, false, false, true,
+                            true, false)), (String ((Ascii (true, true,
+                            false, true, false, true, true, false)),
+                            EmptyString))))))))))))))))))))
+                  | _ ->
+                    sx_err (String ((Ascii (true, true, false, false, false,
+                      true, true, false)), (String ((Ascii (true, false,
+                      false, false, true, true, false, false)), (String
+                      ((Ascii (true, false, false, true, true, true, false,
+                      false)), (String ((Ascii (false, true, true, true,
+                      false, true, false, false)), (String ((Ascii (true,
+                      true, false, false, false, true, true, false)), (String
+                      ((Ascii (false, false, false, true, false, true, true,
+                      false)), (String ((Ascii (true, false, true, false,
+                      false, true, true, false)), (String ((Ascii (true,
+                      true, false, false, false, true, true, false)), (String
+                      ((Ascii (true, true, false, true, false, true, true,
+                      false)), EmptyString))))))))))))))))))))
+            | _ ->
+              sx_err (String ((Ascii (true, true, false, false, false, true,
+                true, false)), (String ((Ascii (true, false, false, false,
+                true, true, false, false)), (String ((Ascii (true, false,
+                false, true, true, true, false, false)), (String ((Ascii
+                (false, true, true, true, false, true, false, false)),
+                (String ((Ascii (true, true, false, false, false, true, true,
+                false)), (String ((Ascii (false, false, false, true, false,
+                true, true, false)), (String ((Ascii (true, false, true,
+                false, false, true, true, false)), (String ((Ascii (true,
+                true, false, false, false, true, true, false)), (String
+                ((Ascii (true, true, false, true, false, true, true, false)),
+                EmptyString))))))))))))))))))))
+      | _ ->
+        sx_err (String ((Ascii (true, true, false, false, false, true, true,
+          false)), (String ((Ascii (true, false, false, false, true, true,
+          false, false)), (String ((Ascii (true, false, false, true, true,
+          true, false, false)), (String ((Ascii (false, true, true, true,
+          false, true, false, false)), (String ((Ascii (true, true, false,
+          false, false, true, true, false)), (String ((Ascii (false, false,
+          false, true, false, true, true, false)), (String ((Ascii (true,
+          false, true, false, false, true, true, false)), (String ((Ascii
+          (true, true, false, false, false, true, true, false)), (String
+          ((Ascii (true, true, false, true, false, true, true, false)),
+          EmptyString))))))))))))))))))))
+| _ ->
+  sx_err (String ((Ascii (true, true, false, false, false, true, true,
+    false)), (String ((Ascii (true, false, false, false, true, true, false,
+    false)), (String ((Ascii (true, false, false, true, true, true, false,
+    false)), (String ((Ascii (false, true, true, true, false, true, false,
+    false)), (String ((Ascii (true, true, false, false, false, true, true,
+    false)), (String ((Ascii (false, false, false, true, false, true, true,
+    false)), (String ((Ascii (true, false, true, false, false, true, true,
+    false)), (String ((Ascii (true, true, false, false, false, true, true,
+    false)), (String ((Ascii (true, true, false, true, false, true, true,
+    false)), EmptyString))))))))))))))))))
+
+(** val nominal_now : z **)
+
+let nominal_now =
+  Zpos (XO (XO (XO (XO (XO (XO (XO (XO (XI (XO (XI (XO (XO (XI (XI (XO (XI
+    (XI (XI (XO (XI (XI (XI (XI (XI (XI (XO (XO (XI (XO (XI (XO (XO (XI (XI
+    (XI (XI (XI (XI (XI (XO (XO (XI (XI (XI (XO (XO (XI (XI (XI (XI (XO (XI
+    (XO (XO (XI (XI (XI (XI (XO
+    XH))))))))))))))))))))))))))))))))))))))))))))))))))))))))))))
+
+(** val run_clock : sx -> sx **)
+
+let run_clock = function
+| SL l ->
+  (match l with
+   | [] ->
+     sx_err (String ((Ascii (true, true, false, false, false, true, true,
+       false)), (String ((Ascii (true, false, false, false, true, true,
+       false, false)), (String ((Ascii (true, false, false, true, true, true,
+       false, false)), (String ((Ascii (false, true, true, true, false, true,
+       false, false)), (String ((Ascii (true, true, false, false, false,
+       true, true, false)), (String ((Ascii (false, false, true, true, false,
+       true, true, false)), (String ((Ascii (true, true, true, true, false,
+       true, true, false)), (String ((Ascii (true, true, false, false, false,
+       true, true, false)), (String ((Ascii (true, true, false, true, false,
+       true, true, false)), EmptyString))))))))))))))))))
+   | s :: l0 ->
+     (match s with
+      | SZ ltp ->
+        (match l0 with
+         | [] ->
+           sx_err (String ((Ascii (true, true, false, false, false, true,
+             true, false)), (String ((Ascii (true, false, false, false, true,
+             true, false, false)), (String ((Ascii (true, false, false, true,
+             true, true, false, false)), (String ((Ascii (false, true, true,
+             true, false, true, false, false)), (String ((Ascii (true, true,
+             false, false, false, true, true, false)), (String ((Ascii
+             (false, false, true, true, false, true, true, false)), (String
+             ((Ascii (true, true, true, true, false, true, true, false)),
+             (String ((Ascii (true, true, false, false, false, true, true,
+             false)), (String ((Ascii (true, true, false, true, false, true,
+             true, false)), EmptyString))))))))))))))))))
+         | s0 :: l1 ->
+           (match s0 with
+            | SZ ltpl ->
+              (match l1 with
+               | [] ->
+                 sx_err (String ((Ascii (true, true, false, false, false,
+                   true, true, false)), (String ((Ascii (true, false, false,
+                   false, true, true, false, false)), (String ((Ascii (true,
+                   false, false, true, true, true, false, false)), (String
+                   ((Ascii (false, true, true, true, false, true, false,
+                   false)), (String ((Ascii (true, true, false, false, false,
+                   true, true, false)), (String ((Ascii (false, false, true,
+                   true, false, true, true, false)), (String ((Ascii (true,
+                   true, true, true, false, true, true, false)), (String
+                   ((Ascii (true, true, false, false, false, true, true,
+                   false)), (String ((Ascii (true, true, false, true, false,
+                   true, true, false)), EmptyString))))))))))))))))))
+               | s1 :: l2 ->
+                 (match s1 with
+                  | SZ dproof ->
+                    (match l2 with
+                     | [] ->
+                       sx_err (String ((Ascii (true, true, false, false,
+                         false, true, true, false)), (String ((Ascii (true,
+                         false, false, false, true, true, false, false)),
+                         (String ((Ascii (true, false, false, true, true,
+                         true, false, false)), (String ((Ascii (false, true,
+                         true, true, false, true, false, false)), (String
+                         ((Ascii (true, true, false, false, false, true,
+                         true, false)), (String ((Ascii (false, false, true,
+                         true, false, true, true, false)), (String ((Ascii
+                         (true, true, true, true, false, true, true, false)),
+                         (String ((Ascii (true, true, false, false, false,
+                         true, true, false)), (String ((Ascii (true, true,
+                         false, true, false, true, true, false)),
+                         EmptyString))))))))))))))))))
+                     | s2 :: l3 ->
+                       (match s2 with
+                        | SZ dpayload ->
+                          (match l3 with
+                           | [] ->
+                             sx_err (String ((Ascii (true, true, false,
+                               false, false, true, true, false)), (String
+                               ((Ascii (true, false, false, false, true,
+                               true, false, false)), (String ((Ascii (true,
+                               false, false, true, true, true, false,
+                               false)), (String ((Ascii (false, true, true,
+                               true, false, true, false, false)), (String
+                               ((Ascii (true, true, false, false, false,
+                               true, true, false)), (String ((Ascii (false,
+                               false, true, true, false, true, true, false)),
+                               (String ((Ascii (true, true, true, true,
+                               false, true, true, false)), (String ((Ascii
+                               (true, true, false, false, false, true, true,
+                               false)), (String ((Ascii (true, true, false,
+                               true, false, true, true, false)),
+                               EmptyString))))))))))))))))))
+                           | s3 :: l4 ->
+                             (match s3 with
+                              | SB usegen ->
+                                (match l4 with
+                                 | [] ->
+                                   let hm = fun _ m ->
+                                     firstn (S (S (S (S (S (S (S (S (S (S (S
+                                       (S (S (S (S (S (S (S (S (S (S (S (S (S
+                                       (S (S (S (S (S (S (S (S
+                                       O))))))))))))))))))))))))))))))))
+                                       (app m (app m m))
+                                   in
+                                   let secret = (Npos XH) :: [] in
+                                   let lp =
+                                     lifetime_or_default ltpl
+                                       defaultLifeTimePayload
+                                   in
+                                   let now_s = Z.div nominal_now giga in
+                                   let payload =
+                                     if usegen
+                                     then generate_payload hm secret
+                                            (repeat (Npos (XI (XI XH))) (S (S
+                                              (S (S (S (S (S (S O))))))))) lp
+                                            nominal_now
+                                     else generate_payload hm secret
+                                            (repeat (Npos (XI (XI XH))) (S (S
+                                              (S (S (S (S (S (S O))))))))) Z0
+                                            (Z.mul (Z.add now_s dpayload)
+                                              giga)
+                                   in
+                                   let key =
+                                     repeat (Npos (XI (XO (XO XH)))) (S (S (S
+                                       (S (S (S (S (S (S (S (S (S (S (S (S (S
+                                       (S (S (S (S (S (S (S (S (S (S (S (S (S
+                                       (S (S (S
+                                       O))))))))))))))))))))))))))))))))
+                                   in
+                                   let tp = { p_address =
+                                     (to_raw Z0
+                                       (repeat (Npos (XI (XO XH))) (S (S (S
+                                         (S (S (S (S (S (S (S (S (S (S (S (S
+                                         (S (S (S (S (S (S (S (S (S (S (S (S
+                                         (S (S (S (S (S
+                                         O))))))))))))))))))))))))))))))))));
+                                     p_ts = (Z.add now_s dproof); p_domain =
+                                     ((Npos (XO (XO (XI (XO (XO (XI
+                                     XH))))))) :: []); p_signature = [];
+                                     p_payload = payload; p_state_init = [] }
+                                   in
+                                   let r =
+                                     check_proof (fun x -> x) (fun _ _ _ ->
+                                       true) (fun _ -> Some []) (fun _ -> Err
+                                       eOther) (fun _ -> false) (fun _ ->
+                                       false) [] (fun _ -> ExRet (N0, ((StInt
+                                       (be_val key)) :: [])))
+                                       (check_payload hm secret lp
+                                         nominal_now)
+                                       (static_domain ((Npos (XO (XO (XI (XO
+                                         (XO (XI XH))))))) :: []))
+                                       (lifetime_or_default ltp
+                                         defaultLifeTimeProof) nominal_now tp
+                                   in
+                                   out_res (fun _ -> SB true) r
+                                 | _ :: _ ->
+                                   sx_err (String ((Ascii (true, true, false,
+                                     false, false, true, true, false)),
+                                     (String ((Ascii (true, false, false,
+                                     false, true, true, false, false)),
+                                     (String ((Ascii (true, false, false,
+                                     true, true, true, false, false)),
+                                     (String ((Ascii (false, true, true,
+                                     true, false, true, false, false)),
+                                     (String ((Ascii (true, true, false,
+                                     false, false, true, true, false)),
+                                     (String ((Ascii (false, false, true,
+                                     true, false, true, true, false)),
+                                     (String ((Ascii (true, true, true, true,
+                                     false, true, true, false)), (String
+                                     ((Ascii (true, true, false, false,
+                                     false, true, true, false)), (String
+                                     ((Ascii (true, true, false, true, false,
+                                     true, true, false)),
+                                     EmptyString)))))))))))))))))))
+                              | _ ->
+                                sx_err (String ((Ascii (true, true, false,
+                                  false, false, true, true, false)), (String
+                                  ((Ascii (true, false, false, false, true,
+                                  true, false, false)), (String ((Ascii
+                                  (true, false, false, true, true, true,
+                                  false, false)), (String ((Ascii (false,
+                                  true, true, true, false, true, false,
+                                  false)), (String ((Ascii (true, true,
+                                  false, false, false, true, true, false)),
+                                  (String ((Ascii (false, false, true, true,
+                                  false, true, true, false)), (String ((Ascii
+                                  (true, true, true, true, false, true, true,
+                                  false)), (String ((Ascii (true, true,
+                                  false, false, false, true, true, false)),
+                                  (String ((Ascii (true, true, false, true,
+                                  false, true, true, false)),
+                                  EmptyString))))))))))))))))))))
+                        | _ ->
+                          sx_err (String ((Ascii (true, true, false, false,
+                            false, true, true, false)), (String ((Ascii
+                            (true, false, false, false, true, true, false,
+                            false)), (String ((Ascii (true, false, false,
+                            true, true, true, false, false)), (String ((Ascii
+                            (false, true, true, true, false, true, false,
+                            false)), (String ((Ascii (true, true, false,
+                            false, false, true, true, false)), (String
+                            ((Ascii (false, false, true, true, false, true,
+                            true, false)), (String ((Ascii (true, true, true,
+                            true, false, true, true, false)), (String ((Ascii
+                            (true, true, false, false, false, true, true,
+                            false)), (String ((Ascii (true, true, false,
+                            true, false, true, true, false)),
+                            EmptyString))))))))))))))))))))
+                  | _ ->
+                    sx_err (String ((Ascii (true, true, false, false, false,
+                      true, true, false)), (String ((Ascii (true, false,
+                      false, false, true, true, false, false)), (String
+                      ((Ascii (true, false, false, true, true, true, false,
+                      false)), (String ((Ascii (false, true, true, true,
+                      false, true, false, false)), (String ((Ascii (true,
+                      true, false, false, false, true, true, false)), (String
+                      ((Ascii (false, false, true, true, false, true, true,
+                      false)), (String ((Ascii (true, true, true, true,
+                      false, true, true, false)), (String ((Ascii (true,
+                      true, false, false, false, true, true, false)), (String
+                      ((Ascii (true, true, false, true, false, true, true,
+                      false)), EmptyString))))))))))))))))))))
+            | _ ->
+              sx_err (String ((Ascii (true, true, false, false, false, true,
+                true, false)), (String ((Ascii (true, false, false, false,
+                true, true, false, false)), (String ((Ascii (true, false,
+                false, true, true, true, false, false)), (String ((Ascii
+                (false, true, true, true, false, true, false, false)),
+                (String ((Ascii (true, true, false, false, false, true, true,
+                false)), (String ((Ascii (false, false, true, true, false,
+                true, true, false)), (String ((Ascii (true, true, true, true,
+                false, true, true, false)), (String ((Ascii (true, true,
+                false, false, false, true, true, false)), (String ((Ascii
+                (true, true, false, true, false, true, true, false)),
+                EmptyString))))))))))))))))))))
+      | _ ->
+        sx_err (String ((Ascii (true, true, false, false, false, true, true,
+          false)), (String ((Ascii (true, false, false, false, true, true,
+          false, false)), (String ((Ascii (true, false, false, true, true,
+          true, false, false)), (String ((Ascii (false, true, true, true,
+          false, true, false, false)), (String ((Ascii (true, true, false,
+          false, false, true, true, false)), (String ((Ascii (false, false,
+          true, true, false, true, true, false)), (String ((Ascii (true,
+          true, true, true, false, true, true, false)), (String ((Ascii
+          (true, true, false, false, false, true, true, false)), (String
+          ((Ascii (true, true, false, true, false, true, true, false)),
+          EmptyString))))))))))))))))))))
+| _ ->
+  sx_err (String ((Ascii (true, true, false, false, false, true, true,
+    false)), (String ((Ascii (true, false, false, false, true, true, false,
+    false)), (String ((Ascii (true, false, false, true, true, true, false,
+    false)), (String ((Ascii (false, true, true, true, false, true, false,
+    false)), (String ((Ascii (true, true, false, false, false, true, true,
+    false)), (String ((Ascii (false, false, true, true, false, true, true,
+    false)), (String ((Ascii (true, true, true, true, false, true, true,
+    false)), (String ((Ascii (true, true, false, false, false, true, true,
+    false)), (String ((Ascii (true, true, false, true, false, true, true,
+    false)), EmptyString))))))))))))))))))
+
 (** val run : string -> sx -> sx **)
 
 let run name a =
@@ -5904,50 +13029,1673 @@ let run name a =
                                                true, true, true, false)),
                                                EmptyString))))))))))))))
                                           then run_key a
-                                          else sx_err (String ((Ascii (true,
-                                                 false, true, false, true,
-                                                 true, true, false)), (String
-                                                 ((Ascii (false, true, true,
-                                                 true, false, true, true,
-                                                 false)), (String ((Ascii
-                                                 (true, true, false, true,
-                                                 false, true, true, false)),
-                                                 (String ((Ascii (false,
-                                                 true, true, true, false,
-                                                 true, true, false)), (String
-                                                 ((Ascii (true, true, true,
-                                                 true, false, true, true,
-                                                 false)), (String ((Ascii
-                                                 (true, true, true, false,
-                                                 true, true, true, false)),
-                                                 (String ((Ascii (false,
-                                                 true, true, true, false,
-                                                 true, true, false)), (String
-                                                 ((Ascii (false, false,
-                                                 false, false, false, true,
-                                                 false, false)), (String
-                                                 ((Ascii (true, true, false,
-                                                 false, false, true, true,
-                                                 false)), (String ((Ascii
-                                                 (true, false, false, false,
-                                                 false, true, true, false)),
-                                                 (String ((Ascii (true, true,
-                                                 false, false, true, true,
-                                                 true, false)), (String
-                                                 ((Ascii (true, false, true,
-                                                 false, false, true, true,
-                                                 false)), (String ((Ascii
-                                                 (false, false, false, false,
-                                                 false, true, false, false)),
-                                                 (String ((Ascii (true, true,
-                                                 false, true, false, true,
-                                                 true, false)), (String
-                                                 ((Ascii (true, false, false,
-                                                 true, false, true, true,
-                                                 false)), (String ((Ascii
-                                                 (false, true, true, true,
-                                                 false, true, true, false)),
-                                                 (String ((Ascii (false,
-                                                 false, true, false, false,
-                                                 true, true, false)),
-                                                 EmptyString))))))))))))))))))))))))))))))))))
+                                          else if is (String ((Ascii (true,
+                                                    true, false, false,
+                                                    false, true, true,
+                                                    false)), (String ((Ascii
+                                                    (false, false, false,
+                                                    false, true, true, false,
+                                                    false)), (String ((Ascii
+                                                    (true, false, true,
+                                                    false, true, true, false,
+                                                    false)), (String ((Ascii
+                                                    (false, true, true, true,
+                                                    false, true, false,
+                                                    false)), (String ((Ascii
+                                                    (true, false, true,
+                                                    false, false, true, true,
+                                                    false)), (String ((Ascii
+                                                    (false, true, true, true,
+                                                    false, true, true,
+                                                    false)), (String ((Ascii
+                                                    (true, true, false,
+                                                    false, false, true, true,
+                                                    false)), (String ((Ascii
+                                                    (true, true, true, true,
+                                                    false, true, true,
+                                                    false)), (String ((Ascii
+                                                    (false, false, true,
+                                                    false, false, true, true,
+                                                    false)), (String ((Ascii
+                                                    (true, false, true,
+                                                    false, false, true, true,
+                                                    false)),
+                                                    EmptyString))))))))))))))))))))
+                                               then run_encode a
+                                               else if is (String ((Ascii
+                                                         (true, true, false,
+                                                         false, false, true,
+                                                         true, false)),
+                                                         (String ((Ascii
+                                                         (false, false,
+                                                         false, false, true,
+                                                         true, false,
+                                                         false)), (String
+                                                         ((Ascii (true,
+                                                         false, true, false,
+                                                         true, true, false,
+                                                         false)), (String
+                                                         ((Ascii (false,
+                                                         true, true, true,
+                                                         false, true, false,
+                                                         false)), (String
+                                                         ((Ascii (false,
+                                                         true, false, false,
+                                                         true, true, true,
+                                                         false)), (String
+                                                         ((Ascii (true,
+                                                         false, false, false,
+                                                         false, true, true,
+                                                         false)), (String
+                                                         ((Ascii (true, true,
+                                                         true, false, true,
+                                                         true, true, false)),
+                                                         EmptyString))))))))))))))
+                                                    then run_raw a
+                                                    else if is (String
+                                                              ((Ascii (true,
+                                                              true, false,
+                                                              false, false,
+                                                              true, true,
+                                                              false)),
+                                                              (String ((Ascii
+                                                              (false, false,
+                                                              false, false,
+                                                              true, true,
+                                                              false, false)),
+                                                              (String ((Ascii
+                                                              (true, false,
+                                                              true, false,
+                                                              true, true,
+                                                              false, false)),
+                                                              (String ((Ascii
+                                                              (false, true,
+                                                              true, true,
+                                                              false, true,
+                                                              false, false)),
+                                                              (String ((Ascii
+                                                              (false, false,
+                                                              true, false,
+                                                              false, true,
+                                                              true, false)),
+                                                              (String ((Ascii
+                                                              (true, false,
+                                                              true, false,
+                                                              false, true,
+                                                              true, false)),
+                                                              (String ((Ascii
+                                                              (true, true,
+                                                              false, false,
+                                                              false, true,
+                                                              true, false)),
+                                                              (String ((Ascii
+                                                              (true, true,
+                                                              true, true,
+                                                              false, true,
+                                                              true, false)),
+                                                              (String ((Ascii
+                                                              (false, false,
+                                                              true, false,
+                                                              false, true,
+                                                              true, false)),
+                                                              (String ((Ascii
+                                                              (true, false,
+                                                              true, false,
+                                                              false, true,
+                                                              true, false)),
+                                                              EmptyString))))))))))))))))))))
+                                                         then run_decode a
+                                                         else if is (String
+                                                                   ((Ascii
+                                                                   (true,
+                                                                   true,
+                                                                   false,
+                                                                   false,
+                                                                   false,
+                                                                   true,
+                                                                   true,
+                                                                   false)),
+                                                                   (String
+                                                                   ((Ascii
+                                                                   (false,
+                                                                   false,
+                                                                   false,
+                                                                   false,
+                                                                   true,
+                                                                   true,
+                                                                   false,
+                                                                   false)),
+                                                                   (String
+                                                                   ((Ascii
+                                                                   (true,
+                                                                   false,
+                                                                   true,
+                                                                   false,
+                                                                   true,
+                                                                   true,
+                                                                   false,
+                                                                   false)),
+                                                                   (String
+                                                                   ((Ascii
+                                                                   (false,
+                                                                   true,
+                                                                   true,
+                                                                   true,
+                                                                   false,
+                                                                   true,
+                                                                   false,
+                                                                   false)),
+                                                                   (String
+                                                                   ((Ascii
+                                                                   (true,
+                                                                   true,
+                                                                   false,
+                                                                   false,
+                                                                   false,
+                                                                   true,
+                                                                   true,
+                                                                   false)),
+                                                                   (String
+                                                                   ((Ascii
+                                                                   (true,
+                                                                   false,
+                                                                   true,
+                                                                   false,
+                                                                   false,
+                                                                   true,
+                                                                   true,
+                                                                   false)),
+                                                                   (String
+                                                                   ((Ascii
+                                                                   (false,
+                                                                   false,
+                                                                   true,
+                                                                   true,
+                                                                   false,
+                                                                   true,
+                                                                   true,
+                                                                   false)),
+                                                                   (String
+                                                                   ((Ascii
+                                                                   (false,
+                                                                   false,
+                                                                   true,
+                                                                   true,
+                                                                   false,
+                                                                   true,
+                                                                   true,
+                                                                   false)),
+                                                                   (String
+                                                                   ((Ascii
+                                                                   (true,
+                                                                   true,
+                                                                   false,
+                                                                   false,
+                                                                   true,
+                                                                   true,
+                                                                   true,
+                                                                   false)),
+                                                                   EmptyString))))))))))))))))))
+                                                              then run_cells a
+                                                              else if 
+                                                                    is
+                                                                    (String
+                                                                    ((Ascii
+                                                                    (true,
+                                                                    true,
+                                                                    false,
+                                                                    false,
+                                                                    false,
+                                                                    true,
+                                                                    true,
+                                                                    false)),
+                                                                    (String
+                                                                    ((Ascii
+                                                                    (false,
+                                                                    false,
+                                                                    false,
+                                                                    false,
+                                                                    true,
+                                                                    true,
+                                                                    false,
+                                                                    false)),
+                                                                    (String
+                                                                    ((Ascii
+                                                                    (true,
+                                                                    false,
+                                                                    true,
+                                                                    false,
+                                                                    true,
+                                                                    true,
+                                                                    false,
+                                                                    false)),
+                                                                    (String
+                                                                    ((Ascii
+                                                                    (false,
+                                                                    true,
+                                                                    true,
+                                                                    true,
+                                                                    false,
+                                                                    true,
+                                                                    false,
+                                                                    false)),
+                                                                    (String
+                                                                    ((Ascii
+                                                                    (true,
+                                                                    true,
+                                                                    true,
+                                                                    true,
+                                                                    false,
+                                                                    true,
+                                                                    true,
+                                                                    false)),
+                                                                    (String
+                                                                    ((Ascii
+                                                                    (false,
+                                                                    false,
+                                                                    false,
+                                                                    false,
+                                                                    true,
+                                                                    true,
+                                                                    true,
+                                                                    false)),
+                                                                    (String
+                                                                    ((Ascii
+                                                                    (true,
+                                                                    true,
+                                                                    false,
+                                                                    false,
+                                                                    true,
+                                                                    true,
+                                                                    true,
+                                                                    false)),
+                                                                    EmptyString))))))))))))))
+                                                                   then 
+                                                                    run_ops0 a
+                                                                   else 
+                                                                    if 
+                                                                    is
+                                                                    (String
+                                                                    ((Ascii
+                                                                    (true,
+                                                                    true,
+                                                                    false,
+                                                                    false,
+                                                                    false,
+                                                                    true,
+                                                                    true,
+                                                                    false)),
+                                                                    (String
+                                                                    ((Ascii
+                                                                    (false,
+                                                                    false,
+                                                                    false,
+                                                                    false,
+                                                                    true,
+                                                                    true,
+                                                                    false,
+                                                                    false)),
+                                                                    (String
+                                                                    ((Ascii
+                                                                    (true,
+                                                                    false,
+                                                                    true,
+                                                                    false,
+                                                                    true,
+                                                                    true,
+                                                                    false,
+                                                                    false)),
+                                                                    (String
+                                                                    ((Ascii
+                                                                    (false,
+                                                                    true,
+                                                                    true,
+                                                                    true,
+                                                                    false,
+                                                                    true,
+                                                                    false,
+                                                                    false)),
+                                                                    (String
+                                                                    ((Ascii
+                                                                    (true,
+                                                                    false,
+                                                                    false,
+                                                                    false,
+                                                                    false,
+                                                                    true,
+                                                                    true,
+                                                                    false)),
+                                                                    (String
+                                                                    ((Ascii
+                                                                    (false,
+                                                                    false,
+                                                                    true,
+                                                                    false,
+                                                                    false,
+                                                                    true,
+                                                                    true,
+                                                                    false)),
+                                                                    (String
+                                                                    ((Ascii
+                                                                    (false,
+                                                                    false,
+                                                                    true,
+                                                                    false,
+                                                                    false,
+                                                                    true,
+                                                                    true,
+                                                                    false)),
+                                                                    (String
+                                                                    ((Ascii
+                                                                    (false,
+                                                                    true,
+                                                                    false,
+                                                                    false,
+                                                                    true,
+                                                                    true,
+                                                                    true,
+                                                                    false)),
+                                                                    EmptyString))))))))))))))))
+                                                                    then 
+                                                                    run_addr a
+                                                                    else 
+                                                                    if 
+                                                                    is
+                                                                    (String
+                                                                    ((Ascii
+                                                                    (true,
+                                                                    true,
+                                                                    false,
+                                                                    false,
+                                                                    false,
+                                                                    true,
+                                                                    true,
+                                                                    false)),
+                                                                    (String
+                                                                    ((Ascii
+                                                                    (true,
+                                                                    false,
+                                                                    false,
+                                                                    false,
+                                                                    true,
+                                                                    true,
+                                                                    false,
+                                                                    false)),
+                                                                    (String
+                                                                    ((Ascii
+                                                                    (true,
+                                                                    true,
+                                                                    false,
+                                                                    false,
+                                                                    true,
+                                                                    true,
+                                                                    false,
+                                                                    false)),
+                                                                    (String
+                                                                    ((Ascii
+                                                                    (false,
+                                                                    true,
+                                                                    true,
+                                                                    true,
+                                                                    false,
+                                                                    true,
+                                                                    false,
+                                                                    false)),
+                                                                    (String
+                                                                    ((Ascii
+                                                                    (true,
+                                                                    false,
+                                                                    true,
+                                                                    false,
+                                                                    true,
+                                                                    true,
+                                                                    true,
+                                                                    false)),
+                                                                    (String
+                                                                    ((Ascii
+                                                                    (false,
+                                                                    true,
+                                                                    false,
+                                                                    false,
+                                                                    false,
+                                                                    true,
+                                                                    true,
+                                                                    false)),
+                                                                    EmptyString))))))))))))
+                                                                    then 
+                                                                    run_ub a
+                                                                    else 
+                                                                    if 
+                                                                    is
+                                                                    (String
+                                                                    ((Ascii
+                                                                    (true,
+                                                                    true,
+                                                                    false,
+                                                                    false,
+                                                                    false,
+                                                                    true,
+                                                                    true,
+                                                                    false)),
+                                                                    (String
+                                                                    ((Ascii
+                                                                    (true,
+                                                                    false,
+                                                                    false,
+                                                                    false,
+                                                                    true,
+                                                                    true,
+                                                                    false,
+                                                                    false)),
+                                                                    (String
+                                                                    ((Ascii
+                                                                    (true,
+                                                                    true,
+                                                                    false,
+                                                                    false,
+                                                                    true,
+                                                                    true,
+                                                                    false,
+                                                                    false)),
+                                                                    (String
+                                                                    ((Ascii
+                                                                    (false,
+                                                                    true,
+                                                                    true,
+                                                                    true,
+                                                                    false,
+                                                                    true,
+                                                                    false,
+                                                                    false)),
+                                                                    (String
+                                                                    ((Ascii
+                                                                    (true,
+                                                                    false,
+                                                                    true,
+                                                                    false,
+                                                                    true,
+                                                                    true,
+                                                                    true,
+                                                                    false)),
+                                                                    (String
+                                                                    ((Ascii
+                                                                    (false,
+                                                                    true,
+                                                                    false,
+                                                                    false,
+                                                                    false,
+                                                                    true,
+                                                                    true,
+                                                                    false)),
+                                                                    (String
+                                                                    ((Ascii
+                                                                    (false,
+                                                                    false,
+                                                                    false,
+                                                                    true,
+                                                                    true,
+                                                                    true,
+                                                                    true,
+                                                                    false)),
+                                                                    EmptyString))))))))))))))
+                                                                    then 
+                                                                    run_ubx a
+                                                                    else 
+                                                                    if 
+                                                                    is
+                                                                    (String
+                                                                    ((Ascii
+                                                                    (true,
+                                                                    true,
+                                                                    false,
+                                                                    false,
+                                                                    false,
+                                                                    true,
+                                                                    true,
+                                                                    false)),
+                                                                    (String
+                                                                    ((Ascii
+                                                                    (true,
+                                                                    false,
+                                                                    false,
+                                                                    false,
+                                                                    true,
+                                                                    true,
+                                                                    false,
+                                                                    false)),
+                                                                    (String
+                                                                    ((Ascii
+                                                                    (true,
+                                                                    true,
+                                                                    false,
+                                                                    false,
+                                                                    true,
+                                                                    true,
+                                                                    false,
+                                                                    false)),
+                                                                    (String
+                                                                    ((Ascii
+                                                                    (false,
+                                                                    true,
+                                                                    true,
+                                                                    true,
+                                                                    false,
+                                                                    true,
+                                                                    false,
+                                                                    false)),
+                                                                    (String
+                                                                    ((Ascii
+                                                                    (true,
+                                                                    true,
+                                                                    true,
+                                                                    false,
+                                                                    true,
+                                                                    true,
+                                                                    true,
+                                                                    false)),
+                                                                    (String
+                                                                    ((Ascii
+                                                                    (true,
+                                                                    false,
+                                                                    false,
+                                                                    false,
+                                                                    false,
+                                                                    true,
+                                                                    true,
+                                                                    false)),
+                                                                    (String
+                                                                    ((Ascii
+                                                                    (false,
+                                                                    false,
+                                                                    true,
+                                                                    true,
+                                                                    false,
+                                                                    true,
+                                                                    true,
+                                                                    false)),
+                                                                    (String
+                                                                    ((Ascii
+                                                                    (true,
+                                                                    true,
+                                                                    false,
+                                                                    true,
+                                                                    false,
+                                                                    true,
+                                                                    true,
+                                                                    false)),
+                                                                    EmptyString))))))))))))))))
+                                                                    then 
+                                                                    run_walk a
+                                                                    else 
+                                                                    if 
+                                                                    is
+                                                                    (String
+                                                                    ((Ascii
+                                                                    (true,
+                                                                    true,
+                                                                    false,
+                                                                    false,
+                                                                    false,
+                                                                    true,
+                                                                    true,
+                                                                    false)),
+                                                                    (String
+                                                                    ((Ascii
+                                                                    (true,
+                                                                    false,
+                                                                    false,
+                                                                    false,
+                                                                    true,
+                                                                    true,
+                                                                    false,
+                                                                    false)),
+                                                                    (String
+                                                                    ((Ascii
+                                                                    (true,
+                                                                    true,
+                                                                    false,
+                                                                    false,
+                                                                    true,
+                                                                    true,
+                                                                    false,
+                                                                    false)),
+                                                                    (String
+                                                                    ((Ascii
+                                                                    (false,
+                                                                    true,
+                                                                    true,
+                                                                    true,
+                                                                    false,
+                                                                    true,
+                                                                    false,
+                                                                    false)),
+                                                                    (String
+                                                                    ((Ascii
+                                                                    (true,
+                                                                    true,
+                                                                    true,
+                                                                    false,
+                                                                    true,
+                                                                    true,
+                                                                    true,
+                                                                    false)),
+                                                                    (String
+                                                                    ((Ascii
+                                                                    (true,
+                                                                    false,
+                                                                    false,
+                                                                    false,
+                                                                    false,
+                                                                    true,
+                                                                    true,
+                                                                    false)),
+                                                                    (String
+                                                                    ((Ascii
+                                                                    (true,
+                                                                    false,
+                                                                    false,
+                                                                    true,
+                                                                    false,
+                                                                    true,
+                                                                    true,
+                                                                    false)),
+                                                                    (String
+                                                                    ((Ascii
+                                                                    (false,
+                                                                    false,
+                                                                    true,
+                                                                    false,
+                                                                    true,
+                                                                    true,
+                                                                    true,
+                                                                    false)),
+                                                                    EmptyString))))))))))))))))
+                                                                    then 
+                                                                    run_wait a
+                                                                    else 
+                                                                    if 
+                                                                    is
+                                                                    (String
+                                                                    ((Ascii
+                                                                    (true,
+                                                                    true,
+                                                                    false,
+                                                                    false,
+                                                                    false,
+                                                                    true,
+                                                                    true,
+                                                                    false)),
+                                                                    (String
+                                                                    ((Ascii
+                                                                    (true,
+                                                                    false,
+                                                                    false,
+                                                                    false,
+                                                                    true,
+                                                                    true,
+                                                                    false,
+                                                                    false)),
+                                                                    (String
+                                                                    ((Ascii
+                                                                    (true,
+                                                                    true,
+                                                                    false,
+                                                                    false,
+                                                                    true,
+                                                                    true,
+                                                                    false,
+                                                                    false)),
+                                                                    (String
+                                                                    ((Ascii
+                                                                    (false,
+                                                                    true,
+                                                                    true,
+                                                                    true,
+                                                                    false,
+                                                                    true,
+                                                                    false,
+                                                                    false)),
+                                                                    (String
+                                                                    ((Ascii
+                                                                    (false,
+                                                                    true,
+                                                                    false,
+                                                                    false,
+                                                                    true,
+                                                                    true,
+                                                                    true,
+                                                                    false)),
+                                                                    (String
+                                                                    ((Ascii
+                                                                    (true,
+                                                                    false,
+                                                                    true,
+                                                                    false,
+                                                                    false,
+                                                                    true,
+                                                                    true,
+                                                                    false)),
+                                                                    (String
+                                                                    ((Ascii
+                                                                    (false,
+                                                                    false,
+                                                                    false,
+                                                                    false,
+                                                                    true,
+                                                                    true,
+                                                                    true,
+                                                                    false)),
+                                                                    (String
+                                                                    ((Ascii
+                                                                    (false,
+                                                                    true,
+                                                                    false,
+                                                                    false,
+                                                                    true,
+                                                                    true,
+                                                                    true,
+                                                                    false)),
+                                                                    (String
+                                                                    ((Ascii
+                                                                    (true,
+                                                                    true,
+                                                                    true,
+                                                                    true,
+                                                                    false,
+                                                                    true,
+                                                                    true,
+                                                                    false)),
+                                                                    EmptyString))))))))))))))))))
+                                                                    then 
+                                                                    run_repro
+                                                                    a
+                                                                    else 
+                                                                    if 
+                                                                    is
+                                                                    (String
+                                                                    ((Ascii
+                                                                    (true,
+                                                                    true,
+                                                                    false,
+                                                                    false,
+                                                                    false,
+                                                                    true,
+                                                                    true,
+                                                                    false)),
+                                                                    (String
+                                                                    ((Ascii
+                                                                    (true,
+                                                                    false,
+                                                                    false,
+                                                                    false,
+                                                                    true,
+                                                                    true,
+                                                                    false,
+                                                                    false)),
+                                                                    (String
+                                                                    ((Ascii
+                                                                    (true,
+                                                                    false,
+                                                                    false,
+                                                                    true,
+                                                                    true,
+                                                                    true,
+                                                                    false,
+                                                                    false)),
+                                                                    (String
+                                                                    ((Ascii
+                                                                    (false,
+                                                                    true,
+                                                                    true,
+                                                                    true,
+                                                                    false,
+                                                                    true,
+                                                                    false,
+                                                                    false)),
+                                                                    (String
+                                                                    ((Ascii
+                                                                    (true,
+                                                                    false,
+                                                                    true,
+                                                                    true,
+                                                                    false,
+                                                                    true,
+                                                                    true,
+                                                                    false)),
+                                                                    (String
+                                                                    ((Ascii
+                                                                    (true,
+                                                                    true,
+                                                                    false,
+                                                                    false,
+                                                                    true,
+                                                                    true,
+                                                                    true,
+                                                                    false)),
+                                                                    (String
+                                                                    ((Ascii
+                                                                    (true,
+                                                                    true,
+                                                                    true,
+                                                                    false,
+                                                                    false,
+                                                                    true,
+                                                                    true,
+                                                                    false)),
+                                                                    EmptyString))))))))))))))
+                                                                    then 
+                                                                    run_msg a
+                                                                    else 
+                                                                    if 
+                                                                    is
+                                                                    (String
+                                                                    ((Ascii
+                                                                    (true,
+                                                                    true,
+                                                                    false,
+                                                                    false,
+                                                                    false,
+                                                                    true,
+                                                                    true,
+                                                                    false)),
+                                                                    (String
+                                                                    ((Ascii
+                                                                    (true,
+                                                                    false,
+                                                                    false,
+                                                                    false,
+                                                                    true,
+                                                                    true,
+                                                                    false,
+                                                                    false)),
+                                                                    (String
+                                                                    ((Ascii
+                                                                    (true,
+                                                                    false,
+                                                                    false,
+                                                                    true,
+                                                                    true,
+                                                                    true,
+                                                                    false,
+                                                                    false)),
+                                                                    (String
+                                                                    ((Ascii
+                                                                    (false,
+                                                                    true,
+                                                                    true,
+                                                                    true,
+                                                                    false,
+                                                                    true,
+                                                                    false,
+                                                                    false)),
+                                                                    (String
+                                                                    ((Ascii
+                                                                    (true,
+                                                                    true,
+                                                                    false,
+                                                                    false,
+                                                                    false,
+                                                                    true,
+                                                                    true,
+                                                                    false)),
+                                                                    (String
+                                                                    ((Ascii
+                                                                    (true,
+                                                                    true,
+                                                                    true,
+                                                                    true,
+                                                                    false,
+                                                                    true,
+                                                                    true,
+                                                                    false)),
+                                                                    (String
+                                                                    ((Ascii
+                                                                    (false,
+                                                                    true,
+                                                                    true,
+                                                                    true,
+                                                                    false,
+                                                                    true,
+                                                                    true,
+                                                                    false)),
+                                                                    (String
+                                                                    ((Ascii
+                                                                    (false,
+                                                                    true,
+                                                                    true,
+                                                                    false,
+                                                                    true,
+                                                                    true,
+                                                                    true,
+                                                                    false)),
+                                                                    EmptyString))))))))))))))))
+                                                                    then 
+                                                                    run_conv a
+                                                                    else 
+                                                                    if 
+                                                                    is
+                                                                    (String
+                                                                    ((Ascii
+                                                                    (true,
+                                                                    true,
+                                                                    false,
+                                                                    false,
+                                                                    false,
+                                                                    true,
+                                                                    true,
+                                                                    false)),
+                                                                    (String
+                                                                    ((Ascii
+                                                                    (true,
+                                                                    false,
+                                                                    false,
+                                                                    false,
+                                                                    true,
+                                                                    true,
+                                                                    false,
+                                                                    false)),
+                                                                    (String
+                                                                    ((Ascii
+                                                                    (true,
+                                                                    false,
+                                                                    false,
+                                                                    true,
+                                                                    true,
+                                                                    true,
+                                                                    false,
+                                                                    false)),
+                                                                    (String
+                                                                    ((Ascii
+                                                                    (false,
+                                                                    true,
+                                                                    true,
+                                                                    true,
+                                                                    false,
+                                                                    true,
+                                                                    false,
+                                                                    false)),
+                                                                    (String
+                                                                    ((Ascii
+                                                                    (false,
+                                                                    false,
+                                                                    false,
+                                                                    false,
+                                                                    true,
+                                                                    true,
+                                                                    true,
+                                                                    false)),
+                                                                    (String
+                                                                    ((Ascii
+                                                                    (true,
+                                                                    false,
+                                                                    false,
+                                                                    false,
+                                                                    false,
+                                                                    true,
+                                                                    true,
+                                                                    false)),
+                                                                    (String
+                                                                    ((Ascii
+                                                                    (true,
+                                                                    false,
+                                                                    false,
+                                                                    true,
+                                                                    true,
+                                                                    true,
+                                                                    true,
+                                                                    false)),
+                                                                    (String
+                                                                    ((Ascii
+                                                                    (false,
+                                                                    false,
+                                                                    true,
+                                                                    true,
+                                                                    false,
+                                                                    true,
+                                                                    true,
+                                                                    false)),
+                                                                    (String
+                                                                    ((Ascii
+                                                                    (true,
+                                                                    true,
+                                                                    true,
+                                                                    true,
+                                                                    false,
+                                                                    true,
+                                                                    true,
+                                                                    false)),
+                                                                    (String
+                                                                    ((Ascii
+                                                                    (true,
+                                                                    false,
+                                                                    false,
+                                                                    false,
+                                                                    false,
+                                                                    true,
+                                                                    true,
+                                                                    false)),
+                                                                    (String
+                                                                    ((Ascii
+                                                                    (false,
+                                                                    false,
+                                                                    true,
+                                                                    false,
+                                                                    false,
+                                                                    true,
+                                                                    true,
+                                                                    false)),
+                                                                    EmptyString))))))))))))))))))))))
+                                                                    then 
+                                                                    run_payload
+                                                                    a
+                                                                    else 
+                                                                    if 
+                                                                    is
+                                                                    (String
+                                                                    ((Ascii
+                                                                    (true,
+                                                                    true,
+                                                                    false,
+                                                                    false,
+                                                                    false,
+                                                                    true,
+                                                                    true,
+                                                                    false)),
+                                                                    (String
+                                                                    ((Ascii
+                                                                    (true,
+                                                                    false,
+                                                                    false,
+                                                                    false,
+                                                                    true,
+                                                                    true,
+                                                                    false,
+                                                                    false)),
+                                                                    (String
+                                                                    ((Ascii
+                                                                    (true,
+                                                                    false,
+                                                                    false,
+                                                                    true,
+                                                                    true,
+                                                                    true,
+                                                                    false,
+                                                                    false)),
+                                                                    (String
+                                                                    ((Ascii
+                                                                    (false,
+                                                                    true,
+                                                                    true,
+                                                                    true,
+                                                                    false,
+                                                                    true,
+                                                                    false,
+                                                                    false)),
+                                                                    (String
+                                                                    ((Ascii
+                                                                    (false,
+                                                                    false,
+                                                                    false,
+                                                                    false,
+                                                                    true,
+                                                                    true,
+                                                                    true,
+                                                                    false)),
+                                                                    (String
+                                                                    ((Ascii
+                                                                    (true,
+                                                                    false,
+                                                                    true,
+                                                                    false,
+                                                                    true,
+                                                                    true,
+                                                                    true,
+                                                                    false)),
+                                                                    (String
+                                                                    ((Ascii
+                                                                    (false,
+                                                                    true,
+                                                                    false,
+                                                                    false,
+                                                                    false,
+                                                                    true,
+                                                                    true,
+                                                                    false)),
+                                                                    (String
+                                                                    ((Ascii
+                                                                    (true,
+                                                                    true,
+                                                                    false,
+                                                                    true,
+                                                                    false,
+                                                                    true,
+                                                                    true,
+                                                                    false)),
+                                                                    (String
+                                                                    ((Ascii
+                                                                    (true,
+                                                                    false,
+                                                                    true,
+                                                                    false,
+                                                                    false,
+                                                                    true,
+                                                                    true,
+                                                                    false)),
+                                                                    (String
+                                                                    ((Ascii
+                                                                    (true,
+                                                                    false,
+                                                                    false,
+                                                                    true,
+                                                                    true,
+                                                                    true,
+                                                                    true,
+                                                                    false)),
+                                                                    EmptyString))))))))))))))))))))
+                                                                    then 
+                                                                    run_pubkey
+                                                                    a
+                                                                    else 
+                                                                    if 
+                                                                    is
+                                                                    (String
+                                                                    ((Ascii
+                                                                    (true,
+                                                                    true,
+                                                                    false,
+                                                                    false,
+                                                                    false,
+                                                                    true,
+                                                                    true,
+                                                                    false)),
+                                                                    (String
+                                                                    ((Ascii
+                                                                    (true,
+                                                                    false,
+                                                                    false,
+                                                                    false,
+                                                                    true,
+                                                                    true,
+                                                                    false,
+                                                                    false)),
+                                                                    (String
+                                                                    ((Ascii
+                                                                    (true,
+                                                                    false,
+                                                                    false,
+                                                                    true,
+                                                                    true,
+                                                                    true,
+                                                                    false,
+                                                                    false)),
+                                                                    (String
+                                                                    ((Ascii
+                                                                    (false,
+                                                                    true,
+                                                                    true,
+                                                                    true,
+                                                                    false,
+                                                                    true,
+                                                                    false,
+                                                                    false)),
+                                                                    (String
+                                                                    ((Ascii
+                                                                    (true,
+                                                                    true,
+                                                                    false,
+                                                                    false,
+                                                                    true,
+                                                                    true,
+                                                                    true,
+                                                                    false)),
+                                                                    (String
+                                                                    ((Ascii
+                                                                    (false,
+                                                                    false,
+                                                                    true,
+                                                                    false,
+                                                                    true,
+                                                                    true,
+                                                                    true,
+                                                                    false)),
+                                                                    (String
+                                                                    ((Ascii
+                                                                    (true,
+                                                                    false,
+                                                                    false,
+                                                                    false,
+                                                                    false,
+                                                                    true,
+                                                                    true,
+                                                                    false)),
+                                                                    (String
+                                                                    ((Ascii
+                                                                    (false,
+                                                                    false,
+                                                                    true,
+                                                                    false,
+                                                                    true,
+                                                                    true,
+                                                                    true,
+                                                                    false)),
+                                                                    (String
+                                                                    ((Ascii
+                                                                    (true,
+                                                                    false,
+                                                                    true,
+                                                                    false,
+                                                                    false,
+                                                                    true,
+                                                                    true,
+                                                                    false)),
+                                                                    (String
+                                                                    ((Ascii
+                                                                    (true,
+                                                                    false,
+                                                                    false,
+                                                                    true,
+                                                                    false,
+                                                                    true,
+                                                                    true,
+                                                                    false)),
+                                                                    (String
+                                                                    ((Ascii
+                                                                    (false,
+                                                                    true,
+                                                                    true,
+                                                                    true,
+                                                                    false,
+                                                                    true,
+                                                                    true,
+                                                                    false)),
+                                                                    (String
+                                                                    ((Ascii
+                                                                    (true,
+                                                                    false,
+                                                                    false,
+                                                                    true,
+                                                                    false,
+                                                                    true,
+                                                                    true,
+                                                                    false)),
+                                                                    (String
+                                                                    ((Ascii
+                                                                    (false,
+                                                                    false,
+                                                                    true,
+                                                                    false,
+                                                                    true,
+                                                                    true,
+                                                                    true,
+                                                                    false)),
+                                                                    EmptyString))))))))))))))))))))))))))
+                                                                    then 
+                                                                    run_stateinit
+                                                                    a
+                                                                    else 
+                                                                    if 
+                                                                    is
+                                                                    (String
+                                                                    ((Ascii
+                                                                    (true,
+                                                                    true,
+                                                                    false,
+                                                                    false,
+                                                                    false,
+                                                                    true,
+                                                                    true,
+                                                                    false)),
+                                                                    (String
+                                                                    ((Ascii
+                                                                    (true,
+                                                                    false,
+                                                                    false,
+                                                                    false,
+                                                                    true,
+                                                                    true,
+                                                                    false,
+                                                                    false)),
+                                                                    (String
+                                                                    ((Ascii
+                                                                    (true,
+                                                                    false,
+                                                                    false,
+                                                                    true,
+                                                                    true,
+                                                                    true,
+                                                                    false,
+                                                                    false)),
+                                                                    (String
+                                                                    ((Ascii
+                                                                    (false,
+                                                                    true,
+                                                                    true,
+                                                                    true,
+                                                                    false,
+                                                                    true,
+                                                                    false,
+                                                                    false)),
+                                                                    (String
+                                                                    ((Ascii
+                                                                    (true,
+                                                                    true,
+                                                                    false,
+                                                                    false,
+                                                                    false,
+                                                                    true,
+                                                                    true,
+                                                                    false)),
+                                                                    (String
+                                                                    ((Ascii
+                                                                    (false,
+                                                                    false,
+                                                                    false,
+                                                                    true,
+                                                                    false,
+                                                                    true,
+                                                                    true,
+                                                                    false)),
+                                                                    (String
+                                                                    ((Ascii
+                                                                    (true,
+                                                                    false,
+                                                                    true,
+                                                                    false,
+                                                                    false,
+                                                                    true,
+                                                                    true,
+                                                                    false)),
+                                                                    (String
+                                                                    ((Ascii
+                                                                    (true,
+                                                                    true,
+                                                                    false,
+                                                                    false,
+                                                                    false,
+                                                                    true,
+                                                                    true,
+                                                                    false)),
+                                                                    (String
+                                                                    ((Ascii
+                                                                    (true,
+                                                                    true,
+                                                                    false,
+                                                                    true,
+                                                                    false,
+                                                                    true,
+                                                                    true,
+                                                                    false)),
+                                                                    EmptyString))))))))))))))))))
+                                                                    then 
+                                                                    run_check
+                                                                    a
+                                                                    else 
+                                                                    if 
+                                                                    is
+                                                                    (String
+                                                                    ((Ascii
+                                                                    (true,
+                                                                    true,
+                                                                    false,
+                                                                    false,
+                                                                    false,
+                                                                    true,
+                                                                    true,
+                                                                    false)),
+                                                                    (String
+                                                                    ((Ascii
+                                                                    (true,
+                                                                    false,
+                                                                    false,
+                                                                    false,
+                                                                    true,
+                                                                    true,
+                                                                    false,
+                                                                    false)),
+                                                                    (String
+                                                                    ((Ascii
+                                                                    (true,
+                                                                    false,
+                                                                    false,
+                                                                    true,
+                                                                    true,
+                                                                    true,
+                                                                    false,
+                                                                    false)),
+                                                                    (String
+                                                                    ((Ascii
+                                                                    (false,
+                                                                    true,
+                                                                    true,
+                                                                    true,
+                                                                    false,
+                                                                    true,
+                                                                    false,
+                                                                    false)),
+                                                                    (String
+                                                                    ((Ascii
+                                                                    (true,
+                                                                    true,
+                                                                    false,
+                                                                    false,
+                                                                    false,
+                                                                    true,
+                                                                    true,
+                                                                    false)),
+                                                                    (String
+                                                                    ((Ascii
+                                                                    (false,
+                                                                    false,
+                                                                    true,
+                                                                    true,
+                                                                    false,
+                                                                    true,
+                                                                    true,
+                                                                    false)),
+                                                                    (String
+                                                                    ((Ascii
+                                                                    (true,
+                                                                    true,
+                                                                    true,
+                                                                    true,
+                                                                    false,
+                                                                    true,
+                                                                    true,
+                                                                    false)),
+                                                                    (String
+                                                                    ((Ascii
+                                                                    (true,
+                                                                    true,
+                                                                    false,
+                                                                    false,
+                                                                    false,
+                                                                    true,
+                                                                    true,
+                                                                    false)),
+                                                                    (String
+                                                                    ((Ascii
+                                                                    (true,
+                                                                    true,
+                                                                    false,
+                                                                    true,
+                                                                    false,
+                                                                    true,
+                                                                    true,
+                                                                    false)),
+                                                                    EmptyString))))))))))))))))))
+                                                                    then 
+                                                                    run_clock
+                                                                    a
+                                                                    else 
+                                                                    sx_err
+                                                                    (String
+                                                                    ((Ascii
+                                                                    (true,
+                                                                    false,
+                                                                    true,
+                                                                    false,
+                                                                    true,
+                                                                    true,
+                                                                    true,
+                                                                    false)),
+                                                                    (String
+                                                                    ((Ascii
+                                                                    (false,
+                                                                    true,
+                                                                    true,
+                                                                    true,
+                                                                    false,
+                                                                    true,
+                                                                    true,
+                                                                    false)),
+                                                                    (String
+                                                                    ((Ascii
+                                                                    (true,
+                                                                    true,
+                                                                    false,
+                                                                    true,
+                                                                    false,
+                                                                    true,
+                                                                    true,
+                                                                    false)),
+                                                                    (String
+                                                                    ((Ascii
+                                                                    (false,
+                                                                    true,
+                                                                    true,
+                                                                    true,
+                                                                    false,
+                                                                    true,
+                                                                    true,
+                                                                    false)),
+                                                                    (String
+                                                                    ((Ascii
+                                                                    (true,
+                                                                    true,
+                                                                    true,
+                                                                    true,
+                                                                    false,
+                                                                    true,
+                                                                    true,
+                                                                    false)),
+                                                                    (String
+                                                                    ((Ascii
+                                                                    (true,
+                                                                    true,
+                                                                    true,
+                                                                    false,
+                                                                    true,
+                                                                    true,
+                                                                    true,
+                                                                    false)),
+                                                                    (String
+                                                                    ((Ascii
+                                                                    (false,
+                                                                    true,
+                                                                    true,
+                                                                    true,
+                                                                    false,
+                                                                    true,
+                                                                    true,
+                                                                    false)),
+                                                                    (String
+                                                                    ((Ascii
+                                                                    (false,
+                                                                    false,
+                                                                    false,
+                                                                    false,
+                                                                    false,
+                                                                    true,
+                                                                    false,
+                                                                    false)),
+                                                                    (String
+                                                                    ((Ascii
+                                                                    (true,
+                                                                    true,
+                                                                    false,
+                                                                    false,
+                                                                    false,
+                                                                    true,
+                                                                    true,
+                                                                    false)),
+                                                                    (String
+                                                                    ((Ascii
+                                                                    (true,
+                                                                    false,
+                                                                    false,
+                                                                    false,
+                                                                    false,
+                                                                    true,
+                                                                    true,
+                                                                    false)),
+                                                                    (String
+                                                                    ((Ascii
+                                                                    (true,
+                                                                    true,
+                                                                    false,
+                                                                    false,
+                                                                    true,
+                                                                    true,
+                                                                    true,
+                                                                    false)),
+                                                                    (String
+                                                                    ((Ascii
+                                                                    (true,
+                                                                    false,
+                                                                    true,
+                                                                    false,
+                                                                    false,
+                                                                    true,
+                                                                    true,
+                                                                    false)),
+                                                                    (String
+                                                                    ((Ascii
+                                                                    (false,
+                                                                    false,
+                                                                    false,
+                                                                    false,
+                                                                    false,
+                                                                    true,
+                                                                    false,
+                                                                    false)),
+                                                                    (String
+                                                                    ((Ascii
+                                                                    (true,
+                                                                    true,
+                                                                    false,
+                                                                    true,
+                                                                    false,
+                                                                    true,
+                                                                    true,
+                                                                    false)),
+                                                                    (String
+                                                                    ((Ascii
+                                                                    (true,
+                                                                    false,
+                                                                    false,
+                                                                    true,
+                                                                    false,
+                                                                    true,
+                                                                    true,
+                                                                    false)),
+                                                                    (String
+                                                                    ((Ascii
+                                                                    (false,
+                                                                    true,
+                                                                    true,
+                                                                    true,
+                                                                    false,
+                                                                    true,
+                                                                    true,
+                                                                    false)),
+                                                                    (String
+                                                                    ((Ascii
+                                                                    (false,
+                                                                    false,
+                                                                    true,
+                                                                    false,
+                                                                    false,
+                                                                    true,
+                                                                    true,
+                                                                    false)),
+                                                                    EmptyString))))))))))))))))))))))))))))))))))
